@@ -1,7 +1,5303 @@
-//! C22: not implemented yet.
+//! C22: no input makes the library panic, abort or hang.
+//!
+//! Inputs run against an OPEN database of <= 200 rows (fixed schema: six tables with INT/TEXT/DOUBLE/
+//! DECIMAL/DATE/TIMESTAMP/TIME/JSONB/UUID/BLOB/VECTOR columns, secondary/unique/composite indexes, a
+//! unicode-named table; one image built with WAL off, one with WAL on).  Every case starts from a
+//! fresh copy of the image and is a short list of public API calls:
+//!   gram   grammar-generated valid and near-valid statements of every statement kind of the parser
+//!   func   every function of the README tables (and the ones only the code knows) with arity/type errors
+//!   deep   deep nesting (parentheses, subqueries, CASE, NOT, unary minus, function calls...) up to depth ~200
+//!   huge   huge literals (40-digit integers, 1e999, 1 MiB strings), empty strings, unicode identifiers,
+//!          unterminated quotes/comments
+//!   mut    token-level mutations of the SQL harvested at run time from /repo/tests/*.rs
+//!   bytes  random byte strings lossily decoded to &str
+//!   params execute_with_params / prepare+bind+execute/query with wrong length/type/huge parameters
+//!   api    call sequences over several handles and threads (clone, close, use-after-close, drop with
+//!          an open transaction, checkpoint, insert_batch, bulk_insert, reopen)
+//! Monitor: panic hook (first /repo/src frame) + catch_unwind in re-exec'd worker processes (8 MiB
+//! stack, RLIMIT_AS 4 GiB) that publish (case, step, heartbeat) in a shared-memory black box, so that
+//! aborts (allocation failure, stack overflow, fatal signals) and CPU-time-measured hangs are attributed
+//! to the exact call.  Hang rule (two stages): a call burning > 20 CPU-s is abandoned and the case is
+//! re-run ALONE with a 120 CPU-s limit; only the second expiry is reported.
+//! Signature: C22/<entry point>/<statement kind | fn:NAME | api op>/<panic:file.rs:line | abort:kind | hang>.
+//! Cases are a pure function of (seed, unit, index): `tv C22 --tier T --seed S child <unit> <idx> 1 <dir>`
+//! replays one; `tv C22 --replay <file>` re-runs the minimal case stored in a replay file.
+#![allow(unused_variables, unused_mut, unused_assignments)]
+use crate::report::{self, Ctx};
+use crate::rng::{fnv, Rng};
 use crate::Args;
+use serde_json::{json, Value};
+use std::cell::RefCell;
+use std::collections::{BTreeMap, HashMap, HashSet};
+use std::io::Write as _;
+use std::path::{Path, PathBuf};
+use std::sync::atomic::{AtomicPtr, AtomicU64, Ordering};
+use turdb::{Database, ExecuteResult, OwnedValue};
 
-pub fn run(_a: &Args) -> i32 {
-    println!("INCONCLUSIVE property=C22 reason=check not implemented yet");
-    2
+const PROP: &str = "C22";
+const STREAM: u64 = 22;
+
+// ------------------------------------------------------------------------------------------
+// panic capture: site = panic location if it is in /repo, else the first /repo frame of a backtrace
+// ------------------------------------------------------------------------------------------
+thread_local! {
+    static REPO_FRAME: RefCell<Option<String>> = RefCell::new(None);
+}
+/// black box of this process (if any): heartbeat target for every thread and for the panic hook
+static BB_PTR: AtomicPtr<u8> = AtomicPtr::new(std::ptr::null_mut());
+
+fn bb_beat() {
+    let p = BB_PTR.load(Ordering::Relaxed);
+    if !p.is_null() {
+        unsafe {
+            let hb = &*(p.add(8) as *const AtomicU64);
+            hb.fetch_add(1, Ordering::Relaxed);
+        }
+    }
+}
+
+fn bb_symbolizing(on: bool) {
+    let p = BB_PTR.load(Ordering::Relaxed);
+    if !p.is_null() {
+        unsafe { std::ptr::write_volatile(p.add(24), on as u8) };
+        bb_beat();
+    }
+}
+
+fn first_repo_frame() -> Option<String> {
+    if cfg!(miri) {
+        return None;
+    }
+    bb_symbolizing(true);
+    let bt = std::backtrace::Backtrace::force_capture().to_string();
+    bb_symbolizing(false);
+    for line in bt.lines() {
+        let l = line.trim();
+        if let Some(rest) = l.strip_prefix("at ") {
+            if rest.starts_with("/repo/src/") {
+                let mut parts = rest["/repo/".len()..].split(':');
+                let f = parts.next().unwrap_or("");
+                let ln = parts.next().unwrap_or("");
+                return Some(format!("{}:{}", f, ln));
+            }
+        }
+    }
+    None
+}
+
+fn install_hook() {
+    use std::sync::Once;
+    static ONCE: Once = Once::new();
+    ONCE.call_once(|| {
+        report::install_panic_hook();
+        let prev = std::panic::take_hook();
+        std::panic::set_hook(Box::new(move |info| {
+            prev(info);
+            let file = info.location().map(|l| l.file().to_string()).unwrap_or_default();
+            let in_repo = file.starts_with("/repo/") || file.starts_with("src/");
+            let fr = if in_repo { None } else { first_repo_frame() };
+            REPO_FRAME.with(|p| *p.borrow_mut() = fr);
+        }));
+    });
+}
+
+/// run `f`; on panic return (site relative to /repo/src, message)
+fn guard<T>(f: impl FnOnce() -> T) -> Result<T, (String, String)> {
+    install_hook();
+    REPO_FRAME.with(|p| p.borrow_mut().take());
+    match report::catch(f) {
+        Ok(v) => Ok(v),
+        Err(msg) => {
+            let raw = report::panic_site(&msg);
+            let site = if let Some(s) = raw.strip_prefix("/repo/") {
+                s.to_string()
+            } else if raw.starts_with("src/") {
+                // relative path: the harness itself (the repo is compiled with absolute paths)
+                format!("harness:{}", raw)
+            } else {
+                match REPO_FRAME.with(|p| p.borrow_mut().take()) {
+                    Some(fr) => fr,
+                    None => {
+                        let b = raw.rsplit('/').next().unwrap_or(&raw).to_string();
+                        format!("std:{}", b)
+                    }
+                }
+            };
+            let site = site.strip_prefix("src/").map(|s| s.to_string()).unwrap_or(site);
+            Err((site, msg))
+        }
+    }
+}
+
+// ------------------------------------------------------------------------------------------
+// black box: shared file mapping the parent can read after the child died
+// layout: [0..8) case index  [8..16) heartbeat  [16..24) cases finished  [24] symbolising flag
+// [32..80) label "<step>:<entry>" (NUL padded)  [80..88) cases whose counters were flushed
+// ------------------------------------------------------------------------------------------
+pub struct BlackBox {
+    ptr: *mut u8,
+}
+unsafe impl Send for BlackBox {}
+unsafe impl Sync for BlackBox {}
+const BB_SIZE: usize = 4096;
+
+impl BlackBox {
+    fn open(path: &Path) -> Option<BlackBox> {
+        use std::os::unix::io::AsRawFd;
+        let f = std::fs::OpenOptions::new().read(true).write(true).create(true).open(path).ok()?;
+        f.set_len(BB_SIZE as u64).ok()?;
+        let p = unsafe { libc::mmap(std::ptr::null_mut(), BB_SIZE, libc::PROT_READ | libc::PROT_WRITE, libc::MAP_SHARED, f.as_raw_fd(), 0) };
+        if p == libc::MAP_FAILED {
+            return None;
+        }
+        BB_PTR.store(p as *mut u8, Ordering::Relaxed);
+        Some(BlackBox { ptr: p as *mut u8 })
+    }
+    fn begin(&self, idx: u64) {
+        unsafe { std::ptr::write_volatile(self.ptr as *mut u64, idx) };
+        bb_beat();
+    }
+    fn finished(&self, n: u64) {
+        unsafe { std::ptr::write_volatile(self.ptr.add(16) as *mut u64, n) }
+    }
+    fn flushed(&self, n: u64) {
+        unsafe { std::ptr::write_volatile(self.ptr.add(80) as *mut u64, n) }
+    }
+    fn op(&self, label: &str) {
+        unsafe {
+            let dst = self.ptr.add(32);
+            let b = label.as_bytes();
+            let n = b.len().min(47);
+            std::ptr::copy_nonoverlapping(b.as_ptr(), dst, n);
+            std::ptr::write_volatile(dst.add(n), 0);
+        }
+        bb_beat();
+    }
+}
+
+/// parent side: (case idx, heartbeat, finished, label, symbolising, flushed)
+fn read_blackbox(path: &Path) -> Option<(u64, u64, u64, String, bool, u64)> {
+    let d = std::fs::read(path).ok()?;
+    if d.len() < 96 {
+        return None;
+    }
+    let idx = u64::from_le_bytes(d[0..8].try_into().ok()?);
+    let hb = u64::from_le_bytes(d[8..16].try_into().ok()?);
+    let fin = u64::from_le_bytes(d[16..24].try_into().ok()?);
+    let lab = &d[32..80];
+    let n = lab.iter().position(|b| *b == 0).unwrap_or(lab.len());
+    let flushed = u64::from_le_bytes(d[80..88].try_into().ok()?);
+    Some((idx, hb, fin, String::from_utf8_lossy(&lab[..n]).to_string(), d[24] != 0, flushed))
+}
+
+// ------------------------------------------------------------------------------------------
+// text with run-length segments: huge literals and deep nesting stay small in replay files and
+// can be shrunk by halving the repeat counts
+// ------------------------------------------------------------------------------------------
+#[derive(Clone, Debug, PartialEq)]
+pub enum Seg {
+    Lit(String),
+    Rep(String, usize),
+}
+
+#[derive(Clone, Debug, PartialEq, Default)]
+pub struct Txt(pub Vec<Seg>);
+
+impl Txt {
+    pub fn lit(s: impl Into<String>) -> Txt {
+        Txt(vec![Seg::Lit(s.into())])
+    }
+    pub fn push(&mut self, s: impl Into<String>) {
+        let s = s.into();
+        if let Some(Seg::Lit(l)) = self.0.last_mut() {
+            l.push_str(&s);
+        } else {
+            self.0.push(Seg::Lit(s));
+        }
+    }
+    pub fn rep(&mut self, s: impl Into<String>, n: usize) {
+        self.0.push(Seg::Rep(s.into(), n));
+    }
+    pub fn len(&self) -> usize {
+        self.0.iter().map(|s| match s { Seg::Lit(l) => l.len(), Seg::Rep(r, n) => r.len() * n }).sum()
+    }
+    pub fn render(&self) -> String {
+        let mut out = String::with_capacity(self.len());
+        for s in &self.0 {
+            match s {
+                Seg::Lit(l) => out.push_str(l),
+                Seg::Rep(r, n) => {
+                    for _ in 0..*n {
+                        out.push_str(r);
+                    }
+                }
+            }
+        }
+        out
+    }
+    pub fn has_rep(&self) -> bool {
+        self.0.iter().any(|s| matches!(s, Seg::Rep(_, n) if *n > 1))
+    }
+    /// JSON: a plain string, or an array of strings and [string, count] pairs
+    pub fn to_json(&self) -> Value {
+        if self.0.len() == 1 {
+            if let Seg::Lit(l) = &self.0[0] {
+                return json!(l);
+            }
+        }
+        Value::Array(self.0.iter().map(|s| match s { Seg::Lit(l) => json!(l), Seg::Rep(r, n) => json!([r, n]) }).collect())
+    }
+    pub fn from_json(v: &Value) -> Txt {
+        match v {
+            Value::String(s) => Txt::lit(s.clone()),
+            Value::Array(a) => Txt(a
+                .iter()
+                .map(|e| match e {
+                    Value::String(s) => Seg::Lit(s.clone()),
+                    Value::Array(p) => Seg::Rep(p.first().and_then(|x| x.as_str()).unwrap_or("").to_string(), p.get(1).and_then(|x| x.as_u64()).unwrap_or(0) as usize),
+                    _ => Seg::Lit(String::new()),
+                })
+                .collect()),
+            _ => Txt::default(),
+        }
+    }
+    /// merge adjacent literals, drop empty segments
+    pub fn normalized(&self) -> Txt {
+        let mut t = Txt::default();
+        for s in &self.0 {
+            match s {
+                Seg::Lit(l) => {
+                    if !l.is_empty() {
+                        t.push(l.clone())
+                    }
+                }
+                Seg::Rep(r, n) => {
+                    if *n > 0 && !r.is_empty() {
+                        if *n == 1 {
+                            t.push(r.clone())
+                        } else {
+                            t.rep(r.clone(), *n)
+                        }
+                    }
+                }
+            }
+        }
+        t
+    }
+}
+
+// ------------------------------------------------------------------------------------------
+// parameter values (serialisable mirror of OwnedValue)
+// ------------------------------------------------------------------------------------------
+#[derive(Clone, Debug, PartialEq)]
+pub enum P {
+    Null,
+    Bool(bool),
+    Int(i64),
+    Float(u64),
+    Text(Txt),
+    Blob(Txt),
+    /// n copies of f32 bits
+    Vector(u32, usize),
+    Date(i32),
+    Time(i64),
+    Timestamp(i64),
+    TimestampTz(i64, i32),
+    Uuid(u8),
+    MacAddr(u8),
+    Inet4(u8),
+    Inet6(u8),
+    Interval(i64, i32, i32),
+    Point(u64, u64),
+    GeoBox(u64),
+    Circle(u64),
+    Jsonb(Txt),
+    Decimal(i128, i16),
+    Enum(u16, u16),
+    Toast(Txt),
+}
+
+impl P {
+    fn to_owned_value(&self) -> OwnedValue {
+        match self {
+            P::Null => OwnedValue::Null,
+            P::Bool(b) => OwnedValue::Bool(*b),
+            P::Int(i) => OwnedValue::Int(*i),
+            P::Float(b) => OwnedValue::Float(f64::from_bits(*b)),
+            P::Text(t) => OwnedValue::Text(t.render()),
+            P::Blob(t) => OwnedValue::Blob(t.render().into_bytes()),
+            P::Vector(bits, n) => OwnedValue::Vector(vec![f32::from_bits(*bits); *n]),
+            P::Date(d) => OwnedValue::Date(*d),
+            P::Time(t) => OwnedValue::Time(*t),
+            P::Timestamp(t) => OwnedValue::Timestamp(*t),
+            P::TimestampTz(t, o) => OwnedValue::TimestampTz(*t, *o),
+            P::Uuid(b) => OwnedValue::Uuid([*b; 16]),
+            P::MacAddr(b) => OwnedValue::MacAddr([*b; 6]),
+            P::Inet4(b) => OwnedValue::Inet4([*b; 4]),
+            P::Inet6(b) => OwnedValue::Inet6([*b; 16]),
+            P::Interval(a, b, c) => OwnedValue::Interval(*a, *b, *c),
+            P::Point(a, b) => OwnedValue::Point(f64::from_bits(*a), f64::from_bits(*b)),
+            P::GeoBox(a) => OwnedValue::Box((f64::from_bits(*a), 0.0), (1.0, f64::from_bits(*a))),
+            P::Circle(a) => OwnedValue::Circle((f64::from_bits(*a), 1.0), f64::from_bits(*a)),
+            P::Jsonb(t) => OwnedValue::Jsonb(t.render().into_bytes()),
+            P::Decimal(d, s) => OwnedValue::Decimal(*d, *s),
+            P::Enum(a, b) => OwnedValue::Enum(*a, *b),
+            P::Toast(t) => OwnedValue::ToastPointer(t.render().into_bytes()),
+        }
+    }
+    fn kind(&self) -> &'static str {
+        match self {
+            P::Null => "Null",
+            P::Bool(_) => "Bool",
+            P::Int(_) => "Int",
+            P::Float(_) => "Float",
+            P::Text(_) => "Text",
+            P::Blob(_) => "Blob",
+            P::Vector(..) => "Vector",
+            P::Date(_) => "Date",
+            P::Time(_) => "Time",
+            P::Timestamp(_) => "Timestamp",
+            P::TimestampTz(..) => "TimestampTz",
+            P::Uuid(_) => "Uuid",
+            P::MacAddr(_) => "MacAddr",
+            P::Inet4(_) => "Inet4",
+            P::Inet6(_) => "Inet6",
+            P::Interval(..) => "Interval",
+            P::Point(..) => "Point",
+            P::GeoBox(_) => "Box",
+            P::Circle(_) => "Circle",
+            P::Jsonb(_) => "Jsonb",
+            P::Decimal(..) => "Decimal",
+            P::Enum(..) => "Enum",
+            P::Toast(_) => "ToastPointer",
+        }
+    }
+    fn to_json(&self) -> Value {
+        let k = self.kind();
+        match self {
+            P::Null => json!({"t": k}),
+            P::Bool(b) => json!({"t": k, "v": b}),
+            P::Int(i) => json!({"t": k, "v": i.to_string()}),
+            P::Float(b) => json!({"t": k, "bits": b.to_string(), "value": format!("{:e}", f64::from_bits(*b))}),
+            P::Text(t) | P::Blob(t) | P::Jsonb(t) | P::Toast(t) => json!({"t": k, "v": t.to_json()}),
+            P::Vector(b, n) => json!({"t": k, "bits": b, "n": n, "value": format!("{:e}", f32::from_bits(*b))}),
+            P::Date(d) => json!({"t": k, "v": d}),
+            P::Time(t) | P::Timestamp(t) => json!({"t": k, "v": t.to_string()}),
+            P::TimestampTz(t, o) => json!({"t": k, "v": t.to_string(), "o": o}),
+            P::Uuid(b) | P::MacAddr(b) | P::Inet4(b) | P::Inet6(b) => json!({"t": k, "v": b}),
+            P::Interval(a, b, c) => json!({"t": k, "v": a.to_string(), "b": b, "c": c}),
+            P::Point(a, b) => json!({"t": k, "a": a.to_string(), "b": b.to_string()}),
+            P::GeoBox(a) | P::Circle(a) => json!({"t": k, "a": a.to_string()}),
+            P::Decimal(d, s) => json!({"t": k, "v": d.to_string(), "s": s}),
+            P::Enum(a, b) => json!({"t": k, "a": a, "b": b}),
+        }
+    }
+    fn from_json(v: &Value) -> P {
+        let s = |k: &str| v[k].as_str().unwrap_or("0").to_string();
+        let n = |k: &str| v[k].as_i64().unwrap_or(0);
+        match v["t"].as_str().unwrap_or("Null") {
+            "Bool" => P::Bool(v["v"].as_bool().unwrap_or(false)),
+            "Int" => P::Int(s("v").parse().unwrap_or(0)),
+            "Float" => P::Float(s("bits").parse().unwrap_or(0)),
+            "Text" => P::Text(Txt::from_json(&v["v"])),
+            "Blob" => P::Blob(Txt::from_json(&v["v"])),
+            "Jsonb" => P::Jsonb(Txt::from_json(&v["v"])),
+            "ToastPointer" => P::Toast(Txt::from_json(&v["v"])),
+            "Vector" => P::Vector(n("bits") as u32, n("n") as usize),
+            "Date" => P::Date(n("v") as i32),
+            "Time" => P::Time(s("v").parse().unwrap_or(0)),
+            "Timestamp" => P::Timestamp(s("v").parse().unwrap_or(0)),
+            "TimestampTz" => P::TimestampTz(s("v").parse().unwrap_or(0), n("o") as i32),
+            "Uuid" => P::Uuid(n("v") as u8),
+            "MacAddr" => P::MacAddr(n("v") as u8),
+            "Inet4" => P::Inet4(n("v") as u8),
+            "Inet6" => P::Inet6(n("v") as u8),
+            "Interval" => P::Interval(s("v").parse().unwrap_or(0), n("b") as i32, n("c") as i32),
+            "Point" => P::Point(s("a").parse().unwrap_or(0), s("b").parse().unwrap_or(0)),
+            "Box" => P::GeoBox(s("a").parse().unwrap_or(0)),
+            "Circle" => P::Circle(s("a").parse().unwrap_or(0)),
+            "Decimal" => P::Decimal(s("v").parse().unwrap_or(0), n("s") as i16),
+            "Enum" => P::Enum(n("a") as u16, n("b") as u16),
+            _ => P::Null,
+        }
+    }
+}
+
+fn params_json(ps: &[P]) -> Value {
+    Value::Array(ps.iter().map(|p| p.to_json()).collect())
+}
+fn params_from(v: &Value) -> Vec<P> {
+    v.as_array().map(|a| a.iter().map(P::from_json).collect()).unwrap_or_default()
+}
+fn rows_json(rows: &[Vec<P>]) -> Value {
+    Value::Array(rows.iter().map(|r| params_json(r)).collect())
+}
+fn rows_from(v: &Value) -> Vec<Vec<P>> {
+    v.as_array().map(|a| a.iter().map(params_from).collect()).unwrap_or_default()
+}
+
+// ------------------------------------------------------------------------------------------
+// cases: a list of API calls over handles (handle 0 = the database opened on the fresh copy)
+// ------------------------------------------------------------------------------------------
+#[derive(Clone, Debug, PartialEq)]
+pub enum Round {
+    /// bind all values (chained .bind()) then execute (false) or query (true)
+    Bind(Vec<P>, bool),
+    /// a plain execute between two uses of the prepared statement
+    Exec(Txt),
+}
+
+#[derive(Clone, Debug, PartialEq)]
+pub enum Op {
+    Exec(Txt),
+    Query(Txt),
+    QueryCols(Txt),
+    ExecParams(Txt, Vec<P>),
+    Prepare(Txt, Vec<Round>),
+    InsertBatch(String, Vec<Vec<P>>),
+    BulkInsert(String, Vec<Vec<P>>),
+    Checkpoint,
+    CheckpointWal,
+    Close,
+    CloneHandle,
+    DropHandle,
+    /// drop every handle, open the directory again as handle 0
+    ReopenAll,
+    /// each thread gets a clone of handle 0 as its handle 0
+    Threads(Vec<Vec<Step>>),
+}
+
+#[derive(Clone, Debug, PartialEq)]
+pub struct Step {
+    pub h: u8,
+    pub op: Op,
+}
+
+impl Step {
+    fn exec(s: impl Into<String>) -> Step {
+        Step { h: 0, op: Op::Exec(Txt::lit(s)) }
+    }
+    fn query(s: impl Into<String>) -> Step {
+        Step { h: 0, op: Op::Query(Txt::lit(s)) }
+    }
+    fn sql(&self) -> Option<&Txt> {
+        match &self.op {
+            Op::Exec(t) | Op::Query(t) | Op::QueryCols(t) | Op::ExecParams(t, _) | Op::Prepare(t, _) => Some(t),
+            _ => None,
+        }
+    }
+    fn sql_mut(&mut self) -> Option<&mut Txt> {
+        match &mut self.op {
+            Op::Exec(t) | Op::Query(t) | Op::QueryCols(t) | Op::ExecParams(t, _) | Op::Prepare(t, _) => Some(t),
+            _ => None,
+        }
+    }
+    /// entry point name used in signatures
+    fn entry(&self) -> &'static str {
+        match &self.op {
+            Op::Exec(_) => "execute",
+            Op::Query(_) | Op::QueryCols(_) => "query",
+            Op::ExecParams(..) => "execute_with_params",
+            Op::Prepare(..) => "prepare",
+            _ => "api_sequence",
+        }
+    }
+    fn op_name(&self) -> &'static str {
+        match &self.op {
+            Op::Exec(_) => "execute",
+            Op::Query(_) => "query",
+            Op::QueryCols(_) => "query_with_columns",
+            Op::ExecParams(..) => "execute_with_params",
+            Op::Prepare(..) => "prepare",
+            Op::InsertBatch(..) => "insert_batch",
+            Op::BulkInsert(..) => "bulk_insert",
+            Op::Checkpoint => "checkpoint",
+            Op::CheckpointWal => "checkpoint_wal",
+            Op::Close => "close",
+            Op::CloneHandle => "clone",
+            Op::DropHandle => "drop",
+            Op::ReopenAll => "reopen",
+            Op::Threads(_) => "threads",
+        }
+    }
+    fn to_json(&self) -> Value {
+        let mut v = json!({"h": self.h, "op": self.op_name()});
+        match &self.op {
+            Op::Exec(t) | Op::Query(t) | Op::QueryCols(t) => v["sql"] = t.to_json(),
+            Op::ExecParams(t, ps) => {
+                v["sql"] = t.to_json();
+                v["params"] = params_json(ps);
+            }
+            Op::Prepare(t, rounds) => {
+                v["sql"] = t.to_json();
+                v["rounds"] = Value::Array(
+                    rounds
+                        .iter()
+                        .map(|r| match r {
+                            Round::Bind(ps, q) => json!({"bind": params_json(ps), "then": if *q { "query" } else { "execute" }}),
+                            Round::Exec(t) => json!({"execute": t.to_json()}),
+                        })
+                        .collect(),
+                );
+            }
+            Op::InsertBatch(t, rows) | Op::BulkInsert(t, rows) => {
+                v["table"] = json!(t);
+                v["rows"] = rows_json(rows);
+            }
+            Op::Threads(ts) => v["threads"] = Value::Array(ts.iter().map(|t| Value::Array(t.iter().map(|s| s.to_json()).collect())).collect()),
+            _ => {}
+        }
+        v
+    }
+    fn from_json(v: &Value) -> Option<Step> {
+        let h = v["h"].as_u64().unwrap_or(0) as u8;
+        let t = || Txt::from_json(&v["sql"]);
+        let op = match v["op"].as_str()? {
+            "execute" => Op::Exec(t()),
+            "query" => Op::Query(t()),
+            "query_with_columns" => Op::QueryCols(t()),
+            "execute_with_params" => Op::ExecParams(t(), params_from(&v["params"])),
+            "prepare" => Op::Prepare(
+                t(),
+                v["rounds"]
+                    .as_array()
+                    .map(|a| {
+                        a.iter()
+                            .map(|r| if r.get("bind").is_some() { Round::Bind(params_from(&r["bind"]), r["then"].as_str() == Some("query")) } else { Round::Exec(Txt::from_json(&r["execute"])) })
+                            .collect()
+                    })
+                    .unwrap_or_default(),
+            ),
+            "insert_batch" => Op::InsertBatch(v["table"].as_str().unwrap_or("").to_string(), rows_from(&v["rows"])),
+            "bulk_insert" => Op::BulkInsert(v["table"].as_str().unwrap_or("").to_string(), rows_from(&v["rows"])),
+            "checkpoint" => Op::Checkpoint,
+            "checkpoint_wal" => Op::CheckpointWal,
+            "close" => Op::Close,
+            "clone" => Op::CloneHandle,
+            "drop" => Op::DropHandle,
+            "reopen" => Op::ReopenAll,
+            "threads" => Op::Threads(v["threads"].as_array().map(|a| a.iter().map(|t| t.as_array().map(|s| s.iter().filter_map(Step::from_json).collect()).unwrap_or_default()).collect()).unwrap_or_default()),
+            _ => return None,
+        };
+        Some(Step { h, op })
+    }
+}
+
+#[derive(Clone, Debug, PartialEq)]
+pub struct Case {
+    pub unit: String,
+    pub idx: u64,
+    pub wal: bool,
+    /// generator class (for the structural hash and the evidence)
+    pub tag: String,
+    /// overrides the statement kind in signatures (function unit: "fn:NAME")
+    pub kind: Option<String>,
+    pub steps: Vec<Step>,
+}
+
+impl Case {
+    fn to_json(&self) -> Value {
+        json!({
+            "unit": self.unit, "idx": self.idx, "wal": self.wal, "tag": self.tag, "kind": self.kind,
+            "database": if self.wal { "fresh copy of the base image built with PRAGMA wal = ON (see DB_SETUP in c22.rs); PRAGMA wal = ON is executed after open" } else { "fresh copy of the base image built with WAL off (see DB_SETUP in c22.rs)" },
+            "steps": Value::Array(self.steps.iter().map(|s| s.to_json()).collect()),
+        })
+    }
+    fn from_json(v: &Value) -> Option<Case> {
+        Some(Case {
+            unit: v["unit"].as_str().unwrap_or("replay").to_string(),
+            idx: v["idx"].as_u64().unwrap_or(0),
+            wal: v["wal"].as_bool().unwrap_or(false),
+            tag: v["tag"].as_str().unwrap_or("").to_string(),
+            kind: v["kind"].as_str().map(|s| s.to_string()),
+            steps: v["steps"].as_array()?.iter().filter_map(Step::from_json).collect(),
+        })
+    }
+}
+
+// ------------------------------------------------------------------------------------------
+// own tokenizer (independent of the lexer under test): used for mutation and shrinking
+// ------------------------------------------------------------------------------------------
+const MULTI_OPS: &[&str] = &["<=>", "<->", "<#>", "->>", "#>>", "<>", "<=", ">=", "!=", "||", "->", "#>", "@>", "<@", "&&", "::", "<<", ">>", "=="];
+
+pub fn tokenize(s: &str) -> Vec<String> {
+    let b = s.as_bytes();
+    let mut out = vec![];
+    let mut i = 0;
+    // all cut points below are at ASCII bytes or at char boundaries found with char_indices
+    while i < b.len() {
+        let c = b[i];
+        if c == b' ' || c == b'\t' || c == b'\n' || c == b'\r' {
+            i += 1;
+            continue;
+        }
+        let start = i;
+        if c.is_ascii_alphabetic() || c == b'_' {
+            if (c == b'x' || c == b'X') && b.get(i + 1) == Some(&b'\'') {
+                i += 2;
+                while i < b.len() && b[i] != b'\'' {
+                    i += 1;
+                }
+                i = (i + 1).min(b.len());
+            } else {
+                while i < b.len() && (b[i].is_ascii_alphanumeric() || b[i] == b'_') {
+                    i += 1;
+                }
+            }
+        } else if c.is_ascii_digit() {
+            while i < b.len() && (b[i].is_ascii_alphanumeric() || b[i] == b'_' || b[i] == b'.' || ((b[i] == b'+' || b[i] == b'-') && (b[i - 1] == b'e' || b[i - 1] == b'E'))) {
+                i += 1;
+            }
+        } else if c == b'\'' || c == b'"' || c == b'`' {
+            i += 1;
+            loop {
+                if i >= b.len() {
+                    break;
+                }
+                if b[i] == c {
+                    if b.get(i + 1) == Some(&c) {
+                        i += 2;
+                        continue;
+                    }
+                    i += 1;
+                    break;
+                }
+                if b[i] == b'\\' && c == b'\'' && i + 1 < b.len() && b[i + 1].is_ascii() {
+                    i += 2;
+                    continue;
+                }
+                i += 1;
+            }
+        } else if c == b'-' && b.get(i + 1) == Some(&b'-') {
+            while i < b.len() && b[i] != b'\n' {
+                i += 1;
+            }
+            i = (i + 1).min(b.len());
+        } else if c == b'/' && b.get(i + 1) == Some(&b'*') {
+            i += 2;
+            while i < b.len() && !(b[i] == b'*' && b.get(i + 1) == Some(&b'/')) {
+                i += 1;
+            }
+            i = (i + 2).min(b.len());
+        } else if c >= 0x80 {
+            // run of non-ASCII characters
+            while i < b.len() && b[i] >= 0x80 {
+                i += 1;
+            }
+        } else {
+            let mut matched = false;
+            for op in MULTI_OPS {
+                if b[i..].starts_with(op.as_bytes()) {
+                    i += op.len();
+                    matched = true;
+                    break;
+                }
+            }
+            if !matched {
+                i += 1;
+            }
+        }
+        // strings/quoted tokens may end inside a multi-byte char only if the input was cut; be safe
+        while i < b.len() && !s.is_char_boundary(i) {
+            i += 1;
+        }
+        out.push(s[start..i].to_string());
+    }
+    out
+}
+
+pub fn join_tokens(t: &[String]) -> String {
+    t.join(" ")
+}
+
+fn first_words(s: &str, n: usize) -> Vec<String> {
+    let mut out = vec![];
+    let b = s.as_bytes();
+    let mut i = 0;
+    while out.len() < n && i < b.len() {
+        while i < b.len() && !(b[i].is_ascii_alphabetic() || b[i] == b'_') {
+            if b[i] >= 0x80 || b[i] == b'\'' || b[i] == b'"' || b[i].is_ascii_digit() {
+                return out;
+            }
+            // skip whitespace, parentheses and comment starts
+            if b[i] == b'-' && b.get(i + 1) == Some(&b'-') {
+                while i < b.len() && b[i] != b'\n' {
+                    i += 1;
+                }
+                continue;
+            }
+            if b[i] == b'/' && b.get(i + 1) == Some(&b'*') {
+                i += 2;
+                while i < b.len() && !(b[i] == b'*' && b.get(i + 1) == Some(&b'/')) {
+                    i += 1;
+                }
+                i = (i + 2).min(b.len());
+                continue;
+            }
+            if !(b[i] == b' ' || b[i] == b'\t' || b[i] == b'\n' || b[i] == b'\r' || b[i] == b'(' || b[i] == b';') {
+                return out;
+            }
+            i += 1;
+        }
+        let st = i;
+        while i < b.len() && (b[i].is_ascii_alphanumeric() || b[i] == b'_') {
+            i += 1;
+        }
+        if i > st {
+            out.push(s[st..i].to_ascii_uppercase());
+        }
+    }
+    out
+}
+
+/// statement kind for signatures, decided from the leading keywords of the text
+pub fn stmt_kind(t: &Txt) -> String {
+    // only the head of the text matters; huge inputs are not rendered completely
+    let mut head = String::new();
+    for s in &t.0 {
+        match s {
+            Seg::Lit(l) => head.push_str(l),
+            Seg::Rep(r, n) => {
+                for _ in 0..(*n).min(64) {
+                    head.push_str(r);
+                    if head.len() > 400 {
+                        break;
+                    }
+                }
+            }
+        }
+        if head.len() > 400 {
+            break;
+        }
+    }
+    let w = first_words(&head, 4);
+    let w0 = w.first().map(|s| s.as_str()).unwrap_or("");
+    let w1 = w.get(1).map(|s| s.as_str()).unwrap_or("");
+    match w0 {
+        "SELECT" | "INSERT" | "UPDATE" | "DELETE" | "DROP" | "ALTER" | "TRUNCATE" | "BEGIN" | "COMMIT" | "ROLLBACK" | "SAVEPOINT" | "RELEASE" | "EXPLAIN" | "CALL" | "MERGE" | "SET" | "SHOW" | "RESET" | "GRANT" | "REVOKE" | "PRAGMA" => w0.to_string(),
+        "WITH" => "SELECT".to_string(),
+        "CREATE" => {
+            let mut k = w1;
+            if k == "OR" {
+                k = w.get(3).map(|s| s.as_str()).unwrap_or("");
+            }
+            if k == "UNIQUE" {
+                k = "INDEX";
+            }
+            if k == "TEMPORARY" || k == "TEMP" {
+                k = "TABLE";
+            }
+            if k == "MATERIALIZED" {
+                k = "VIEW";
+            }
+            match k {
+                "TABLE" | "INDEX" | "SCHEMA" | "VIEW" | "FUNCTION" | "PROCEDURE" | "TRIGGER" | "TYPE" | "DOMAIN" => format!("CREATE_{}", k),
+                _ => "CREATE".to_string(),
+            }
+        }
+        _ => "other".to_string(),
+    }
+}
+
+// ------------------------------------------------------------------------------------------
+// the database every case runs against (<= 200 rows in total)
+// ------------------------------------------------------------------------------------------
+pub struct Tab {
+    pub name: &'static str,
+    pub rows: u64,
+    /// (column, class) class: i int, f float, t text, b bool, d date, s timestamp, m time, j jsonb, v vector, u uuid, x blob, n decimal
+    pub cols: &'static [(&'static str, char)],
+}
+
+pub const TABS: &[Tab] = &[
+    Tab { name: "t1", rows: 60, cols: &[("id", 'i'), ("a", 'i'), ("b", 't'), ("c", 'f'), ("d", 'b'), ("u", 'i'), ("s", 'i'), ("r", 'f')] },
+    Tab { name: "t2", rows: 40, cols: &[("id", 'i'), ("t1_id", 'i'), ("name", 't'), ("amount", 'n'), ("qty", 'i'), ("note", 't')] },
+    Tab { name: "t3", rows: 30, cols: &[("id", 'i'), ("title", 't'), ("emb", 'v')] },
+    Tab { name: "t4", rows: 40, cols: &[("id", 'i'), ("dt", 'd'), ("ts", 's'), ("tm", 'm'), ("j", 'j'), ("uid", 'u'), ("bl", 'x')] },
+    Tab { name: "t5", rows: 8, cols: &[("k", 't'), ("v", 'i')] },
+    Tab { name: "\"ünï\"", rows: 5, cols: &[("\"ключ\"", 'i'), ("\"值\"", 't')] },
+];
+
+fn sql_str(s: &str) -> String {
+    format!("'{}'", s.replace('\'', "''"))
+}
+
+/// DDL + rows of the base image; fixed (independent of the seed) so that replay files are self-contained
+pub fn db_setup() -> Vec<String> {
+    let mut v: Vec<String> = vec![
+        "CREATE TABLE t1 (id BIGINT PRIMARY KEY, a INT, b TEXT, c DOUBLE, d BOOLEAN, u INT UNIQUE, s SMALLINT, r REAL)".into(),
+        "CREATE TABLE t2 (id INT PRIMARY KEY, t1_id BIGINT, name VARCHAR(40) NOT NULL, amount DECIMAL, qty INT DEFAULT 1, note TEXT)".into(),
+        "CREATE TABLE t3 (id BIGINT PRIMARY KEY AUTO_INCREMENT, title TEXT, emb VECTOR(4))".into(),
+        "CREATE TABLE t4 (id INT PRIMARY KEY, dt DATE, ts TIMESTAMP, tm TIME, j JSONB, uid UUID, bl BLOB)".into(),
+        "CREATE TABLE t5 (k TEXT PRIMARY KEY, v INT CHECK (v >= 0))".into(),
+        "CREATE TABLE \"ünï\" (\"ключ\" INT, \"值\" TEXT)".into(),
+    ];
+    let texts = ["", "a", "abc", "héllo wörld ✓", "O'Brien", "%_%", "  padded  ", "UPPER lower", "12", "-7.5e3", "2024-02-29", "[1,2,3,4]", "{\"k\": 1}", "日本語テキスト", "tab\there", "NULL"];
+    for i in 0..60i64 {
+        let id = match i {
+            57 => 9223372036854775807,
+            58 => -9223372036854775807,
+            59 => 0,
+            _ => i + 1,
+        };
+        let a = match i % 11 {
+            0 => "NULL".to_string(),
+            1 => "2147483647".to_string(),
+            2 => "-2147483648".to_string(),
+            _ => ((i * 37) % 23 - 5).to_string(),
+        };
+        let b = if i == 17 {
+            sql_str(&"long-".repeat(260))
+        } else if i % 13 == 5 {
+            "NULL".to_string()
+        } else {
+            sql_str(texts[(i as usize) % texts.len()])
+        };
+        let c = match i % 9 {
+            0 => "NULL".to_string(),
+            1 => "1e308".to_string(),
+            2 => "-1e308".to_string(),
+            3 => "5e-324".to_string(),
+            4 => "-0.0".to_string(),
+            _ => format!("{}.{}", i * 3 - 40, i % 10),
+        };
+        let d = ["TRUE", "FALSE", "NULL"][(i % 3) as usize];
+        let s = match i % 7 {
+            0 => "32767".to_string(),
+            1 => "-32768".to_string(),
+            2 => "NULL".to_string(),
+            _ => (i * 11 % 100).to_string(),
+        };
+        v.push(format!("INSERT INTO t1 (id, a, b, c, d, u, s, r) VALUES ({}, {}, {}, {}, {}, {}, {}, {})", id, a, b, c, d, i * 7 - 30, s, if i % 5 == 0 { "NULL".to_string() } else { format!("{}.25", i) }));
+    }
+    v.push("CREATE INDEX t1_a ON t1 (a)".into());
+    v.push("CREATE INDEX t1_ab ON t1 (a, b)".into());
+    for i in 0..40i64 {
+        let amount = match i % 6 {
+            0 => "NULL".to_string(),
+            1 => "99999999999999.99".to_string(),
+            2 => "-0.01".to_string(),
+            _ => format!("{}.{:02}", i * 13, i),
+        };
+        let note = if i == 9 { sql_str(&"n".repeat(1500)) } else if i % 4 == 0 { "NULL".to_string() } else { sql_str(&format!("note {} {}", i, texts[(i as usize * 3) % texts.len()])) };
+        v.push(format!("INSERT INTO t2 (id, t1_id, name, amount, qty, note) VALUES ({}, {}, {}, {}, {}, {})", i + 1, if i % 8 == 3 { "NULL".to_string() } else { ((i * 5) % 64).to_string() }, sql_str(&format!("name{}", i % 9)), amount, if i % 5 == 0 { "NULL".to_string() } else { (i % 4).to_string() }, note));
+    }
+    v.push("CREATE INDEX t2_fk ON t2 (t1_id)".into());
+    for i in 0..30i64 {
+        let emb = if i % 10 == 9 { "NULL".to_string() } else { format!("'[{}.5, {}, {}, 0.{}]'", i, -i, (i * i) % 7, i) };
+        v.push(format!("INSERT INTO t3 (title, emb) VALUES ({}, {})", sql_str(&format!("doc {}", i)), emb));
+    }
+    v.push("CREATE INDEX t3_emb ON t3 USING HNSW (emb)".into());
+    let dates = ["2024-02-29", "1970-01-01", "0001-01-01", "9999-12-31", "2000-12-31", "1999-07-04"];
+    for i in 0..40i64 {
+        let dt = if i % 7 == 6 { "NULL".to_string() } else { sql_str(dates[(i as usize) % dates.len()]) };
+        let ts = if i % 9 == 8 { "NULL".to_string() } else { sql_str(&format!("{} {:02}:{:02}:{:02}", dates[(i as usize * 5) % dates.len()], i % 24, (i * 7) % 60, (i * 13) % 60)) };
+        let tm = if i % 6 == 5 { "NULL".to_string() } else { sql_str(&format!("{:02}:{:02}:{:02}", (i * 5) % 24, (i * 11) % 60, (i * 17) % 60)) };
+        let j = match i % 6 {
+            0 => "NULL".to_string(),
+            1 => sql_str("{\"a\": 1, \"b\": [1, 2, {\"c\": null}], \"s\": \"x\"}"),
+            2 => sql_str("[]"),
+            3 => sql_str("{\"n\": 1.5e10, \"t\": true, \"nested\": {\"k\": [\"v\", \"ü\"]}}"),
+            4 => sql_str("\"just a string\""),
+            _ => sql_str(&format!("{{\"id\": {}, \"tags\": [\"t{}\"]}}", i, i % 3)),
+        };
+        let uid = if i % 5 == 4 { "NULL".to_string() } else { sql_str(&format!("550e8400-e29b-41d4-a716-4466554400{:02}", i)) };
+        let bl = match i % 4 {
+            0 => "NULL".to_string(),
+            1 => "x''".to_string(),
+            2 => "x'00ff7f80'".to_string(),
+            _ => format!("x'{}'", "ab".repeat((i as usize) + 1)),
+        };
+        v.push(format!("INSERT INTO t4 (id, dt, ts, tm, j, uid, bl) VALUES ({}, {}, {}, {}, {}, {}, {})", i + 1, dt, ts, tm, j, uid, bl));
+    }
+    for (i, k) in ["", "a", "b", "zz", "ключ", "k5", "k6", "k7"].iter().enumerate() {
+        v.push(format!("INSERT INTO t5 (k, v) VALUES ({}, {})", sql_str(k), if i == 3 { "NULL".to_string() } else { (i * 10).to_string() }));
+    }
+    for i in 0..5 {
+        v.push(format!("INSERT INTO \"ünï\" (\"ключ\", \"值\") VALUES ({}, {})", if i == 2 { "NULL".to_string() } else { i.to_string() }, sql_str(["", "值", "x", "ü", "long unicode ✓✓✓"][i])));
+    }
+    v
+}
+
+fn fresh_dir(p: &Path) {
+    let _ = std::fs::remove_dir_all(p);
+    let _ = std::fs::create_dir_all(p);
+}
+
+fn copy_dir(from: &Path, to: &Path) -> std::io::Result<()> {
+    std::fs::create_dir_all(to)?;
+    for e in std::fs::read_dir(from)? {
+        let e = e?;
+        let p = e.path();
+        let t = to.join(e.file_name());
+        if p.is_dir() {
+            copy_dir(&p, &t)?;
+        } else {
+            std::fs::copy(&p, &t)?;
+        }
+    }
+    Ok(())
+}
+
+fn base_dir(root: &Path, wal: bool) -> PathBuf {
+    root.join(if wal { "base-wal" } else { "base-nowal" })
+}
+
+/// build one base image; returns (statements ok, statements failed (first few messages), panics)
+fn create_db_base(root: &Path, wal: bool) -> Result<(usize, Vec<String>, Vec<(String, String, String)>), String> {
+    let dir = base_dir(root, wal);
+    let _ = std::fs::remove_dir_all(&dir);
+    let db = match guard(|| Database::create(&dir)) {
+        Ok(Ok(db)) => db,
+        Ok(Err(e)) => return Err(format!("create: {:#}", e)),
+        Err((site, msg)) => return Err(format!("create panicked at {}: {}", site, msg)),
+    };
+    let mut ok = 0;
+    let mut failed = vec![];
+    let mut panics = vec![];
+    let mut stmts = vec![];
+    if wal {
+        stmts.push("PRAGMA wal = ON".to_string());
+    }
+    stmts.extend(db_setup());
+    for s in &stmts {
+        match guard(|| db.execute(s)) {
+            Ok(Ok(_)) => ok += 1,
+            Ok(Err(e)) => {
+                if failed.len() < 12 {
+                    failed.push(format!("{} => {:#}", s.chars().take(90).collect::<String>(), e));
+                }
+            }
+            Err((site, msg)) => panics.push((s.clone(), site, msg)),
+        }
+    }
+    match guard(|| db.close()) {
+        Ok(_) => {}
+        Err((site, msg)) => panics.push(("close()".into(), site, msg)),
+    }
+    let _ = guard(move || drop(db));
+    Ok((ok, failed, panics))
+}
+
+// ------------------------------------------------------------------------------------------
+// harvest of the repository's own test SQL (string literals of /repo/tests/*.rs that start with a
+// SQL keyword), in file order so that a window of consecutive statements carries its own schema
+// ------------------------------------------------------------------------------------------
+const SQL_START: &[&str] = &["SELECT", "INSERT", "UPDATE", "DELETE", "CREATE", "DROP", "ALTER", "BEGIN", "COMMIT", "ROLLBACK", "PRAGMA", "EXPLAIN", "WITH", "TRUNCATE", "SAVEPOINT", "RELEASE", "SET", "MERGE", "CALL", "SHOW", "RESET", "GRANT", "REVOKE"];
+
+fn looks_like_sql(s: &str) -> bool {
+    let w = first_words(s, 1);
+    let w0 = match w.first() {
+        Some(w) => w.as_str(),
+        None => return false,
+    };
+    if !s.trim_start().to_ascii_uppercase().starts_with(w0) || !SQL_START.contains(&w0) {
+        return false;
+    }
+    // assertion messages of the tests ("UPDATE SHOULD succeed, got {:?}")
+    !(s.contains("SHOULD") || s.contains("{:?}") || s.contains("should ") || s.contains("expected") || s.contains("failed"))
+}
+
+/// extract Rust string literals of one source file
+fn rust_string_literals(src: &str) -> Vec<String> {
+    let b = src.as_bytes();
+    let mut out = vec![];
+    let mut i = 0;
+    while i < b.len() {
+        match b[i] {
+            b'/' if b.get(i + 1) == Some(&b'/') => {
+                while i < b.len() && b[i] != b'\n' {
+                    i += 1;
+                }
+            }
+            b'/' if b.get(i + 1) == Some(&b'*') => {
+                i += 2;
+                while i + 1 < b.len() && !(b[i] == b'*' && b[i + 1] == b'/') {
+                    i += 1;
+                }
+                i += 2;
+            }
+            b'\'' => {
+                // char literal or lifetime: skip a char literal 'x' / '\n' / '\''
+                if b.get(i + 1) == Some(&b'\\') {
+                    i += 2;
+                    while i < b.len() && b[i] != b'\'' {
+                        i += 1;
+                    }
+                    i += 1;
+                } else if b.get(i + 2) == Some(&b'\'') {
+                    i += 3;
+                } else {
+                    i += 1;
+                }
+            }
+            b'r' if (b.get(i + 1) == Some(&b'"') || b.get(i + 1) == Some(&b'#')) && (i == 0 || !(b[i - 1].is_ascii_alphanumeric() || b[i - 1] == b'_')) => {
+                let mut j = i + 1;
+                let mut hashes = 0;
+                while j < b.len() && b[j] == b'#' {
+                    hashes += 1;
+                    j += 1;
+                }
+                if j < b.len() && b[j] == b'"' {
+                    j += 1;
+                    let st = j;
+                    let mut end = None;
+                    while j < b.len() {
+                        if b[j] == b'"' && j + 1 + hashes <= b.len() && b[j + 1..j + 1 + hashes].iter().all(|c| *c == b'#') {
+                            end = Some(j);
+                            break;
+                        }
+                        j += 1;
+                    }
+                    match end {
+                        Some(e) => {
+                            out.push(String::from_utf8_lossy(&b[st..e]).to_string());
+                            i = e + 1 + hashes;
+                        }
+                        None => i = b.len(),
+                    }
+                } else {
+                    i += 1;
+                }
+            }
+            b'"' => {
+                i += 1;
+                let mut s: Vec<u8> = vec![];
+                while i < b.len() && b[i] != b'"' {
+                    if b[i] == b'\\' && i + 1 < b.len() {
+                        match b[i + 1] {
+                            b'n' => s.push(b'\n'),
+                            b't' => s.push(b'\t'),
+                            b'r' => s.push(b'\r'),
+                            b'0' => s.push(0),
+                            b'\\' => s.push(b'\\'),
+                            b'"' => s.push(b'"'),
+                            b'\'' => s.push(b'\''),
+                            b'\n' => {
+                                // line continuation: skip following whitespace
+                                i += 2;
+                                while i < b.len() && (b[i] == b' ' || b[i] == b'\t' || b[i] == b'\n' || b[i] == b'\r') {
+                                    i += 1;
+                                }
+                                continue;
+                            }
+                            other => {
+                                s.push(b'\\');
+                                s.push(other);
+                            }
+                        }
+                        i += 2;
+                    } else {
+                        s.push(b[i]);
+                        i += 1;
+                    }
+                }
+                i += 1;
+                out.push(String::from_utf8_lossy(&s).to_string());
+            }
+            _ => i += 1,
+        }
+    }
+    out
+}
+
+pub struct Corpus {
+    /// per file: statements in source order
+    pub files: Vec<(String, Vec<String>)>,
+    pub total: usize,
+    pub distinct: usize,
+}
+
+pub fn harvest() -> Corpus {
+    let mut files = vec![];
+    let mut total = 0;
+    let mut seen = HashSet::new();
+    let mut names: Vec<PathBuf> = vec![];
+    for dir in ["/repo/tests", "/repo/tests/queries"] {
+        if let Ok(rd) = std::fs::read_dir(dir) {
+            for e in rd.flatten() {
+                names.push(e.path());
+            }
+        }
+    }
+    names.sort();
+    for p in names {
+        let ext = p.extension().and_then(|e| e.to_str()).unwrap_or("");
+        let txt = match std::fs::read_to_string(&p) {
+            Ok(t) => t,
+            Err(_) => continue,
+        };
+        let mut v: Vec<String> = vec![];
+        if ext == "rs" {
+            for lit in rust_string_literals(&txt) {
+                if lit.len() <= 4000 && looks_like_sql(&lit) {
+                    v.push(lit);
+                }
+            }
+        } else if ext == "sql" {
+            for st in txt.split(';') {
+                let st: String = st.lines().filter(|l| !l.trim_start().starts_with("--")).collect::<Vec<_>>().join(" ");
+                if st.len() <= 4000 && looks_like_sql(&st) {
+                    v.push(st.trim().to_string());
+                }
+            }
+        }
+        if !v.is_empty() {
+            total += v.len();
+            for s in &v {
+                seen.insert(fnv(s.as_bytes()));
+            }
+            files.push((p.file_name().and_then(|n| n.to_str()).unwrap_or("").to_string(), v));
+        }
+    }
+    Corpus { files, total, distinct: seen.len() }
+}
+
+// ------------------------------------------------------------------------------------------
+// grammar generator
+// ------------------------------------------------------------------------------------------
+/// (name, typical argument classes; '*' = variadic tail) -- README tables first, then the names only the code knows
+pub const FUNCS: &[(&str, &str)] = &[
+    ("UPPER", "t"), ("UCASE", "t"), ("LOWER", "t"), ("LCASE", "t"), ("LENGTH", "t"), ("LEN", "t"), ("CHAR_LENGTH", "t"), ("SUBSTR", "tii"), ("LEFT", "ti"), ("RIGHT", "ti"),
+    ("CONCAT", "tt*"), ("CONCAT_WS", "ttt*"), ("TRIM", "t"), ("LTRIM", "t"), ("RTRIM", "t"), ("LPAD", "tit"), ("RPAD", "tit"), ("REPLACE", "ttt"), ("REVERSE", "t"), ("REPEAT", "ti"),
+    ("INSTR", "tt"), ("LOCATE", "tt"), ("ASCII", "t"), ("STRCMP", "tt"),
+    ("ABS", "n"), ("ROUND", "ni"), ("CEIL", "n"), ("CEILING", "n"), ("FLOOR", "n"), ("TRUNCATE", "ni"), ("MOD", "nn"), ("SQRT", "n"), ("POW", "nn"), ("POWER", "nn"), ("EXP", "n"), ("LOG", "n"), ("LN", "n"),
+    ("LOG10", "n"), ("LOG2", "n"), ("SIN", "n"), ("COS", "n"), ("TAN", "n"), ("ASIN", "n"), ("ACOS", "n"), ("ATAN", "n"), ("DEGREES", "n"), ("RADIANS", "n"), ("PI", ""), ("RAND", ""), ("SIGN", "n"),
+    ("GREATEST", "nn*"), ("LEAST", "nn*"),
+    ("NOW", ""), ("CURRENT_TIMESTAMP", ""), ("CURDATE", ""), ("CURRENT_DATE", ""), ("CURTIME", ""), ("CURRENT_TIME", ""), ("DATE", "s"), ("TIME", "s"), ("YEAR", "d"), ("MONTH", "d"), ("DAY", "d"), ("HOUR", "m"),
+    ("MINUTE", "m"), ("SECOND", "m"), ("DAYNAME", "d"), ("MONTHNAME", "d"), ("DAYOFWEEK", "d"), ("DAYOFYEAR", "d"), ("QUARTER", "d"), ("WEEK", "d"), ("DATE_ADD", "di"), ("DATE_SUB", "di"),
+    ("DATEDIFF", "dd"), ("LAST_DAY", "d"), ("DATE_FORMAT", "dt"),
+    ("IF", "bxx"), ("IFNULL", "xx"), ("NULLIF", "xx"), ("COALESCE", "xx*"), ("VERSION", ""), ("DATABASE", ""), ("TYPEOF", "x"),
+    // not in the README
+    ("CHARACTER_LENGTH", "t"), ("OCTET_LENGTH", "t"), ("SUBSTRING", "tii"), ("MID", "tii"), ("SUBSTRING_INDEX", "tti"), ("POSITION", "tt"), ("FIELD", "ttt*"), ("FIND_IN_SET", "tt"), ("SPACE", "i"),
+    ("INSERT", "tiit"), ("FORMAT", "ni"), ("BIN", "i"), ("CONV", "tii"), ("DIV", "nn"), ("TRUNC", "ni"), ("ATAN2", "nn"), ("COT", "n"), ("RANDOM", ""),
+    ("LOCALTIME", ""), ("LOCALTIMESTAMP", ""), ("SYSDATE", ""), ("DAYOFMONTH", "d"), ("MICROSECOND", "m"), ("WEEKDAY", "d"), ("WEEKOFYEAR", "d"), ("YEARWEEK", "d"), ("ADDDATE", "di"), ("SUBDATE", "di"),
+    ("ADDTIME", "mm"), ("SUBTIME", "mm"), ("TIMEDIFF", "mm"), ("TO_DAYS", "d"), ("FROM_DAYS", "i"), ("TIME_TO_SEC", "m"), ("SEC_TO_TIME", "i"), ("MAKEDATE", "ii"), ("MAKETIME", "iii"), ("TIMESTAMP", "s"),
+    ("PERIOD_ADD", "ii"), ("PERIOD_DIFF", "ii"), ("STRFTIME", "dt"), ("TIME_FORMAT", "mt"), ("STR_TO_DATE", "tt"), ("IIF", "bxx"), ("NVL", "xx"), ("ISNULL", "x"), ("USER", ""), ("CURRENT_USER", ""),
+    ("CONNECTION_ID", ""), ("LAST_INSERT_ID", ""), ("CURRENT_DATABASE", ""),
+    ("COUNT", "x"), ("SUM", "n"), ("AVG", "n"), ("MIN", "x"), ("MAX", "x"),
+];
+/// functions whose result size is an argument: counts stay <= 300 or are unsatisfiable (>= 2^40), so that
+/// an allocation failure can never be the legitimate cost of a satisfiable request
+const SIZE_FUNCS: &[&str] = &["REPEAT", "LPAD", "RPAD", "SPACE", "FORMAT", "ROUND", "TRUNCATE", "TRUNC", "BIN", "CONV", "MAKEDATE", "SEC_TO_TIME", "FROM_DAYS"];
+const AGGS: &[&str] = &["COUNT", "SUM", "AVG", "MIN", "MAX"];
+const WINFUNCS: &[&str] = &["ROW_NUMBER", "RANK", "DENSE_RANK", "NTILE", "LAG", "LEAD", "FIRST_VALUE", "LAST_VALUE", "NTH_VALUE", "PERCENT_RANK", "CUME_DIST", "SUM", "AVG", "COUNT", "MIN", "MAX"];
+const BINOPS: &[&str] = &["+", "-", "*", "/", "%", "^", "||", "=", "<>", "!=", "<", "<=", ">", ">=", "AND", "OR", "&", "|", "#", "<<", ">>", "->", "->>", "#>", "#>>", "@>", "<@", "&&", "<->", "<#>", "<=>"];
+const TYPES: &[&str] = &[
+    "INTEGER", "INT", "BIGINT", "SMALLINT", "TINYINT", "SERIAL", "BIGSERIAL", "SMALLSERIAL", "REAL", "FLOAT", "DOUBLE", "DOUBLE PRECISION", "DECIMAL", "DECIMAL(10,2)", "DECIMAL(0,0)", "DECIMAL(4294967295, 4294967295)",
+    "NUMERIC(5)", "VARCHAR", "VARCHAR(10)", "VARCHAR(0)", "VARCHAR(4294967295)", "CHARACTER VARYING(5)", "CHAR", "CHAR(3)", "TEXT", "BLOB", "BOOLEAN", "BOOL", "DATE", "DATETIME", "TIME", "TIMESTAMP", "TIMESTAMP WITH TIME ZONE",
+    "TIMESTAMP WITHOUT TIME ZONE", "TIMESTAMPTZ", "INTERVAL", "UUID", "JSON", "JSONB", "VECTOR", "VECTOR(3)", "VECTOR(0)", "VECTOR(4)", "VECTOR(100000)", "VECTOR(4294967295)", "POINT", "BOX", "CIRCLE", "MACADDR", "INET", "INT4RANGE",
+    "INT8RANGE", "DATERANGE", "TSRANGE", "INT[]", "TEXT[]", "INT[][]", "mood", "INT2", "INT4", "INT8", "FLOAT4", "FLOAT8",
+];
+const INT_LITS: &[&str] = &[
+    "0", "1", "2", "3", "7", "10", "42", "100", "255", "256", "1000", "32767", "32768", "65535", "65536", "2147483647", "2147483648", "4294967295", "4294967296", "9223372036854775807", "9223372036854775808",
+    "18446744073709551615", "18446744073709551616", "1234567890123456789012345678901234567890", "00",
+];
+/// lexically odd numbers (only at chaos > 0)
+const NUM_ODD: &[&str] = &["0x7fffffffffffffff", "0xffffffffffffffff", "0x1ffffffffffffffff", "0x", "0b101", "0b", "0o17", "0o8", "1_000", "5.", "1e", "1e+", "0.1e-", "1.2.3", ".5", "0x1p3", "1e309", "1e999", "1e-999"];
+const FLOAT_LITS: &[&str] = &["0.0", "1.5", "0.1", "0.5", "1e0", "1e10", "1e308", "1e-324", "4.9e-324", "1.7976931348623157e308", "2.5E+3", "3.14159265358979323846264338327950288", "9007199254740993.0", "1e19", "9223372036854775807.0", "1e309", "1e-999"];
+const STR_LITS: &[&str] = &[
+    "''", "'a'", "'abc'", "'héllo ✓'", "'O''Brien'", "'%'", "'_'", "'%a_'", "'\\'", "' '", "'12'", "'-7'", "'1e5'", "'NaN'", "'inf'", "'-inf'", "'true'", "'2024-02-29'", "'2023-02-29'", "'0000-00-00'", "'9999-12-31'", "'10000-01-01'",
+    "'-0001-01-01'", "'2024-13-45'", "'12:34:56'", "'25:61:61'", "'23:59:59.999999'", "'2024-02-29 12:34:56'", "'2024-02-29T12:34:56Z'", "'2024-02-29 12:34:56+25:00'", "'[1,2,3,4]'", "'[1,2]'", "'[]'", "'[1e39,NaN,inf,-0]'",
+    "'[1,,2]'", "'{\"a\": 1}'", "'{\"a\": [1, {\"b\": null}]}'", "'{'", "'[[[[[[[[[[[[[[[[[[[[[[[[[[[[[[[[[[[[[[[['", "'550e8400-e29b-41d4-a716-446655440000'", "'550e8400'", "'192.168.0.1'", "'::1'", "'08:00:2b:01:02:03'", "'(1,2)'",
+    "'((0,0),(1,1))'", "'<(0,0),1>'", "'[1,10)'", "'P1Y2M3DT4H'", "'1 day'", "'日本語'", "'\u{0}'", "'\u{feff}'", "'a\nb'", "x'00ff'", "x''", "X'ABCDEF'", "x'abc'", "'$.a.b[0]'", "'{a,b}'", "'a,b,c'", "'%Y-%m-%d %H:%i:%s %W %M %j %%'", "'%'",
+];
+
+pub struct G<'r> {
+    pub r: &'r mut Rng,
+    /// remaining row-combination budget of the statement (product of the cardinalities of all table references)
+    pub budget: u64,
+    /// expression depth left
+    pub depth: u32,
+    /// emit placeholders
+    pub params: bool,
+    pub nparams: u32,
+    /// nesting level of size-producing functions
+    pub size_level: u32,
+    /// columns in scope: (qualifier, table index)
+    pub scope: Vec<(String, usize)>,
+    /// 0 = only well-formed constructs (types may still be mixed), 1 = some malformed pieces, 2 = many
+    pub chaos: u64,
+}
+
+macro_rules! pick {
+    ($g:expr, $($x:expr),+ $(,)?) => {{
+        let v = [$($x),+];
+        v[$g.r.below(v.len() as u64) as usize]
+    }};
+}
+
+impl<'r> G<'r> {
+    pub fn new(r: &'r mut Rng) -> G<'r> {
+        let chaos = match r.below(10) {
+            0..=5 => 0,
+            6..=8 => 1,
+            _ => 3,
+        };
+        G { r, budget: 50_000, depth: 4, params: false, nparams: 0, size_level: 0, scope: vec![], chaos }
+    }
+    /// malformed / unknown-name pieces: never at chaos 0
+    fn odd(&mut self, pct: u64) -> bool {
+        self.chaos > 0 && self.r.below(100) < pct * self.chaos
+    }
+    fn ch(&mut self, pct: u64) -> bool {
+        self.r.below(100) < pct
+    }
+    fn p<'a>(&mut self, xs: &'a [&'a str]) -> &'a str {
+        xs[self.r.below(xs.len() as u64) as usize]
+    }
+    fn int_lit(&mut self) -> String {
+        let s = if self.ch(55) { self.r.range(-3, 12).to_string() } else if self.odd(12) { self.p(NUM_ODD).to_string() } else { self.p(INT_LITS).to_string() };
+        if self.ch(12) {
+            format!("-{}", s)
+        } else {
+            s
+        }
+    }
+    /// count argument of a size-producing function (see SIZE_FUNCS)
+    fn size_count(&mut self) -> String {
+        let lim: i64 = match self.size_level {
+            0 | 1 => 300,
+            2 => 10,
+            _ => 3,
+        };
+        match self.r.below(10) {
+            0 => pick!(self, "1099511627776", "9223372036854775807", "4611686018427387904", "18446744073709551616", "-9223372036854775808", "1e300").to_string(),
+            1 => pick!(self, "-1", "0", "NULL", "'3'", "2.5", "-0.0").to_string(),
+            _ => self.r.range(0, lim).to_string(),
+        }
+    }
+    fn str_lit(&mut self) -> String {
+        self.p(STR_LITS).to_string()
+    }
+    fn literal(&mut self) -> String {
+        match self.r.below(20) {
+            0..=6 => self.int_lit(),
+            7..=9 => {
+                let s = self.p(FLOAT_LITS).to_string();
+                if self.ch(15) {
+                    format!("-{}", s)
+                } else {
+                    s
+                }
+            }
+            10..=15 => self.str_lit(),
+            16 => "NULL".into(),
+            17 => pick!(self, "TRUE", "FALSE", "true", "False").into(),
+            18 => {
+                if self.odd(30) {
+                    "DEFAULT".into()
+                } else {
+                    pick!(self, "CURRENT_DATE", "CURRENT_TIMESTAMP", "CURRENT_TIME").into()
+                }
+            }
+            _ => {
+                if self.params || self.odd(20) {
+                    self.placeholder()
+                } else {
+                    self.int_lit()
+                }
+            }
+        }
+    }
+    fn placeholder(&mut self) -> String {
+        self.nparams += 1;
+        match self.r.below(12) {
+            0 => format!("${}", self.nparams),
+            1 => pick!(self, "$0", "$4294967295", "$4294967296", "$99999999999999999999", ":p", "@p", ":1", "?1", "?0", "$", ":", "@").to_string(),
+            _ => "?".into(),
+        }
+    }
+    fn any_table(&mut self) -> usize {
+        self.r.below(TABS.len() as u64) as usize
+    }
+    /// a table whose cardinality fits the remaining budget (falls back to the smallest)
+    fn table_in_budget(&mut self) -> usize {
+        let fits: Vec<usize> = (0..TABS.len()).filter(|i| TABS[*i].rows <= self.budget).collect();
+        let t = if fits.is_empty() { 5 } else { fits[self.r.below(fits.len() as u64) as usize] };
+        self.budget = (self.budget / TABS[t].rows.max(1)).max(1);
+        t
+    }
+    fn col_of(&mut self, t: usize, class: Option<char>) -> &'static str {
+        let cols = TABS[t].cols;
+        if let Some(c) = class {
+            let m: Vec<&(&str, char)> = cols.iter().filter(|x| x.1 == c).collect();
+            if !m.is_empty() && self.ch(85) {
+                return m[self.r.below(m.len() as u64) as usize].0;
+            }
+        }
+        cols[self.r.below(cols.len() as u64) as usize].0
+    }
+    fn column(&mut self, class: Option<char>) -> String {
+        if self.scope.is_empty() || self.odd(3) {
+            if self.chaos == 0 {
+                return pick!(self, "id", "a", "nosuch", "t1.id").to_string();
+            }
+            return pick!(self, "nosuch", "t1.nosuch", "nosuch.id", "a.b.c.d", "id", "\"\"", "\"id\"", "`a`", "rowid", "x.*").to_string();
+        }
+        let k = self.r.below(self.scope.len() as u64) as usize;
+        let (q, t) = self.scope[k].clone();
+        let c = self.col_of(t, class);
+        if self.ch(60) {
+            format!("{}.{}", q, c)
+        } else {
+            c.to_string()
+        }
+    }
+    /// argument of a given class: i int, n numeric, f float, t text, d date, s timestamp, m time, b bool, x any
+    fn arg(&mut self, class: char) -> String {
+        if self.depth == 0 || self.ch(55) {
+            let wrong = self.ch(18);
+            let class = if wrong { pick!(self, 'i', 'f', 't', 'd', 'm', 'b', 'x', 'j', 'v') } else { class };
+            if self.ch(35) && !self.scope.is_empty() {
+                let c = match class {
+                    'n' => Some(pick!(self, 'i', 'f', 'n')),
+                    'x' => None,
+                    c => Some(c),
+                };
+                return self.column(c);
+            }
+            return match class {
+                'i' => self.int_lit(),
+                'n' | 'f' => {
+                    if self.ch(50) {
+                        self.int_lit()
+                    } else {
+                        self.p(FLOAT_LITS).to_string()
+                    }
+                }
+                't' => self.str_lit(),
+                'd' => pick!(self, "'2024-02-29'", "'2023-02-29'", "'0001-01-01'", "'9999-12-31'", "'0000-00-00'", "'10000-01-01'", "'2024-13-45'", "CURRENT_DATE", "'1970-01-01'", "'-0001-01-01'", "20240229", "'24-2-9'").to_string(),
+                's' => pick!(self, "'2024-02-29 12:34:56'", "'9999-12-31 23:59:59'", "'0001-01-01 00:00:00'", "'2024-02-29T12:34:56Z'", "CURRENT_TIMESTAMP", "'2024-02-29 25:00:00'", "0", "9223372036854775807").to_string(),
+                'm' => pick!(self, "'12:34:56'", "'00:00:00'", "'23:59:59.999999'", "'25:61:61'", "'838:59:59'", "'-12:00:00'", "CURRENT_TIME", "'12:34'", "123456").to_string(),
+                'b' => pick!(self, "TRUE", "FALSE", "NULL", "1", "0", "1 = 1", "'x'").to_string(),
+                'j' => pick!(self, "'{\"a\": 1}'", "'[1,2]'", "'{'", "'null'").to_string(),
+                'v' => pick!(self, "'[1,2,3,4]'", "'[1,2]'", "'[]'", "'[1e39,NaN,inf,-0]'").to_string(),
+                _ => self.literal(),
+            };
+        }
+        self.expr()
+    }
+    fn call(&mut self, name: &str, sig: &str) -> String {
+        let is_size = SIZE_FUNCS.contains(&name);
+        if is_size {
+            self.size_level += 1;
+        }
+        let mut classes: Vec<char> = sig.chars().filter(|c| *c != '*').collect();
+        if sig.ends_with('*') {
+            let last = *classes.last().unwrap_or(&'x');
+            for _ in 0..self.r.below(4) {
+                classes.push(last);
+            }
+        }
+        // arity errors
+        match if self.chaos > 0 { self.r.below(12) } else { 99 } {
+            0 => {
+                classes.pop();
+            }
+            1 => classes.push('x'),
+            2 => classes.clear(),
+            3 => {
+                for _ in 0..self.r.below(9) {
+                    classes.push('x');
+                }
+            }
+            _ => {}
+        }
+        let mut args = vec![];
+        for (k, c) in classes.iter().enumerate() {
+            // the count/precision arguments of size-producing functions are never in the ambiguous band
+            let a = if is_size && *c != 't' && (k > 0 || classes.len() == 1) { self.size_count() } else { self.arg(*c) };
+            args.push(a);
+        }
+        if is_size {
+            self.size_level -= 1;
+        }
+        let distinct = if AGGS.contains(&name) && self.ch(20) { "DISTINCT " } else { "" };
+        if AGGS.contains(&name) && self.ch(15) {
+            return format!("{}(*)", name);
+        }
+        let n = if self.ch(10) { name.to_ascii_lowercase() } else { name.to_string() };
+        format!("{}({}{})", n, distinct, args.join(", "))
+    }
+    fn func(&mut self) -> String {
+        let (n, s) = FUNCS[self.r.below(FUNCS.len() as u64) as usize];
+        self.call(n, s)
+    }
+    fn window(&mut self) -> String {
+        let f = self.p(WINFUNCS);
+        let args = match f {
+            "ROW_NUMBER" | "RANK" | "DENSE_RANK" | "PERCENT_RANK" | "CUME_DIST" => {
+                if self.ch(8) {
+                    self.arg('x')
+                } else {
+                    String::new()
+                }
+            }
+            "NTILE" => pick!(self, "4", "0", "-1", "9223372036854775807", "NULL", "1.5", "'a'").to_string(),
+            "LAG" | "LEAD" => {
+                let c = self.arg('x');
+                match self.r.below(4) {
+                    0 => c,
+                    1 => format!("{}, {}", c, pick!(self, "1", "0", "-1", "9223372036854775807", "NULL", "2147483648")),
+                    _ => format!("{}, {}, {}", c, pick!(self, "1", "2", "-9223372036854775808", "100"), self.literal()),
+                }
+            }
+            "NTH_VALUE" => format!("{}, {}", self.arg('x'), pick!(self, "1", "0", "-1", "99999999999")),
+            "COUNT" if self.ch(40) => "*".to_string(),
+            _ => self.arg('n'),
+        };
+        let mut spec = vec![];
+        if self.ch(55) {
+            let n = 1 + self.r.below(2);
+            let e: Vec<String> = (0..n).map(|_| self.arg('x')).collect();
+            spec.push(format!("PARTITION BY {}", e.join(", ")));
+        }
+        if self.ch(70) {
+            spec.push(format!("ORDER BY {}", self.order_list()));
+        }
+        if self.ch(30) {
+            let mode = if self.odd(10) { "GROUPS" } else { pick!(self, "ROWS", "ROWS", "RANGE") };
+            let b = |g: &mut G| -> String {
+                match g.r.below(7) {
+                    0 => "CURRENT ROW".to_string(),
+                    1 => "UNBOUNDED PRECEDING".to_string(),
+                    2 => "UNBOUNDED FOLLOWING".to_string(),
+                    3 => format!("{} PRECEDING", if g.odd(15) { pick!(g, "18446744073709551616", "-1", "1.5") } else { pick!(g, "1", "0", "2", "18446744073709551615") }),
+                    _ => format!("{} FOLLOWING", pick!(g, "1", "0", "3", "9223372036854775807", "18446744073709551615")),
+                }
+            };
+            if self.ch(70) {
+                let (x, y) = (b(self), b(self));
+                spec.push(format!("{} BETWEEN {} AND {}", mode, x, y));
+            } else {
+                let x = b(self);
+                spec.push(format!("{} {}", mode, x));
+            }
+        }
+        let filter = if self.ch(6) { format!(" FILTER (WHERE {})", self.arg('b')) } else { String::new() };
+        format!("{}({}){} OVER ({})", f, args, filter, spec.join(" "))
+    }
+    fn order_list(&mut self) -> String {
+        let n = 1 + self.r.below(3);
+        let mut v = vec![];
+        for _ in 0..n {
+            let e = if self.ch(20) { pick!(self, "1", "2", "0", "-1", "99", "9223372036854775808", "1.5", "NULL", "'a'").to_string() } else { self.arg('x') };
+            let d = pick!(self, "", "", " ASC", " DESC");
+            let nl = pick!(self, "", "", "", " NULLS FIRST", " NULLS LAST");
+            v.push(format!("{}{}{}", e, d, nl));
+        }
+        v.join(", ")
+    }
+    pub fn expr(&mut self) -> String {
+        if self.depth == 0 {
+            return if self.ch(50) && !self.scope.is_empty() { self.column(None) } else { self.literal() };
+        }
+        self.depth -= 1;
+        let out = match self.r.below(100) {
+            0..=13 => self.literal(),
+            14..=33 => self.column(None),
+            34..=51 => {
+                let op = self.p(BINOPS);
+                let (l, r) = (self.expr(), self.expr());
+                format!("{} {} {}", l, op, r)
+            }
+            52..=55 => {
+                let op = pick!(self, "-", "+", "NOT ", "~", "- ", "NOT NOT ");
+                format!("{}{}", op, self.expr())
+            }
+            56..=66 => self.func(),
+            67..=69 => {
+                let n = 1 + self.r.below(3);
+                let mut s = String::from("CASE");
+                if self.ch(35) {
+                    s.push_str(&format!(" {}", self.expr()));
+                }
+                for _ in 0..n {
+                    let (c, r) = (self.expr(), self.expr());
+                    s.push_str(&format!(" WHEN {} THEN {}", c, r));
+                }
+                if self.ch(60) {
+                    s.push_str(&format!(" ELSE {}", self.expr()));
+                }
+                s.push_str(" END");
+                s
+            }
+            70..=73 => {
+                let ty = self.p(TYPES);
+                let e = self.expr();
+                if self.ch(80) {
+                    format!("CAST({} AS {})", e, ty)
+                } else {
+                    format!("({})::{}", e, ty)
+                }
+            }
+            74..=76 => {
+                let (e, l, h) = (self.expr(), self.expr(), self.expr());
+                format!("{} {}BETWEEN {} AND {}", e, pick!(self, "", "NOT "), l, h)
+            }
+            77..=79 => {
+                let e = self.expr();
+                let n = if self.chaos > 0 { self.r.below(5) } else { 1 + self.r.below(4) };
+                let l: Vec<String> = (0..n).map(|_| self.expr()).collect();
+                format!("{} {}IN ({})", e, pick!(self, "", "NOT "), l.join(", "))
+            }
+            80..=81 => {
+                let (e, p) = (self.arg('t'), self.arg('t'));
+                let esc = if self.ch(20) { format!(" ESCAPE {}", if self.odd(30) { pick!(self, "''", "'ab'", "NULL", "1") } else { pick!(self, "'!'", "'\\'", "'%'", "'#'") }) } else { String::new() };
+                format!("{} {}{} {}{}", e, pick!(self, "", "NOT "), pick!(self, "LIKE", "ILIKE"), p, esc)
+            }
+            82..=84 => {
+                let e = self.expr();
+                match self.r.below(4) {
+                    0 => format!("{} IS NULL", e),
+                    1 => format!("{} IS NOT NULL", e),
+                    2 => format!("{} IS DISTINCT FROM {}", e, self.expr()),
+                    _ => format!("{} IS NOT DISTINCT FROM {}", e, self.expr()),
+                }
+            }
+            85..=88 => {
+                if self.budget >= 5 {
+                    let saved = self.scope.clone();
+                    let q = self.select(false);
+                    self.scope = saved;
+                    match self.r.below(5) {
+                        0 => format!("{}EXISTS ({})", pick!(self, "", "NOT "), q),
+                        1 => format!("{} {}IN ({})", self.expr(), pick!(self, "", "NOT "), q),
+                        2 => format!("{} {} {} ({})", self.expr(), pick!(self, "=", "<", ">="), pick!(self, "ANY", "ALL", "SOME"), q),
+                        _ => format!("({})", q),
+                    }
+                } else {
+                    self.literal()
+                }
+            }
+            89..=90 => format!("({})", self.expr()),
+            91..=92 => {
+                let f = self.p(AGGS);
+                let e = self.arg('n');
+                let filt = if self.ch(15) { format!(" FILTER (WHERE {})", self.arg('b')) } else { String::new() };
+                format!("{}({}{}){}", f, pick!(self, "", "", "DISTINCT ", "ALL "), e, filt)
+            }
+            93..=94 => self.window(),
+            95 => {
+                let n = self.r.below(4);
+                let l: Vec<String> = (0..n).map(|_| self.expr()).collect();
+                match self.r.below(4) {
+                    0 => format!("ARRAY[{}]", l.join(", ")),
+                    1 => format!("ROW({})", l.join(", ")),
+                    2 => format!("({})[{}]", self.expr(), if self.odd(30) { pick!(self, ":", "1:", ":2", "") } else { pick!(self, "1", "0", "-1", "9223372036854775807", "1:2") }),
+                    _ => format!("({}, {})", self.expr(), self.literal()),
+                }
+            }
+            96 if self.params || self.chaos > 0 => self.placeholder(),
+            _ if self.chaos == 0 => self.func(),
+            _ => pick!(self, "nosuchfn(1)", "t1.*", "*", "COUNT(*) OVER ()", "id", "a", "s.nosuch(1, 2)", "\"ünï\".\"值\"", "1 = ", "()", "(SELECT)", "DEFAULT", "NULL IS NULL IS NULL", "- - - 1", "1 AND", "a -> ", "emb <-> emb").to_string(),
+        };
+        self.depth += 1;
+        out
+    }
+}
+
+const PRAGMAS: &[&str] = &["wal", "wal_autoflush", "synchronous", "join_memory_budget", "memory_budget", "memory_stats", "persisted_memory_stats", "wal_checkpoint", "wal_checkpoint_stats", "wal_checkpoint_threshold", "wal_frame_count", "wal_size", "database_mode", "recover_wal", "foreign_keys", "nosuch", "WAL", "Wal_Size"];
+const PRAGMA_VALUES: &[&str] = &["ON", "OFF", "on", "TRUE", "FALSE", "0", "1", "2", "3", "-1", "NORMAL", "FULL", "65536", "18446744073709551615", "18446744073709551616", "4294967295", "4294967296", "99999999999999999999999999", "1.5", "1e3", "''", "'ON'", "NULL", "x", "\"ON\"", "-", "(1)", "ß"];
+
+impl<'r> G<'r> {
+    fn alias(&mut self) -> String {
+if self.odd(10) { pick!(self, "t1", "select", "\"al ias\"", "ü", "\"\"").to_string() } else { pick!(self, "x", "y", "z", "a1", "q", "tt").to_string() }
+    }
+    fn table_ref(&mut self) -> String {
+        // (FROM item, pushes its columns into scope)
+        let t = self.table_in_budget();
+        let name = TABS[t].name;
+        let name_s = if self.ch(6) { format!("root.{}", name) } else if self.odd(3) { pick!(self, "nosuch", "turdb_catalog.tables", "nosuch.t1", "sys.memory_stats").to_string() } else { name.to_string() };
+        if self.ch(55) {
+            let a = { let b = self.alias(); if b.ends_with('"') { b } else { format!("{}{}", b, self.scope.len()) } };
+            self.scope.push((a.clone(), t));
+            format!("{}{}{}", name_s, pick!(self, " ", " AS "), a)
+        } else {
+            self.scope.push((name.to_string(), t));
+            name_s
+        }
+    }
+    fn from_item(&mut self) -> String {
+        if self.depth > 1 && self.budget >= 40 && self.ch(14) {
+            // derived table; its columns are unknown to the scope tracker -> refer to them rarely
+            let saved = self.scope.clone();
+            self.depth -= 1;
+            let q = self.select(false);
+            self.depth += 1;
+            self.scope = saved;
+            let a = format!("d{}", self.scope.len());
+            return format!("{}({}) AS {}", pick!(self, "", "", "LATERAL "), q, a);
+        }
+        self.table_ref()
+    }
+    fn from_clause(&mut self) -> String {
+        let mut s = self.from_item();
+        let joins = match self.r.below(10) {
+            0..=4 => 0,
+            5..=7 => 1,
+            _ => 2,
+        };
+        for _ in 0..joins {
+            let jt = pick!(self, "JOIN", "INNER JOIN", "LEFT JOIN", "LEFT OUTER JOIN", "RIGHT JOIN", "FULL OUTER JOIN", "FULL JOIN", "CROSS JOIN", ",", "NATURAL JOIN", "NATURAL LEFT JOIN", "JOIN");
+            let right = self.from_item();
+            let cond = if jt == "CROSS JOIN" || jt == "," || jt.starts_with("NATURAL") {
+                if self.odd(5) {
+                    format!(" ON {}", self.arg('b'))
+                } else {
+                    String::new()
+                }
+            } else {
+                match self.r.below(10) {
+                    0 => format!(" USING ({})", if self.odd(30) { pick!(self, "nosuch", "", "id, id") } else { pick!(self, "id", "id", "id, a") }),
+                    1 if self.chaos > 0 => String::new(),
+                    2..=6 if self.scope.len() >= 2 => {
+                        let n = self.scope.len();
+                        let (l, r) = (self.scope[n - 2].clone(), self.scope[n - 1].clone());
+                        let (lc, rc) = (self.col_of(l.1, Some('i')), self.col_of(r.1, Some('i')));
+                        format!(" ON {}.{} {} {}.{}", l.0, lc, pick!(self, "=", "=", "=", "<", "<>"), r.0, rc)
+                    }
+                    _ => format!(" ON {}", self.expr()),
+                }
+            };
+            s = format!("{} {} {}{}", s, jt, right, cond);
+        }
+        s
+    }
+    fn limit_val(&mut self) -> String {
+        match self.r.below(10) {
+            0..=5 => self.r.below(12).to_string(),
+            6 => {
+                if self.odd(40) {
+                    pick!(self, "-1", "9223372036854775808", "18446744073709551616", "1.5", "NULL", "'1'", "ALL", "1e3").to_string()
+                } else {
+                    pick!(self, "0", "1", "9223372036854775807", "18446744073709551615", "4294967296", "2147483648").to_string()
+                }
+            }
+            7 => {
+                if self.params {
+                    self.placeholder()
+                } else {
+                    "1 + 1".into()
+                }
+            }
+            _ => {
+                let d = self.depth;
+                self.depth = self.depth.min(1);
+                let saved = std::mem::take(&mut self.scope);
+                let e = self.expr();
+                self.scope = saved;
+                self.depth = d;
+                e
+            }
+        }
+    }
+    /// one SELECT block (top = may carry set operations / WITH / FOR)
+    pub fn select(&mut self, top: bool) -> String {
+        let mut s = String::new();
+        let mut ctes: Vec<String> = vec![];
+        if top && self.ch(12) {
+            let n = 1 + self.r.below(2);
+            for k in 0..n {
+                let saved = self.scope.clone();
+                self.depth = self.depth.saturating_sub(1);
+                let q = self.select(false);
+                self.depth += 1;
+                self.scope = saved;
+                let cols = if self.odd(15) { pick!(self, "(c1)", "(c1, c2)", "()", "(c1, c1)") } else { "" };
+                ctes.push(format!("cte{}{} AS ({})", k, cols, q));
+            }
+            s.push_str(&format!("WITH {}{} ", pick!(self, "", "", "RECURSIVE "), ctes.join(", ")));
+        }
+        let scope_mark = self.scope.len();
+        // FROM first (so the select list can name columns), rendered later
+        let from = if self.ch(88) {
+            if !ctes.is_empty() && self.ch(60) {
+                Some(format!("cte0{}", pick!(self, "", " AS c", " JOIN cte0 AS c2 ON 1 = 1")))
+            } else {
+                Some(self.from_clause())
+            }
+        } else {
+            None
+        };
+        s.push_str("SELECT ");
+        match self.r.below(12) {
+            0 | 1 => s.push_str("DISTINCT "),
+            2 => s.push_str(&format!("DISTINCT ON ({}) ", self.arg('x'))),
+            3 => s.push_str("ALL "),
+            _ => {}
+        }
+        let grouped = self.ch(22);
+        let ncols = 1 + self.r.below(4);
+        let mut cols = vec![];
+        for _ in 0..ncols {
+            let c = match self.r.below(14) {
+                0 | 1 => "*".to_string(),
+                2 => {
+                    if self.scope.len() > scope_mark {
+                        format!("{}.*", self.scope[scope_mark].0)
+                    } else {
+                        "nosuch.*".into()
+                    }
+                }
+                3 | 4 if grouped => {
+                    let f = self.p(AGGS);
+                    format!("{}({})", f, if f == "COUNT" && self.ch(50) { "*".to_string() } else { self.arg('n') })
+                }
+                5 => self.window(),
+                _ => {
+                    let e = self.expr();
+                    if self.ch(25) {
+                        format!("{} AS {}", e, if self.odd(15) { pick!(self, "select", "ü", "\"\"", "1") } else { pick!(self, "c1", "c2", "x", "\"a b\"", "id") })
+                    } else if self.ch(5) {
+                        format!("{} {}", e, pick!(self, "c1", "zz"))
+                    } else {
+                        e
+                    }
+                }
+            };
+            cols.push(c);
+        }
+        s.push_str(&cols.join(", "));
+        if let Some(f) = from {
+            s.push_str(" FROM ");
+            s.push_str(&f);
+        }
+        if self.ch(55) {
+            s.push_str(&format!(" WHERE {}", self.expr()));
+        }
+        if grouped {
+            let n = 1 + self.r.below(2);
+            let g: Vec<String> = (0..n).map(|_| if self.ch(15) { pick!(self, "1", "2", "0", "99", "-1").to_string() } else { self.arg('x') }).collect();
+            s.push_str(&format!(" GROUP BY {}", g.join(", ")));
+            if self.ch(40) {
+                let f = self.p(AGGS);
+                s.push_str(&format!(" HAVING {}({}) {} {}", f, if f == "COUNT" { "*".to_string() } else { self.arg('n') }, pick!(self, ">", "=", "<=", "<>"), self.literal()));
+            }
+        } else if self.odd(4) {
+            s.push_str(&format!(" HAVING {}", self.expr()));
+        }
+        if top && self.ch(25) {
+            // set operations; the operands get their own scope
+            let n = 1 + self.r.below(2);
+            for _ in 0..n {
+                let saved = self.scope.clone();
+                self.depth = self.depth.saturating_sub(1);
+                let q = self.select(false);
+                self.depth += 1;
+                self.scope = saved;
+                let q = if self.ch(15) { format!("({})", q) } else { q };
+                s.push_str(&format!(" {}{} {}", pick!(self, "UNION", "UNION", "INTERSECT", "EXCEPT"), pick!(self, "", "", " ALL", " DISTINCT"), q));
+            }
+        }
+        if self.ch(40) {
+            s.push_str(&format!(" ORDER BY {}", self.order_list()));
+        }
+        if self.ch(35) {
+            s.push_str(&format!(" LIMIT {}", self.limit_val()));
+            if self.ch(40) {
+                s.push_str(&format!(" OFFSET {}{}", self.limit_val(), pick!(self, "", "", " ROWS", " ROW")));
+            }
+        } else if self.ch(5) {
+            s.push_str(&format!(" OFFSET {}", self.limit_val()));
+        } else if self.ch(4) {
+            s.push_str(&format!(" FETCH {} {} {} ONLY", pick!(self, "FIRST", "NEXT"), self.limit_val(), pick!(self, "ROWS", "ROW")));
+        }
+        if top && self.ch(5) {
+            s.push_str(&format!(" FOR {}{}{}", pick!(self, "UPDATE", "SHARE", "NO KEY UPDATE", "KEY SHARE"), pick!(self, "", " OF t1", " OF nosuch, t2"), pick!(self, "", " NOWAIT", " SKIP LOCKED")));
+        }
+        if !top {
+            self.scope.truncate(scope_mark.max(0));
+        }
+        s
+    }
+    fn value_for(&mut self, class: char) -> String {
+        if self.ch(12) {
+            return self.expr();
+        }
+        if self.params && self.ch(50) {
+            return self.placeholder();
+        }
+        let d = self.depth;
+        self.depth = 0;
+        let saved = std::mem::take(&mut self.scope);
+        let v = match class {
+            'j' => pick!(self, "'{\"a\": 1}'", "'[1, 2, {\"b\": null}]'", "'{'", "''", "NULL", "'null'", "'{\"a\": {\"a\": {\"a\": {\"a\": {\"a\": {\"a\": 1}}}}}}'", "'\"\\ud800\"'", "'1e999'", "'[1,]'", "'{\"a\":1,\"a\":2}'", "1").to_string(),
+            'v' => pick!(self, "'[1,2,3,4]'", "'[1,2]'", "'[]'", "'[1e39,NaN,inf,-0]'", "NULL", "'[1,2,3,4,5]'", "'1,2,3,4'", "'[a]'", "'['", "1", "'[1, 2, 3, 4'").to_string(),
+            'u' => pick!(self, "'550e8400-e29b-41d4-a716-446655440000'", "'550e8400'", "''", "NULL", "'zzzzzzzz-zzzz-zzzz-zzzz-zzzzzzzzzzzz'", "'550e8400e29b41d4a716446655440000'", "1").to_string(),
+            'x' => pick!(self, "x'00ff'", "x''", "'text'", "NULL", "x'abc'", "1").to_string(),
+            c => self.arg(c),
+        };
+        self.scope = saved;
+        self.depth = d;
+        v
+    }
+    fn returning(&mut self, t: usize) -> String {
+        if self.ch(30) {
+            let saved = self.scope.clone();
+            self.scope.push((TABS[t].name.to_string(), t));
+            let r = match self.r.below(5) {
+                0 | 1 => " RETURNING *".to_string(),
+                2 => format!(" RETURNING {}", self.col_of(t, None)),
+                3 => format!(" RETURNING {}, {} AS e", self.col_of(t, None), self.expr()),
+                _ if self.chaos == 0 => " RETURNING *".to_string(),
+                _ => format!(" RETURNING {}", pick!(self, "nosuch", "COUNT(*)", "t9.*", "", "*, *", "(SELECT 1)", "ROW_NUMBER() OVER ()")),
+            };
+            self.scope = saved;
+            r
+        } else {
+            String::new()
+        }
+    }
+    pub fn insert(&mut self) -> String {
+        let t = self.any_table();
+        let tab = &TABS[t];
+        let mut cols: Vec<(&str, char)> = tab.cols.to_vec();
+        let with_cols = self.ch(65);
+        if with_cols {
+            self.r.shuffle(&mut cols);
+            let keep = 1 + self.r.below(cols.len() as u64) as usize;
+            cols.truncate(keep);
+        }
+        let mut s = format!("INSERT INTO {}", if self.odd(4) { "nosuch" } else { tab.name });
+        if with_cols {
+            let mut names: Vec<String> = cols.iter().map(|c| c.0.to_string()).collect();
+            match if self.chaos > 0 { self.r.below(25) } else { 99 } {
+                0 => names.push("nosuch".into()),
+                1 => names.push(names[0].clone()),
+                2 => names.clear(),
+                _ => {}
+            }
+            s.push_str(&format!(" ({})", names.join(", ")));
+        }
+        match self.r.below(12) {
+            0 => s.push_str(" DEFAULT VALUES"),
+            1 | 2 => {
+                let saved = self.scope.clone();
+                self.scope.clear();
+                let q = self.select(true);
+                self.scope = saved;
+                s.push_str(&format!(" {}", q));
+            }
+            _ => {
+                let nrows = if self.ch(80) { 1 } else { 2 + self.r.below(4) };
+                let mut rows = vec![];
+                for _ in 0..nrows {
+                    let mut vals: Vec<String> = vec![];
+                    for c in cols.clone() {
+                        // primary keys mostly fresh so that the insert reaches the storage layer
+                        let v = if (c.0 == "id" || c.0 == "k") && self.ch(75) {
+                            if c.1 == 't' {
+                                format!("'k{}'", self.r.below(100000))
+                            } else {
+                                (1000 + self.r.below(100000)).to_string()
+                            }
+                        } else {
+                            self.value_for(c.1)
+                        };
+                        vals.push(v);
+                    }
+                    match if self.chaos > 0 { self.r.below(25) } else { 99 } {
+                        0 => {
+                            vals.pop();
+                        }
+                        1 => vals.push(self.literal()),
+                        2 => vals.clear(),
+                        _ => {}
+                    }
+                    rows.push(format!("({})", vals.join(", ")));
+                }
+                s.push_str(&format!(" VALUES {}", rows.join(", ")));
+            }
+        }
+        if self.ch(22) {
+            let target = match self.r.below(6) {
+                0 => String::new(),
+                1 => " ON CONSTRAINT t1_pkey".to_string(),
+                2 if self.chaos > 0 => format!(" ({})", pick!(self, "nosuch", "id, id", "", "a, b")),
+                _ => format!(" ({})", tab.cols[0].0),
+            };
+            let action = if self.ch(45) {
+                "NOTHING".to_string()
+            } else {
+                let saved = self.scope.clone();
+                self.scope.push((TABS[t].name.to_string(), t));
+                self.scope.push(("EXCLUDED".to_string(), t));
+                let n = 1 + self.r.below(2);
+                let a: Vec<String> = (0..n)
+                    .map(|_| {
+                        let c = self.col_of(t, None);
+                        format!("{} = {}", c, self.expr())
+                    })
+                    .collect();
+                self.scope = saved;
+                format!("UPDATE SET {}{}", a.join(", "), if self.ch(15) { " WHERE 1 = 1" } else { "" })
+            };
+            s.push_str(&format!(" ON CONFLICT{} DO {}", target, action));
+        }
+        s.push_str(&self.returning(t));
+        s
+    }
+    pub fn update(&mut self) -> String {
+        let t = self.any_table();
+        let tab = &TABS[t];
+        self.budget = (self.budget / tab.rows).max(1);
+        let alias = if self.ch(20) { format!(" AS {}", "tu") } else { String::new() };
+        let q = if alias.is_empty() { tab.name.to_string() } else { "tu".to_string() };
+        self.scope.push((q.clone(), t));
+        let mut from = String::new();
+        if self.ch(25) {
+            from = format!(" FROM {}", self.from_clause());
+        }
+        let n = 1 + self.r.below(3);
+        let mut a = vec![];
+        for _ in 0..n {
+            let (c, class) = {
+                let k = self.r.below(tab.cols.len() as u64) as usize;
+                tab.cols[k]
+            };
+            let lhs = match if self.chaos > 0 { self.r.below(20) } else { 10 } {
+                0 => "nosuch".to_string(),
+                1 => format!("{}.{}", q, c),
+                2 => format!("({}, {})", c, tab.cols[0].0),
+                _ => c.to_string(),
+            };
+            let rhs = if self.ch(45) { self.expr() } else { self.value_for(class) };
+            a.push(format!("{} = {}", lhs, rhs));
+        }
+        let mut s = format!("UPDATE {}{} SET {}{}", if self.odd(4) { "nosuch" } else { tab.name }, alias, a.join(", "), from);
+        if self.ch(75) {
+            s.push_str(&format!(" WHERE {}", self.expr()));
+        }
+        s.push_str(&self.returning(t));
+        s
+    }
+    pub fn delete(&mut self) -> String {
+        let t = self.any_table();
+        let tab = &TABS[t];
+        self.budget = (self.budget / tab.rows).max(1);
+        self.scope.push((tab.name.to_string(), t));
+        let mut s = format!("DELETE FROM {}", if self.odd(4) { "nosuch" } else { tab.name });
+        if self.ch(15) {
+            s.push_str(&format!(" USING {}", self.from_clause()));
+        }
+        if self.ch(85) {
+            s.push_str(&format!(" WHERE {}", self.expr()));
+        }
+        s.push_str(&self.returning(t));
+        s
+    }
+    fn new_name(&mut self) -> String {
+        match self.r.below(14) {
+            0 => "t1".into(),
+            1 => "\"ünï\"".into(),
+            2 => "\"\"".into(),
+            3 => "select".into(),
+            4 => format!("\"{}\"", "n".repeat(300)),
+            5 => "root.nt".into(),
+            6 => "nosuch.nt".into(),
+            7 => "\"ta ble\"".into(),
+            8 => "таблица".into(),
+            _ => format!("nt{}", self.r.below(5)),
+        }
+    }
+    fn col_def(&mut self, k: usize) -> String {
+        let name = match self.r.below(14) {
+            0 => "id".to_string(),
+            1 => "\"кол\"".to_string(),
+            2 => "select".to_string(),
+            _ => format!("c{}", k),
+        };
+        let ty = self.p(TYPES);
+        let mut s = format!("{} {}", name, ty);
+        let saved = std::mem::take(&mut self.scope);
+        for _ in 0..self.r.below(3) {
+            let c = match self.r.below(14) {
+                0 => " NOT NULL".to_string(),
+                1 => " NULL".to_string(),
+                2 => " UNIQUE".to_string(),
+                3 => " PRIMARY KEY".to_string(),
+                4 => " AUTO_INCREMENT".to_string(),
+                5 | 6 => format!(" DEFAULT {}", if self.ch(60) { self.literal() } else { format!("({})", self.expr()) }),
+                7 | 8 => format!(" CHECK ({})", if self.ch(50) { format!("{} > 0", name) } else { self.expr() }),
+                9 => format!(" REFERENCES {}{}{}", pick!(self, "t1", "t1(id)", "t2(id)", "nosuch", "nosuch(x)", "t1(nosuch)"), pick!(self, "", " ON DELETE CASCADE", " ON DELETE SET NULL", " ON DELETE RESTRICT", " ON DELETE NO ACTION", " ON DELETE SET DEFAULT"), pick!(self, "", "", " ON UPDATE CASCADE", " ON UPDATE SET NULL")),
+                10 => format!(" GENERATED ALWAYS AS ({}){}", self.expr(), pick!(self, "", " STORED")),
+                _ => String::new(),
+            };
+            s.push_str(&c);
+        }
+        self.scope = saved;
+        s
+    }
+    pub fn ddl(&mut self) -> String {
+        match self.r.below(30) {
+            0..=6 => {
+                let n = if self.ch(3) { 0 } else if self.ch(3) { 40 + self.r.below(300) as usize } else { 1 + self.r.below(6) as usize };
+                let mut defs: Vec<String> = (0..n).map(|k| self.col_def(k)).collect();
+                for _ in 0..self.r.below(2) {
+                    let c = match self.r.below(6) {
+                        0 => "PRIMARY KEY (c0)".to_string(),
+                        1 => "UNIQUE (c0, c1)".to_string(),
+                        2 => format!("CONSTRAINT fk FOREIGN KEY (c0) REFERENCES {} ({}){}", pick!(self, "t1", "t2", "nosuch"), pick!(self, "id", "nosuch", "id, a"), pick!(self, "", " ON DELETE CASCADE", " ON UPDATE SET NULL")),
+                        3 => format!("CHECK ({})", self.expr()),
+                        4 => "CONSTRAINT ck CHECK (c0 > 0)".to_string(),
+                        _ => "PRIMARY KEY (nosuch)".to_string(),
+                    };
+                    defs.push(c);
+                }
+                format!("CREATE {}TABLE {}{} ({})", pick!(self, "", "", "", "TEMPORARY ", "TEMP "), pick!(self, "", "", "IF NOT EXISTS "), self.new_name(), defs.join(", "))
+            }
+            7..=10 => {
+                let t = self.any_table();
+                let saved = self.scope.clone();
+                self.scope.push((TABS[t].name.to_string(), t));
+                let n = 1 + self.r.below(3);
+                let cols: Vec<String> = (0..n)
+                    .map(|_| {
+                        let c = if self.ch(85) { self.col_of(t, None).to_string() } else { format!("({})", self.expr()) };
+                        format!("{}{}{}", c, pick!(self, "", "", " ASC", " DESC"), pick!(self, "", "", " NULLS FIRST", " NULLS LAST"))
+                    })
+                    .collect();
+                let wh = if self.ch(15) { format!(" WHERE {}", self.expr()) } else { String::new() };
+                self.scope = saved;
+                let tn = if self.ch(5) { "nosuch" } else { TABS[t].name };
+                format!("CREATE {}INDEX {}{} ON {}{} ({}){}", pick!(self, "", "", "UNIQUE "), pick!(self, "", "", "IF NOT EXISTS "), pick!(self, "ix0", "ix1", "t1_a", "\"\"", "select", "ü"), tn, pick!(self, "", "", "", " USING BTREE", " USING HASH", " USING GIN", " USING GIST", " USING HNSW", " USING nosuch"), cols.join(", "), wh)
+            }
+            11 => format!("CREATE SCHEMA {}{}", pick!(self, "", "IF NOT EXISTS "), pick!(self, "s1", "root", "\"\"", "turdb_catalog", "ü", "s1.s2")),
+            12..=17 => {
+                let t = self.any_table();
+                let tn = if self.ch(6) { "nosuch" } else { TABS[t].name };
+                let col = if self.ch(85) { self.col_of(t, None).to_string() } else { "nosuch".to_string() };
+                let act = match self.r.below(16) {
+                    0..=2 => format!("ADD {}{}", pick!(self, "COLUMN ", "COLUMN ", ""), self.col_def(9)),
+                    3 | 4 => format!("DROP {}{}{}{}", pick!(self, "COLUMN ", "COLUMN ", ""), pick!(self, "", "IF EXISTS "), col, pick!(self, "", "", " CASCADE", " RESTRICT")),
+                    5 | 6 => format!("RENAME COLUMN {} TO {}", col, pick!(self, "renamed", "id", "a", "\"\"", "select", "ü")),
+                    7 => format!("RENAME TO {}", self.new_name()),
+                    8 => format!("ALTER COLUMN {} SET DATA TYPE {}", col, self.p(TYPES)),
+                    9 => format!("ALTER COLUMN {} TYPE {}", col, self.p(TYPES)),
+                    10 => format!("ALTER COLUMN {} SET DEFAULT {}", col, self.literal()),
+                    11 => format!("ALTER COLUMN {} DROP DEFAULT", col),
+                    12 => format!("ALTER COLUMN {} {} NOT NULL", col, pick!(self, "SET", "DROP")),
+                    13 => format!("ADD {}", pick!(self, "CONSTRAINT u1 UNIQUE (a)", "PRIMARY KEY (id)", "CHECK (1 = 0)", "FOREIGN KEY (a) REFERENCES t2 (id)", "CONSTRAINT c CHECK (nosuch > 0)", "UNIQUE (nosuch)")),
+                    _ => format!("DROP CONSTRAINT {}{}{}", pick!(self, "", "IF EXISTS "), pick!(self, "u1", "nosuch", "t1_pkey"), pick!(self, "", " CASCADE")),
+                };
+                format!("ALTER TABLE {} {}", tn, act)
+            }
+            18..=21 => {
+                let obj = pick!(self, "TABLE", "TABLE", "TABLE", "INDEX", "INDEX", "SCHEMA", "VIEW", "SEQUENCE", "FUNCTION", "PROCEDURE", "TRIGGER", "DATABASE", "TYPE");
+                let names = match obj {
+                    "TABLE" | "VIEW" => pick!(self, "t1", "t2", "t3", "t4", "t5", "\"ünï\"", "nosuch", "t1, t2", "t1, t1", "root.t1", "nosuch.t1", "nt0"),
+                    "INDEX" => pick!(self, "t1_a", "t1_ab", "t2_fk", "t3_emb", "nosuch", "t1_a, t1_ab", "root.t1_a"),
+                    "SCHEMA" => pick!(self, "root", "s1", "nosuch", "turdb_catalog"),
+                    _ => pick!(self, "x", "t1", "nosuch"),
+                };
+                format!("DROP {} {}{}{}", obj, pick!(self, "", "", "IF EXISTS "), names, pick!(self, "", "", " CASCADE", " RESTRICT"))
+            }
+            22 | 23 => format!("TRUNCATE {}{}{}{}", pick!(self, "TABLE ", "TABLE ", ""), pick!(self, "t1", "t2", "t3", "t4", "t5", "\"ünï\"", "nosuch", "t1, t2", "t5, t5", "root.t5"), pick!(self, "", "", " RESTART IDENTITY", " CONTINUE IDENTITY"), pick!(self, "", "", " CASCADE")),
+            24 => {
+                let saved = self.scope.clone();
+                self.scope.clear();
+                let q = self.select(true);
+                self.scope = saved;
+                format!("CREATE {}{}VIEW {}{} AS {}{}", pick!(self, "", "OR REPLACE "), pick!(self, "", "", "MATERIALIZED "), pick!(self, "v1", "t1", "root.v1"), pick!(self, "", " (a, b)"), q, pick!(self, "", "", " WITH CHECK OPTION", " WITH LOCAL CHECK OPTION"))
+            }
+            25 => format!("CREATE {}FUNCTION {}({}) RETURNS {} AS {} LANGUAGE {}", pick!(self, "", "OR REPLACE "), pick!(self, "f1", "root.f1", "upper"), pick!(self, "", "a INT", "a INT, b TEXT", "a"), self.p(TYPES), pick!(self, "'SELECT 1'", "$$ SELECT 1 $$", "$body$ x $body$", "$$ unterminated", "''"), pick!(self, "sql", "plpgsql", "'sql'", "")),
+            26 => format!("CREATE {}PROCEDURE {}({}) AS {} LANGUAGE {}", pick!(self, "", "OR REPLACE "), pick!(self, "p1", "root.p1"), pick!(self, "", "a INT", "a INT, b nosuch"), pick!(self, "'SELECT 1'", "$$ DELETE FROM t1 $$"), pick!(self, "sql", "plpgsql")),
+            27 => format!("CREATE {}TRIGGER {} {} {} ON {} {}EXECUTE {} {}()", pick!(self, "", "OR REPLACE "), pick!(self, "tr1", "t1"), pick!(self, "BEFORE", "AFTER", "INSTEAD OF"), pick!(self, "INSERT", "UPDATE OR DELETE", "TRUNCATE", "INSERT OR UPDATE OR DELETE OR TRUNCATE", "SELECT"), pick!(self, "t1", "nosuch"), pick!(self, "", "FOR EACH ROW ", "FOR EACH STATEMENT "), pick!(self, "FUNCTION", "PROCEDURE", ""), pick!(self, "f1", "nosuch")),
+            28 => match self.r.below(4) {
+                0 => format!("CREATE TYPE {} AS ENUM ({})", pick!(self, "mood", "root.mood", "int"), pick!(self, "'a', 'b'", "", "'a', 'a'", "'a', 1", "''")),
+                1 => format!("CREATE TYPE {} AS ({})", pick!(self, "pair", "mood"), pick!(self, "a INT, b TEXT", "", "a INT, a INT", "a nosuch", "a pair")),
+                2 => format!("CREATE DOMAIN {} AS {}", pick!(self, "posint", "int"), self.p(TYPES)),
+                _ => format!("CREATE TYPE {}", pick!(self, "mood", "mood AS", "mood AS RANGE (subtype = int)")),
+            },
+            _ => format!("CREATE {}", pick!(self, "", "OR", "OR REPLACE", "OR REPLACE TABLE x (a INT)", "UNIQUE", "UNIQUE TABLE t (a INT)", "SEQUENCE s1", "DATABASE d", "EXTENSION vector", "TABLE", "TABLE t", "TABLE t (", "INDEX ON t1 (a)", "TABLE t AS SELECT 1")),
+        }
+    }
+    pub fn misc(&mut self) -> String {
+        match self.r.below(30) {
+            0..=3 => format!("BEGIN{}{}{}", pick!(self, "", "", " TRANSACTION", " WORK"), pick!(self, "", "", "", " ISOLATION LEVEL READ UNCOMMITTED", " ISOLATION LEVEL READ COMMITTED", " ISOLATION LEVEL REPEATABLE READ", " ISOLATION LEVEL SERIALIZABLE", " ISOLATION LEVEL nosuch", " ISOLATION LEVEL"), pick!(self, "", "", " READ ONLY", " READ WRITE", ", READ ONLY")),
+            4 | 5 => format!("COMMIT{}", pick!(self, "", "", " TRANSACTION", " WORK", " AND CHAIN", " x")),
+            6 | 7 => format!("ROLLBACK{}", pick!(self, "", "", " TRANSACTION", " TO sp1", " TO SAVEPOINT sp1", " TO SAVEPOINT nosuch", " TO", " TO SAVEPOINT", " TO \"\"", " TO SAVEPOINT ü")),
+            8 | 9 => format!("SAVEPOINT {}", pick!(self, "sp1", "sp1", "sp2", "\"\"", "select", "", "ü", "sp1 sp2", "1")),
+            10 => format!("RELEASE {}{}", pick!(self, "", "SAVEPOINT "), pick!(self, "sp1", "sp2", "nosuch", "", "\"\"")),
+            11..=14 => {
+                let inner = match self.r.below(8) {
+                    0..=3 => self.select(true),
+                    4 => self.insert(),
+                    5 => self.update(),
+                    6 => self.delete(),
+                    _ => pick!(self, "EXPLAIN SELECT 1", "BEGIN", "PRAGMA wal", "CREATE TABLE e (a INT)", "DROP TABLE t5", "", "TRUNCATE t5", "ALTER TABLE t5 ADD COLUMN z INT").to_string(),
+                };
+                format!("EXPLAIN {}{}{}{}", pick!(self, "", "", "ANALYZE ", "(ANALYZE) ", "(ANALYZE, VERBOSE) ", "(nosuch) "), pick!(self, "", "", "VERBOSE "), pick!(self, "", "", "", "FORMAT JSON ", "(FORMAT JSON) ", "(FORMAT XML) ", "(FORMAT YAML) ", "(FORMAT TEXT) ", "(FORMAT nosuch) ", "QUERY PLAN "), inner)
+            }
+            15..=17 => {
+                let scope = pick!(self, "", "", "SESSION ", "LOCAL ", "GLOBAL ");
+                let name = pick!(self, "foreign_keys", "search_path", "work_mem", "TRANSACTION ISOLATION LEVEL SERIALIZABLE", "x.y", "TIME ZONE", "", "\"\"", "join_memory_budget", "wal", "NAMES", "autocommit");
+                let val = match self.r.below(6) {
+                    0 => self.literal(),
+                    1 => pick!(self, "ON", "OFF", "DEFAULT", "on", "true", "1", "0").to_string(),
+                    2 => format!("{}, {}", self.literal(), self.literal()),
+                    3 => String::new(),
+                    _ => pick!(self, "ON", "OFF", "'UTC'", "root", "1", "(SELECT 1)", "9223372036854775808", "-1").to_string(),
+                };
+                format!("SET {}{} {} {}", scope, name, pick!(self, "=", "TO", "="), val)
+            }
+            18 => format!("SHOW {}", pick!(self, "ALL", "search_path", "foreign_keys", "", "TABLES", "nosuch", "\"\"", "TRANSACTION ISOLATION LEVEL")),
+            19 => format!("RESET {}", pick!(self, "ALL", "search_path", "foreign_keys", "", "nosuch")),
+            20 => format!("GRANT {} ON {}{} TO {}{}", pick!(self, "SELECT", "ALL", "ALL PRIVILEGES", "SELECT, INSERT", "nosuch", "", "EXECUTE", "USAGE"), pick!(self, "", "TABLE ", "SCHEMA ", "FUNCTION "), pick!(self, "t1", "nosuch", "root.t1", ""), pick!(self, "u1", "PUBLIC", "u1, u2", ""), pick!(self, "", " WITH GRANT OPTION")),
+            21 => format!("REVOKE {} ON {} FROM {}{}", pick!(self, "SELECT", "ALL", "UPDATE, DELETE", ""), pick!(self, "t1", "TABLE t1", "nosuch"), pick!(self, "u1", "PUBLIC", ""), pick!(self, "", " CASCADE", " RESTRICT")),
+            22 => {
+                let n = self.r.below(4);
+                let a: Vec<String> = (0..n).map(|_| self.expr()).collect();
+                format!("CALL {}({})", pick!(self, "p1", "root.p1", "nosuch", "upper", ""), a.join(", "))
+            }
+            23 | 24 => {
+                let t = self.any_table();
+                let s2 = self.any_table();
+                let saved = self.scope.clone();
+                self.scope.push(("tgt".into(), t));
+                self.scope.push(("src".into(), s2));
+                let on = if self.ch(60) { format!("tgt.{} = src.{}", TABS[t].cols[0].0, TABS[s2].cols[0].0) } else { self.expr() };
+                let mut cl = vec![];
+                for _ in 0..self.r.below(4) {
+                    cl.push(match self.r.below(5) {
+                        0 => "WHEN MATCHED THEN DELETE".to_string(),
+                        1 | 2 => format!("WHEN MATCHED THEN UPDATE SET {} = {}", self.col_of(t, None), self.expr()),
+                        3 => format!("WHEN NOT MATCHED THEN INSERT VALUES ({})", (0..TABS[t].cols.len()).map(|_| self.literal()).collect::<Vec<_>>().join(", ")),
+                        _ => format!("WHEN NOT MATCHED THEN INSERT ({}) VALUES ({})", TABS[t].cols[0].0, self.expr()),
+                    });
+                }
+                self.scope = saved;
+                format!("MERGE INTO {} {}USING {} {}ON {} {}", TABS[t].name, pick!(self, "tgt ", "AS tgt ", ""), TABS[s2].name, pick!(self, "src ", "AS src ", ""), on, cl.join(" "))
+            }
+            _ => {
+                let name = self.p(PRAGMAS);
+                match self.r.below(6) {
+                    0 | 1 => format!("PRAGMA {}", name),
+                    2 => format!("PRAGMA {}({})", name, self.p(PRAGMA_VALUES)),
+                    3 => format!("PRAGMA {} = {}", pick!(self, "", "1", "\"\"", "a.b", "wal.x", "ü"), self.p(PRAGMA_VALUES)),
+                    _ => format!("PRAGMA {} {} {}", name, pick!(self, "=", "=", "=", "", "=="), self.p(PRAGMA_VALUES)),
+                }
+            }
+        }
+    }
+    /// any statement kind
+    pub fn statement(&mut self) -> String {
+        self.scope.clear();
+        self.budget = 50_000;
+        match self.r.below(100) {
+            0..=39 => self.select(true),
+            40..=51 => self.insert(),
+            52..=61 => self.update(),
+            62..=68 => self.delete(),
+            69..=83 => self.ddl(),
+            _ => self.misc(),
+        }
+    }
+}
+
+// ------------------------------------------------------------------------------------------
+// token-level mutation
+// ------------------------------------------------------------------------------------------
+const DICT: &[&str] = &[
+    "SELECT", "FROM", "WHERE", "GROUP", "BY", "HAVING", "ORDER", "LIMIT", "OFFSET", "UNION", "ALL", "INTERSECT", "EXCEPT", "JOIN", "LEFT", "RIGHT", "FULL", "OUTER", "INNER", "CROSS", "NATURAL", "ON", "USING", "AS", "DISTINCT",
+    "INSERT", "INTO", "VALUES", "UPDATE", "SET", "DELETE", "RETURNING", "CONFLICT", "DO", "NOTHING", "DEFAULT", "CREATE", "TABLE", "INDEX", "UNIQUE", "PRIMARY", "KEY", "NOT", "NULL", "CHECK", "REFERENCES", "FOREIGN", "DROP", "ALTER",
+    "ADD", "COLUMN", "RENAME", "TO", "TRUNCATE", "BEGIN", "COMMIT", "ROLLBACK", "SAVEPOINT", "RELEASE", "EXPLAIN", "PRAGMA", "AND", "OR", "IN", "IS", "LIKE", "ILIKE", "BETWEEN", "EXISTS", "CASE", "WHEN", "THEN", "ELSE", "END", "CAST",
+    "OVER", "PARTITION", "ROWS", "RANGE", "UNBOUNDED", "PRECEDING", "FOLLOWING", "CURRENT", "ROW", "FILTER", "WITH", "RECURSIVE", "LATERAL", "ASC", "DESC", "NULLS", "FIRST", "LAST", "TRUE", "FALSE", "IF", "CASCADE", "INT", "BIGINT",
+    "TEXT", "JSONB", "VECTOR", "DATE", "COUNT", "SUM", "AVG", "MIN", "MAX", "ROW_NUMBER", "COALESCE", "UPPER", "LENGTH", "SUBSTR", "ABS", "ROUND", "NOW", "(", ")", "(", ")", ",", ",", ";", ".", "*", "=", "<", ">", "<=", ">=", "<>", "!=",
+    "+", "-", "/", "%", "||", "->", "->>", "<->", "<=>", "::", "[", "]", "?", "$1", ":p", "@p", "'", "\"", "`", "--", "/*", "*/", "0", "1", "-1", "2147483648", "9223372036854775807", "9223372036854775808", "1e999", "0.0", "''", "'a'",
+    "'%'", "NULL", "t1", "t2", "t3", "t4", "t5", "id", "a", "b", "c", "emb", "j", "dt", "\"ünï\"", "x", "é", "😀", "\u{0}", "\u{200b}",
+];
+
+pub fn mutate_tokens(r: &mut Rng, toks: &mut Vec<String>, n: usize, donor: Option<&[String]>) -> Vec<&'static str> {
+    let mut kinds = vec![];
+    for _ in 0..n {
+        if toks.is_empty() {
+            toks.push(DICT[r.below(DICT.len() as u64) as usize].to_string());
+            kinds.push("insert");
+            continue;
+        }
+        let i = r.below(toks.len() as u64) as usize;
+        match r.below(13) {
+            0 | 1 => {
+                toks.remove(i);
+                kinds.push("delete");
+            }
+            2 | 3 => {
+                let t = toks[i].clone();
+                toks.insert(i, t);
+                kinds.push("duplicate");
+            }
+            4 => {
+                let j = r.below(toks.len() as u64) as usize;
+                toks.swap(i, j);
+                kinds.push("swap");
+            }
+            5 => {
+                if i + 1 < toks.len() {
+                    toks.swap(i, i + 1);
+                }
+                kinds.push("swap_adjacent");
+            }
+            6 | 7 => {
+                toks[i] = DICT[r.below(DICT.len() as u64) as usize].to_string();
+                kinds.push("replace");
+            }
+            8 => {
+                toks.insert(i, DICT[r.below(DICT.len() as u64) as usize].to_string());
+                kinds.push("insert");
+            }
+            9 => {
+                // replace a literal by a boundary literal of the same class
+                let first = toks[i].as_bytes().first().copied().unwrap_or(b' ');
+                if first.is_ascii_digit() {
+                    let pool: &[&str] = if r.chance(1, 2) { INT_LITS } else { FLOAT_LITS };
+                    toks[i] = pool[r.below(pool.len() as u64) as usize].to_string();
+                } else if first == b'\'' {
+                    toks[i] = STR_LITS[r.below(STR_LITS.len() as u64) as usize].to_string();
+                } else {
+                    toks[i] = INT_LITS[r.below(INT_LITS.len() as u64) as usize].to_string();
+                }
+                kinds.push("boundary_literal");
+            }
+            10 => {
+                toks.truncate(i);
+                kinds.push("truncate");
+            }
+            11 => {
+                if let Some(d) = donor {
+                    if !d.is_empty() {
+                        let a = r.below(d.len() as u64) as usize;
+                        let l = 1 + r.below(6) as usize;
+                        let piece: Vec<String> = d[a..(a + l).min(d.len())].to_vec();
+                        for (k, p) in piece.into_iter().enumerate() {
+                            toks.insert((i + k).min(toks.len()), p);
+                        }
+                    }
+                }
+                kinds.push("splice");
+            }
+            _ => {
+                // cut a token in the middle (at a char boundary) -> unterminated strings, broken numbers
+                let t = toks[i].clone();
+                let cuts: Vec<usize> = t.char_indices().map(|(p, _)| p).collect();
+                if cuts.len() > 1 {
+                    let c = cuts[1 + r.below(cuts.len() as u64 - 1) as usize];
+                    toks[i] = t[..c].to_string();
+                }
+                kinds.push("cut_token");
+            }
+        }
+    }
+    kinds
+}
+
+// ------------------------------------------------------------------------------------------
+// case generators
+// ------------------------------------------------------------------------------------------
+pub struct Env {
+    pub seed: u64,
+    pub tier: String,
+    pub root: PathBuf,
+    pub work: PathBuf,
+    pub corpus: Corpus,
+}
+
+fn case_rng(seed: u64, unit: &str, idx: u64) -> Rng {
+    let mut base = Rng::derive(seed, STREAM);
+    Rng::new(base.next() ^ fnv(unit.as_bytes()).rotate_left(17) ^ idx.wrapping_mul(0x9E3779B97F4A7C15))
+}
+
+fn entry_step(r: &mut Rng, sql: Txt) -> Step {
+    let op = match r.below(20) {
+        0..=12 => Op::Exec(sql),
+        13..=17 => Op::Query(sql),
+        18 => Op::QueryCols(sql),
+        _ => Op::ExecParams(sql, vec![]),
+    };
+    Step { h: 0, op }
+}
+
+fn gen_gram(r: &mut Rng, case: &mut Case) {
+    let n = match r.below(10) {
+        0..=5 => 1,
+        6..=7 => 2,
+        8 => 3,
+        _ => 5,
+    };
+    let txn = r.chance(1, 8);
+    if txn {
+        case.steps.push(Step::exec("BEGIN"));
+    }
+    let mut tags = vec![];
+    for _ in 0..n {
+        let mut sql = {
+            let mut g = G::new(r);
+            g.depth = 2 + g.r.below(3) as u32;
+            g.statement()
+        };
+        let kind = stmt_kind(&Txt::lit(sql.clone()));
+        if r.chance(1, 7) {
+            let mut t = tokenize(&sql);
+            let nm = 1 + r.below(2) as usize;
+            mutate_tokens(r, &mut t, nm, None);
+            sql = join_tokens(&t);
+            tags.push(format!("{}~", kind));
+        } else {
+            tags.push(kind);
+        }
+        if r.chance(1, 30) {
+            sql.push_str(["; ", ";;", "; SELECT 1", " -- c", " /* c */", ";\n"][r.below(6) as usize]);
+        }
+        case.steps.push(entry_step(r, Txt::lit(sql)));
+    }
+    if txn {
+        case.steps.push(Step::exec(if r.chance(1, 2) { "ROLLBACK" } else { "COMMIT" }));
+        case.steps.push(Step::query("SELECT COUNT(*) FROM t1"));
+    }
+    case.tag = format!("gram:{}", tags.join("+"));
+}
+
+fn gen_func(r: &mut Rng, case: &mut Case) {
+    // every function is visited round-robin by the case index, so a run of >= FUNCS.len() cases covers all
+    let (name, sig) = FUNCS[(case.idx as usize) % FUNCS.len()];
+    let ctx = r.below(9);
+    let sql = {
+        let mut g = G::new(r);
+        g.depth = 1 + g.r.below(2) as u32;
+        g.budget = 2000;
+        let t = g.r.below(5) as usize;
+        if ctx > 0 {
+            g.scope.push((TABS[t].name.to_string(), t));
+        }
+        let call = g.call(name, sig);
+        let tn = TABS[t].name;
+        match ctx {
+            0 => format!("SELECT {}", call),
+            1 => format!("SELECT {} FROM {}", call, tn),
+            2 => format!("SELECT {} FROM {} WHERE {} {} {}", TABS[t].cols[0].0, tn, call, pick!(g, "=", "<", ">=", "<>", "IS NOT DISTINCT FROM"), g.literal()),
+            3 => format!("SELECT {} FROM {} ORDER BY {}{}", TABS[t].cols[0].0, tn, call, pick!(g, "", " DESC", " LIMIT 3")),
+            4 => format!("SELECT {}, COUNT(*) FROM {} GROUP BY {}", call, tn, call),
+            5 => format!("UPDATE {} SET {} = {} WHERE {} IS NOT NULL", tn, TABS[t].cols[1].0, call, TABS[t].cols[0].0),
+            6 => format!("INSERT INTO t5 (k, v) VALUES ({}, 1)", call),
+            7 => format!("SELECT {} FROM {} WHERE {} IN (SELECT {} FROM {})", TABS[t].cols[0].0, tn, TABS[t].cols[0].0, call, tn),
+            _ => format!("DELETE FROM {} WHERE {} = {}", tn, call, g.literal()),
+        }
+    };
+    case.kind = Some(format!("fn:{}", name));
+    case.tag = format!("func:{}:ctx{}", name, ctx);
+    case.steps.push(entry_step(r, Txt::lit(sql)));
+}
+
+fn nest(prefix: &str, open: &str, core: &str, close: &str, suffix: &str, d: usize) -> Txt {
+    let mut t = Txt::default();
+    t.push(prefix);
+    t.rep(open, d);
+    t.push(core);
+    t.rep(close, d);
+    t.push(suffix);
+    t
+}
+
+const DEEP_TEMPLATES: usize = 44;
+
+fn deep_template(k: usize, d: usize) -> (Txt, &'static str) {
+    match k {
+        0 => (nest("SELECT ", "(", "1", ")", "", d), "parens"),
+        1 => (nest("SELECT a FROM t1 WHERE ", "(", "a = 1", ")", "", d), "parens_where"),
+        2 => (nest("SELECT * FROM ", "(SELECT * FROM ", "t5", ") AS s", "", d), "derived_tables"),
+        3 => (nest("SELECT ", "(SELECT ", "1", ")", "", d), "scalar_subqueries"),
+        4 => (nest("SELECT ", "CASE WHEN 1 = 1 THEN ", "1", " END", "", d), "case_then"),
+        5 => (nest("SELECT ", "CASE WHEN 1 = 0 THEN 0 ELSE ", "1", " END", " FROM t5", d), "case_else"),
+        6 => (nest("SELECT ", "NOT ", "TRUE", "", "", d), "not_chain"),
+        7 => (nest("SELECT ", "- ", "1", "", "", d), "unary_minus_chain"),
+        8 => (nest("SELECT ", "~", "1", "", "", d), "bitnot_chain"),
+        9 => (nest("SELECT 1", " + 1", "", "", "", d), "plus_chain"),
+        10 => (nest("SELECT k FROM t5 WHERE v = 0", " OR v = 1", "", "", "", d), "or_chain"),
+        11 => (nest("SELECT k FROM t5 WHERE v >= 0", " AND v >= 0", "", "", "", d), "and_chain"),
+        12 => (nest("SELECT ", "1 + (", "1", ")", "", d), "right_deep_plus"),
+        13 => (nest("SELECT ", "UPPER(", "'x'", ")", "", d), "function_nest"),
+        14 => (nest("SELECT ", "COALESCE(NULL, ", "a", ")", " FROM t1", d), "coalesce_nest"),
+        15 => (nest("SELECT ", "CAST(", "1", " AS BIGINT)", "", d), "cast_nest"),
+        16 => (nest("SELECT ", "1 IN (", "1", ")", "", d), "in_list_nest"),
+        17 => (nest("SELECT k FROM t5 WHERE k IN ", "(SELECT k FROM t5 WHERE k IN ", "('a')", ")", "", d), "in_subquery_nest"),
+        18 => (nest("SELECT k FROM t5 WHERE ", "EXISTS (SELECT 1 FROM t5 WHERE ", "1 = 1", ")", "", d), "exists_nest"),
+        19 => (nest("SELECT 1", " UNION SELECT 1", "", "", "", d), "union_chain"),
+        20 => (nest("SELECT 1", " UNION ALL SELECT 1", "", "", "", d), "union_all_chain"),
+        21 => (nest("", "(", "SELECT 1", ")", "", d), "parenthesised_select"),
+        22 => (nest("SELECT ", "(", "j", ")", " -> 'a' FROM t4", d), "parens_column"),
+        23 => (nest("SELECT j", " -> 'a'", "", "", " FROM t4", d), "json_arrow_chain"),
+        24 => (nest("SELECT (ARRAY[1])", "[1]", "", "", "", d), "subscript_chain"),
+        25 => (nest("INSERT INTO t4 (id, j) VALUES (900, '", "[", "1", "]", "')", d), "jsonb_array_literal_nest"),
+        26 => (nest("INSERT INTO t4 (id, j) VALUES (901, '", "{\"a\": ", "1", "}", "')", d), "jsonb_object_literal_nest"),
+        27 => (nest("SELECT ", "ARRAY[", "1", "]", "", d), "array_nest"),
+        28 => (nest("SELECT ", "ROW(", "1", ")", "", d), "row_nest"),
+        29 => (nest("", "EXPLAIN ", "SELECT 1", "", "", d), "explain_chain"),
+        30 => (nest("CREATE TABLE deep1 (a INT CHECK (", "(", "a > 0", ")", "))", d), "check_expr_nest"),
+        31 => (nest("CREATE TABLE deep2 (a INT DEFAULT ", "(", "1", ")", ")", d), "default_expr_nest"),
+        32 => (nest("SELECT CAST(NULL AS INT", "[]", "", "", ")", d), "array_type_suffix_chain"),
+        33 => (nest("UPDATE t5 SET v = ", "(", "v", ")", " WHERE k = 'a'", d), "update_set_parens"),
+        34 => (nest("DELETE FROM t5 WHERE ", "NOT (", "v = 1", ")", "", d), "delete_not_parens"),
+        35 => (nest("SELECT ", "1 BETWEEN ", "0", " AND 2", "", d), "between_nest"),
+        36 => (nest("SELECT 'a'", " || 'a'", "", "", "", d), "concat_chain"),
+        37 => (nest("SELECT 'a'", " LIKE 'a'", "", "", "", d), "like_chain"),
+        38 => (nest("SELECT 1", " = 1", "", "", "", d), "eq_chain"),
+        39 => (nest("SELECT 1", " IS NULL", "", "", "", d), "is_null_chain"),
+        40 => (nest("SELECT ", "ABS(- ", "a", ")", " FROM t1 ORDER BY 1", d), "abs_neg_nest"),
+        41 => (nest("SELECT SUM(", "(", "a", ")", ") OVER (ORDER BY id) FROM t1", d), "window_arg_parens"),
+        42 => (nest("SELECT a FROM t1 ORDER BY ", "(", "a", ")", " LIMIT 1", d), "order_by_parens"),
+        _ => (nest("SELECT a FROM t1 GROUP BY a HAVING ", "(", "COUNT(*) > 0", ")", "", d), "having_parens"),
+    }
+}
+
+fn cte_chain(d: usize) -> Txt {
+    let mut s = String::from("WITH c0 AS (SELECT 1 AS x)");
+    for i in 1..d {
+        s.push_str(&format!(", c{} AS (SELECT x FROM c{})", i, i - 1));
+    }
+    s.push_str(&format!(" SELECT x FROM c{}", d.saturating_sub(1)));
+    Txt::lit(s)
+}
+
+fn join_chain(d: usize) -> Txt {
+    // key-equality joins on a 5-row table; at most 6 operands so that even a nested loop stays tiny
+    let d = d.min(6).max(2);
+    let mut s = String::from("SELECT COUNT(*) FROM \"ünï\" j0");
+    for i in 1..d {
+        s.push_str(&format!(" JOIN \"ünï\" j{} ON j{}.\"ключ\" = j{}.\"ключ\"", i, i - 1, i));
+    }
+    Txt::lit(s)
+}
+
+fn gen_deep(r: &mut Rng, case: &mut Case, thorough: bool) {
+    let depths: &[usize] = &[3, 8, 16, 32, 50, 64, 100, 128, 150, 180, 200];
+    let d = depths[r.below(depths.len() as u64) as usize];
+    let k = (case.idx as usize) % (DEEP_TEMPLATES + 2);
+    let (sql, name) = if k == DEEP_TEMPLATES {
+        (cte_chain(d), "cte_chain")
+    } else if k == DEEP_TEMPLATES + 1 {
+        (join_chain(d), "join_chain")
+    } else {
+        deep_template(k, d)
+    };
+    case.tag = format!("deep:{}:{}", name, d);
+    let mut st = entry_step(r, sql);
+    if r.chance(1, 6) {
+        if let Some(t) = st.sql().cloned() {
+            st.op = Op::Prepare(t, vec![Round::Bind(vec![], false)]);
+        }
+    }
+    case.steps.push(st);
+}
+
+fn gen_huge(r: &mut Rng, case: &mut Case) {
+    const MIB: usize = 1 << 20;
+    let big = |r: &mut Rng| -> usize { [1000, 4096, 65536, MIB, MIB + 1][r.below(5) as usize] };
+    let k = case.idx % 60;
+    let mut t = Txt::default();
+    let name: &str;
+    match k {
+        0 => {
+            t.push("SELECT 1234567890123456789012345678901234567890");
+            name = "int40";
+        }
+        1 => {
+            t.push("SELECT id FROM t1 WHERE id = 1234567890123456789012345678901234567890 OR a < -1234567890123456789012345678901234567890");
+            name = "int40_where";
+        }
+        2 => {
+            t.push("INSERT INTO t1 (id, a) VALUES (1234567890123456789012345678901234567890, 99999999999999999999)");
+            name = "int40_insert";
+        }
+        3 => {
+            t.push("SELECT 1e999, -1e999, 1e-999, 1e999 * 0, 1e999 - 1e999, CAST(1e999 AS INT), CAST(1e999 AS BIGINT), ROUND(1e999), 1e999 = 1e999");
+            name = "float_1e999";
+        }
+        4 => {
+            t.push("INSERT INTO t1 (id, c, r) VALUES (9001, 1e999, -1e999)");
+            name = "float_1e999_insert";
+        }
+        5 => {
+            t.push("UPDATE t1 SET c = c * 1e999, r = 1e39, a = 1e999 WHERE id < 5");
+            name = "float_1e999_update";
+        }
+        6 => {
+            t.push("SELECT id FROM t1 WHERE c < 1e999 ORDER BY c * 1e308 LIMIT 1e999");
+            name = "float_1e999_order_limit";
+        }
+        7 => {
+            t.push("SELECT '");
+            t.rep("x", big(r));
+            t.push("'");
+            name = "string_select";
+        }
+        8 => {
+            t.push("SELECT LENGTH('");
+            t.rep("é", big(r) / 2);
+            t.push("'), UPPER('");
+            t.rep("ab", big(r) / 2);
+            t.push("')");
+            name = "string_functions";
+        }
+        9 => {
+            t.push("INSERT INTO t2 (id, name, note) VALUES (9002, 'n', '");
+            t.rep("y", big(r));
+            t.push("') RETURNING id");
+            name = "string_insert_text";
+        }
+        10 => {
+            t.push("INSERT INTO t2 (id, name) VALUES (9003, '");
+            t.rep("v", big(r));
+            t.push("')");
+            name = "string_insert_varchar40";
+        }
+        11 => {
+            t.push("SELECT id FROM t1 WHERE b = '");
+            t.rep("z", big(r));
+            t.push("'");
+            name = "string_where_eq";
+        }
+        12 => {
+            t.push("SELECT id FROM t2 WHERE note LIKE '");
+            t.rep("%n", [10, 100, 1000, 20000][r.below(4) as usize]);
+            t.push("%x'");
+            name = "like_pattern_many_wildcards";
+        }
+        13 => {
+            t.push("SELECT id FROM t1 WHERE b LIKE '");
+            t.rep("_", big(r));
+            t.push("'");
+            name = "like_pattern_underscores";
+        }
+        14 => {
+            t.push("SELECT \"");
+            t.rep("i", big(r));
+            t.push("\" FROM t1");
+            name = "identifier_quoted_huge";
+        }
+        15 => {
+            t.push("SELECT ");
+            t.rep("i", big(r));
+            t.push(" FROM t1");
+            name = "identifier_bare_huge";
+        }
+        16 => {
+            t.push("CREATE TABLE ");
+            t.rep("n", [64, 255, 256, 4096, 65536][r.below(5) as usize]);
+            t.push(" (");
+            t.rep("c", [64, 255, 256, 4096, 65536][r.below(5) as usize]);
+            t.push(" INT)");
+            name = "identifier_create_table";
+        }
+        17 => {
+            t.push("SELECT ");
+            t.rep("9", big(r));
+            name = "number_many_digits";
+        }
+        18 => {
+            t.push("SELECT 0.");
+            t.rep("0", big(r));
+            t.push("1, 1");
+            t.rep("0", 400);
+            t.push(".5, 1e");
+            t.rep("9", 30);
+            name = "float_many_digits";
+        }
+        19 => {
+            t.push("SELECT");
+            t.rep(" ", big(r));
+            t.push("1");
+            name = "whitespace_huge";
+        }
+        20 => {
+            t.push("SELECT 1 /*");
+            t.rep("c", big(r));
+            t.push("*/ + 1 --");
+            t.rep("d", 4096);
+            name = "comment_huge";
+        }
+        21 => {
+            t.push("SELECT id FROM t1 WHERE a IN (0");
+            t.rep(", 1", [100, 5000, 20000][r.below(3) as usize]);
+            t.push(")");
+            name = "in_list_long";
+        }
+        22 => {
+            t.push("SELECT 1");
+            t.rep(", 1", [100, 2000, 5000][r.below(3) as usize]);
+            name = "select_list_long";
+        }
+        23 => {
+            t.push("CREATE TABLE wide (c0 INT");
+            let n = [100usize, 1000, 2000][r.below(3) as usize];
+            let mut s = String::new();
+            for i in 1..n {
+                s.push_str(&format!(", c{} INT", i));
+            }
+            t.push(s);
+            t.push(")");
+            name = "create_table_wide";
+        }
+        24 => {
+            t.push("INSERT INTO t5 (k, v) VALUES ('w', 1, 2");
+            t.rep(", 3", 5000);
+            t.push(")");
+            name = "insert_values_too_wide";
+        }
+        25 => {
+            t.push("SELECT x'");
+            t.rep("ab", big(r) / 2);
+            t.push("', LENGTH(x'");
+            t.rep("0", 1001);
+            t.push("')");
+            name = "hex_literal_huge";
+        }
+        26 => {
+            t.push("INSERT INTO t4 (id, j) VALUES (9004, '[0");
+            t.rep(", 1", [100, 10000, 200000][r.below(3) as usize]);
+            t.push("]')");
+            name = "jsonb_literal_long";
+        }
+        27 => {
+            t.push("INSERT INTO t3 (title, emb) VALUES ('big', '[1");
+            t.rep(", 1", [3, 4, 1000, 100000][r.below(4) as usize]);
+            t.push("]')");
+            name = "vector_literal_long";
+        }
+        28 => {
+            t.push("SELECT id FROM t3 ORDER BY emb <-> '[1");
+            t.rep(", 1", [0, 2, 3, 4, 1000][r.below(5) as usize]);
+            t.push("]' LIMIT 3");
+            name = "vector_query_dims";
+        }
+        29 => {
+            t.push(["", " ", "\n", ";", ";;", " ; ", "--", "-- comment", "/**/", "/* */ ;", "\t\r\n", "\u{feff}", "\u{0}"][r.below(13) as usize]);
+            name = "empty_input";
+        }
+        30 => {
+            t.push(["SELECT ''", "SELECT '' || ''", "SELECT \"\" FROM t1", "SELECT `` FROM t1", "INSERT INTO t5 (k, v) VALUES ('', 0)", "SELECT * FROM t5 WHERE k = ''", "SELECT LENGTH(''), UPPER(''), SUBSTR('', 0, 0), REPEAT('', 0), LPAD('', 0, ''), REPLACE('', '', ''), INSTR('', ''), ASCII(''), REVERSE('')", "SELECT '' LIKE '', '' LIKE '%', 'a' LIKE '' ESCAPE ''", "SELECT CAST('' AS INT), CAST('' AS DOUBLE), CAST('' AS DATE), CAST('' AS JSONB), CAST('' AS VECTOR(4)), CAST('' AS UUID), CAST('' AS BOOLEAN)", "CREATE TABLE \"\" (\"\" INT)", "SELECT x''", "PRAGMA wal = ''", "SELECT 1 AS \"\""][r.below(13) as usize]);
+            name = "empty_strings";
+        }
+        31 => {
+            t.push(["SELECT 'abc", "SELECT \"abc", "SELECT `abc", "SELECT /* abc", "SELECT 1 /* a /* b */", "SELECT 1 -- x", "SELECT $$abc", "SELECT $tag$abc$tag", "SELECT x'ab", "SELECT 'a''", "SELECT 'a\\", "SELECT E'\\", "SELECT 'é", "SELECT \"é", "SELECT '😀", "SELECT 1 /*😀", "SELECT $é$", "SELECT '", "SELECT \"", "'", "\"", "`", "/*", "$$", "$a", "x'", "0x", "1e", "SELECT 1.", "SELECT .", "SELECT @", "SELECT :", "SELECT $", "SELECT #", "SELECT \\", "SELECT !", "SELECT |", "SELECT &", "SELECT <", "SELECT <-", "SELECT -", "SELECT /"][r.below(42) as usize]);
+            name = "unterminated";
+        }
+        32 => {
+            t.push(["SELECT \"值\" FROM \"ünï\"", "SELECT ключ FROM ünï", "SELECT \"值\", \"ключ\" FROM \"ünï\" WHERE \"值\" = 'ü' ORDER BY \"ключ\"", "CREATE TABLE 表 (列 INT)", "CREATE TABLE \"😀\" (\"😀\" INT, \"\u{200b}\" TEXT)", "SELECT 1 AS é", "SELECT 1 AS \"é\u{301}\"", "SELECT 1😀", "SELECT a😀 FROM t1", "SELECT 'a'é", "SELECT 1 +é 2", "SELECT é.* FROM t1 é", "SELECT * FROM t1 AS \"ü\" WHERE \"ü\".id = 1", "ALTER TABLE \"ünï\" RENAME COLUMN \"值\" TO \"价值\"", "CREATE INDEX \"ü_ix\" ON \"ünï\" (\"ключ\")", "INSERT INTO \"ünï\" VALUES (7, '\u{202e}rtl')", "SELECT UPPER('ß'), LOWER('İ'), LENGTH('😀'), CHAR_LENGTH('😀'), REVERSE('é\u{301}😀'), LEFT('😀😀', 1), RIGHT('😀😀', 1), SUBSTR('😀é', 2, 1), LPAD('é', 3, '😀'), ASCII('😀')", "SELECT\u{a0}1", "SELECT\u{3000}1", "ＳＥＬＥＣＴ 1", "PRAGMA ü = é", "SAVEPOINT ü", "SELECT $é", "SELECT :é", "SELECT @é"][r.below(25) as usize]);
+            name = "unicode_identifiers";
+        }
+        33 => {
+            t.push("SELECT SUBSTR('");
+            t.rep("é😀", 2000);
+            t.push(["', 3, 5)", "', 2147483647, 2147483647)", "', -9223372036854775808, 9223372036854775807)", "', 0, -1)", "', 4000, 1)"][r.below(5) as usize]);
+            name = "substr_multibyte";
+        }
+        34 => {
+            t.push("SELECT 9223372036854775807 + 1, -9223372036854775807 - 2, 9223372036854775807 * 2, 4611686018427387904 * 2, -9223372036854775807 - 1, (-9223372036854775807 - 1) / -1, (-9223372036854775807 - 1) % -1, 1 / 0, 1 % 0, 1.0 / 0, 1 << 64, 1 << -1, 1 >> 64, 2 ^ 64, -(-9223372036854775807 - 1), ABS(-9223372036854775807 - 1)");
+            name = "int_overflow_constants";
+        }
+        35 => {
+            let e = ["id + 9223372036854775807", "id - 9223372036854775807", "id * 9223372036854775807", "a * 2147483647 * 2147483647 * 2147483647", "id / 0", "id % 0", "a / (a - a)", "-id", "ABS(id)", "id << 63", "s * s * s * s * s * s", "id + id", "SUM(id)", "AVG(id)", "SUM(a) * 9223372036854775807", "(id / -1)", "(id % -1)", "MOD(id, -1)", "DIV(id, -1)", "id * -1", "0 - id", "POWER(id, 2)", "ROUND(c, 400)", "CAST(c AS BIGINT)", "CAST(c * 1e10 AS INT)", "CAST(id AS INT)", "CAST(id AS SMALLINT)", "CAST(a AS SMALLINT)", "c * 1e308", "CAST(c AS DECIMAL)", "amount * 99999999999999999999", "amount * amount * amount * amount * amount"][r.below(32) as usize];
+            let (tn, col) = if e.contains("amount") { ("t2", "amount") } else { ("t1", "id") };
+            let form = r.below(7);
+            t.push(match form {
+                0 => format!("SELECT {} FROM {}", e, tn),
+                1 => format!("SELECT {} FROM {} WHERE {} > 0", col, tn, e),
+                2 => format!("SELECT {} FROM {} ORDER BY {}", col, tn, e),
+                3 => format!("SELECT {} FROM {} ORDER BY {} DESC LIMIT 3", col, tn, e),
+                4 => {
+                    if e.starts_with("SUM") || e.starts_with("AVG") {
+                        format!("SELECT {} FROM {} GROUP BY d", e, tn)
+                    } else {
+                        format!("SELECT COUNT(*) FROM {} GROUP BY {}", tn, e)
+                    }
+                }
+                5 => {
+                    if tn == "t1" {
+                        format!("UPDATE t1 SET u = {} WHERE id > 50", e)
+                    } else {
+                        format!("UPDATE t2 SET amount = {} WHERE id > 30", e)
+                    }
+                }
+                _ => format!("SELECT MAX({}), MIN({}) FROM {}", e, e, tn),
+            });
+            name = "int_overflow_columns";
+        }
+        36 => {
+            t.push(["SELECT * FROM t1 LIMIT 0", "SELECT * FROM t1 ORDER BY a LIMIT 0", "SELECT * FROM t1 ORDER BY a LIMIT 0 OFFSET 5", "SELECT * FROM t1 ORDER BY a LIMIT 9223372036854775807 OFFSET 9223372036854775807", "SELECT * FROM t1 LIMIT -1", "SELECT * FROM t1 LIMIT 1 OFFSET -1", "SELECT * FROM t1 ORDER BY c, b, a DESC NULLS FIRST LIMIT 18446744073709551615", "SELECT * FROM t1 ORDER BY 99", "SELECT * FROM t1 ORDER BY 0", "SELECT * FROM t1 ORDER BY -1", "SELECT a FROM t1 GROUP BY 1 ORDER BY 2", "SELECT * FROM t1 OFFSET 9223372036854775807", "SELECT * FROM t1 ORDER BY c LIMIT 3 OFFSET 9223372036854775806", "SELECT DISTINCT a FROM t1 ORDER BY a LIMIT 0", "SELECT a, COUNT(*) FROM t1 GROUP BY a ORDER BY 2 DESC LIMIT 0", "SELECT * FROM t1 FETCH FIRST 0 ROWS ONLY", "SELECT * FROM t1 ORDER BY c NULLS LAST, r NULLS FIRST"][r.below(17) as usize]);
+            name = "limit_offset_order_bounds";
+        }
+        37 => {
+            t.push(["SELECT NTILE(0) OVER (ORDER BY id) FROM t1", "SELECT NTILE(-1) OVER () FROM t1", "SELECT LAG(a, 9223372036854775807) OVER (ORDER BY id) FROM t1", "SELECT LEAD(a, -9223372036854775807 - 1) OVER (ORDER BY id) FROM t1", "SELECT LAG(a, -1) OVER (ORDER BY id) FROM t1", "SELECT SUM(a) OVER (ORDER BY id ROWS BETWEEN 18446744073709551615 PRECEDING AND 18446744073709551615 FOLLOWING) FROM t1", "SELECT SUM(a) OVER (ORDER BY id ROWS BETWEEN 2 FOLLOWING AND 1 PRECEDING) FROM t1", "SELECT SUM(id) OVER (ORDER BY id) FROM t1", "SELECT AVG(id) OVER (PARTITION BY d) FROM t1", "SELECT NTH_VALUE(a, 0) OVER (ORDER BY id) FROM t1", "SELECT ROW_NUMBER() OVER (ORDER BY c), RANK() OVER (ORDER BY c DESC), DENSE_RANK() OVER (PARTITION BY d ORDER BY r) FROM t1", "SELECT SUM(a) OVER (ORDER BY id RANGE BETWEEN 9223372036854775807 PRECEDING AND CURRENT ROW) FROM t1", "SELECT FIRST_VALUE(b) OVER (PARTITION BY a ORDER BY id ROWS BETWEEN UNBOUNDED FOLLOWING AND UNBOUNDED PRECEDING) FROM t1", "SELECT COUNT(*) OVER (), SUM(s) OVER (ORDER BY s ROWS 9223372036854775808 PRECEDING) FROM t1", "SELECT ROW_NUMBER() OVER (ORDER BY ROW_NUMBER() OVER ()) FROM t1", "SELECT SUM(SUM(a)) OVER () FROM t1", "SELECT SUM(a) OVER (PARTITION BY SUM(a) OVER ()) FROM t1"][r.below(17) as usize]);
+            name = "window_bounds";
+        }
+        38 => {
+            t.push(["SELECT DATE_ADD('9999-12-31', 1)", "SELECT DATE_ADD('2024-01-01', 9223372036854775807)", "SELECT DATE_SUB('0001-01-01', 1)", "SELECT DATE_SUB('2024-01-01', -9223372036854775807 - 1)", "SELECT DATEDIFF('9999-12-31', '0001-01-01'), DATEDIFF('0000-00-00', '9999-99-99')", "SELECT LAST_DAY('2024-13-01'), LAST_DAY('0000-00-00'), LAST_DAY('9999-12-31')", "SELECT FROM_DAYS(9223372036854775807), FROM_DAYS(-1), FROM_DAYS(0), TO_DAYS('0000-00-00')", "SELECT MAKEDATE(9223372036854775807, 9223372036854775807), MAKEDATE(2024, 0), MAKEDATE(0, 1), MAKETIME(9223372036854775807, 0, 0), MAKETIME(1, 61, 61)", "SELECT SEC_TO_TIME(9223372036854775807), SEC_TO_TIME(-9223372036854775807 - 1), TIME_TO_SEC('838:59:59')", "SELECT PERIOD_ADD(9223372036854775807, 9223372036854775807), PERIOD_ADD(0, -1), PERIOD_DIFF(0, 0), PERIOD_DIFF(209912, -9223372036854775807)", "SELECT DATE_FORMAT('2024-02-29', '%'), DATE_FORMAT('2024-02-29', '%%%'), DATE_FORMAT('2024-02-29 12:00:00', '%Y%m%d%H%i%s%f%W%M%j%U%u%a%b%c%e%h%k%l%p%r%T%w%x%v%X%V%D%y'), DATE_FORMAT('x', '%Y')", "SELECT STR_TO_DATE('31/02/2024', '%d/%m/%Y'), STR_TO_DATE('', ''), STR_TO_DATE('99999999', '%Y%m%d'), STR_TO_DATE('2024', '%')", "SELECT YEAR(dt), MONTH(dt), DAY(dt), DAYNAME(dt), MONTHNAME(dt), DAYOFWEEK(dt), DAYOFYEAR(dt), QUARTER(dt), WEEK(dt), WEEKDAY(dt), YEARWEEK(dt), LAST_DAY(dt), DATE_ADD(dt, 400000), DATE_SUB(dt, 800000) FROM t4", "SELECT HOUR(tm), MINUTE(tm), SECOND(tm), MICROSECOND(tm), ADDTIME(tm, tm), SUBTIME(tm, '838:59:59'), TIMEDIFF(tm, ts), TIME_TO_SEC(tm), TIME_FORMAT(tm, '%H%i%s%f%p%r%T%h%l%k') FROM t4", "SELECT DATE(ts), TIME(ts), TIMESTAMP(dt), YEAR(ts), HOUR(ts), DATEDIFF(ts, dt), DATE_ADD(ts, 2147483647), WEEK(ts), DAYNAME(ts) FROM t4", "SELECT WEEK('0000-01-01'), WEEK('9999-12-31'), YEARWEEK('0000-01-01'), DAYOFYEAR('2023-02-30'), DAYNAME('0000-00-00'), MONTHNAME('2024-00-01'), QUARTER('2024-99-01')", "SELECT YEAR(9223372036854775807), MONTH(-1), DAY(1e308), DAYNAME(NULL), HOUR('99999999:00:00'), DATE(1e999), TIME(-1)", "SELECT dt + 1, dt - 1, dt - dt, ts - ts, dt + 9223372036854775807, ts + 9223372036854775807, tm * 2, -dt, dt * dt FROM t4", "SELECT * FROM t4 WHERE dt = '2024-02-30' OR dt < '0000-00-00' OR ts > '10000-01-01 00:00:00' OR tm = '24:00:00'", "INSERT INTO t4 (id, dt, ts, tm) VALUES (950, '10000-01-01', '9999-12-31 23:59:59.9999999', '24:00:00'), (951, '-0001-01-01', '0000-00-00 00:00:00', '-00:00:01'), (952, '2024-02-30', '2024-02-29 24:00:00', '00:60:00')", "INSERT INTO t4 (id, dt, ts, tm) VALUES (953, 2147483647, 9223372036854775807, 9223372036854775807), (954, -2147483648, -9223372036854775807, -1)", "SELECT CAST(9223372036854775807 AS DATE), CAST(-9223372036854775807 AS TIMESTAMP), CAST(9223372036854775807 AS TIME), CAST(1e300 AS DATE), CAST('5874898-01-01' AS DATE), CAST('294277-01-01 00:00:00' AS TIMESTAMP)"][r.below(22) as usize]);
+            name = "datetime_bounds";
+        }
+        39 => {
+            t.push(["SELECT CAST(id AS INT), CAST(id AS SMALLINT), CAST(id AS TINYINT), CAST(id AS REAL), CAST(id AS DECIMAL(5,2)), CAST(id AS BOOLEAN), CAST(id AS DATE), CAST(id AS TEXT), CAST(id AS VARCHAR(1)), CAST(id AS UUID), CAST(id AS JSONB), CAST(id AS VECTOR(1)) FROM t1", "SELECT CAST(b AS INT), CAST(b AS BIGINT), CAST(b AS DOUBLE), CAST(b AS DECIMAL), CAST(b AS BOOLEAN), CAST(b AS DATE), CAST(b AS TIME), CAST(b AS TIMESTAMP), CAST(b AS UUID), CAST(b AS JSONB), CAST(b AS VECTOR(4)), CAST(b AS BLOB), CAST(b AS INET), CAST(b AS POINT), CAST(b AS INTERVAL), CAST(b AS INT4RANGE), CAST(b AS INT[]) FROM t1", "SELECT CAST(c AS INT), CAST(c AS BIGINT), CAST(c AS SMALLINT), CAST(c AS REAL), CAST(c AS DECIMAL(38, 30)), CAST(c AS TEXT), CAST(c AS DATE), CAST(c AS BOOLEAN) FROM t1", "SELECT CAST(amount AS INT), CAST(amount AS BIGINT), CAST(amount AS DOUBLE), CAST(amount AS DECIMAL(2,1)), CAST(amount AS DECIMAL(38,38)), CAST(amount AS TEXT), amount + 1, amount * 1e30, amount / 0, amount % 0, -amount, ABS(amount), ROUND(amount, 50), amount = 1.0 FROM t2", "SELECT CAST(j AS TEXT), CAST(j AS INT), CAST(j AS VECTOR(4)), j -> 'a', j ->> 'a', j -> 0, j -> -1, j -> 9223372036854775807, j #> '{a,b}', j #>> '{nested,k,1}', j @> '{\"a\": 1}', j <@ j, j -> 'b' -> 2 -> 'c', j || j, j = j, j < j FROM t4", "SELECT CAST(emb AS TEXT), CAST(emb AS JSONB), CAST(emb AS VECTOR(3)), emb <-> '[1,2,3,4]', emb <=> '[0,0,0,0]', emb <#> emb, emb <-> '[1,2]', emb <-> NULL, emb <-> 1, emb + emb, emb = emb, -emb FROM t3", "SELECT CAST(uid AS TEXT), CAST(uid AS BLOB), CAST(uid AS INT), uid = uid, uid < '550e8400', uid || 'x', UPPER(uid), LENGTH(uid), CAST(bl AS TEXT), CAST(bl AS UUID), CAST(bl AS INT), LENGTH(bl), UPPER(bl), bl || bl, bl = x'00ff', SUBSTR(bl, 2, 1) FROM t4", "SELECT CAST('1' AS DECIMAL(0,0)), CAST('1' AS DECIMAL(4294967295,4294967295)), CAST('1e400' AS DECIMAL), CAST('99999999999999999999999999999999999999999999' AS DECIMAL), CAST(1 AS VARCHAR(0)), CAST('abc' AS CHAR(4294967295)), CAST('[1]' AS VECTOR(0)), CAST('[1]' AS VECTOR(4294967295)), CAST(1 AS nosuch), CAST(NULL AS INT[][])", "SELECT d + 1, d * d, -d, d AND 1, d OR 'x', NOT d, d = 1, d < TRUE, SUM(d), AVG(d), MAX(d), CAST(d AS INT), CAST(d AS TEXT), CAST(d AS DATE) FROM t1 GROUP BY d", "SELECT a + b, a || b, a + c, a * r, s + id, s * s, b + 1, b * 2, -b, b / 0, b % 2, b & 1, b | 1, b << 1, ~b, a & id, a | s, a # u, a << s, a >> id, ~a, a ^ 2, a ^ 64, 2 ^ a, c % 2, c & 1, c << 1, ~c FROM t1"][r.below(10) as usize]);
+            name = "casts_and_type_mixing";
+        }
+        40..=59 => {
+            // size arguments far outside anything satisfiable: must be an error (or NULL), not an abort/hang
+            let huge = ["9223372036854775807", "1099511627776", "4611686018427387904", "18446744073709551615", "1e300", "-9223372036854775807 - 1"][r.below(6) as usize];
+            let f = match k {
+                40 => format!("REPEAT('ab', {})", huge),
+                41 => format!("REPEAT('', {})", huge),
+                42 => format!("LPAD('x', {}, 'yz')", huge),
+                43 => format!("RPAD('x', {}, 'yz')", huge),
+                44 => format!("LPAD('x', {}, '')", huge),
+                45 => format!("SPACE({})", huge),
+                46 => format!("SUBSTR('abcdef', {}, {})", huge, huge),
+                47 => format!("LEFT('abcdef', {}), RIGHT('abcdef', {})", huge, huge),
+                48 => format!("FORMAT(1.5, {})", huge),
+                49 => format!("ROUND(1.5, {}), TRUNCATE(1.5, {}), ROUND(1.5, -{})", huge, huge, huge),
+                50 => format!("INSERT('abcdef', {}, {}, 'x')", huge, huge),
+                51 => format!("SUBSTRING_INDEX('a,b,c', ',', {})", huge),
+                52 => format!("CONV('zz', 36, {}), CONV('1', {}, 2), BIN({})", huge, huge, huge),
+                53 => format!("POWER(10, {}), POW({}, {}), EXP({}), 10 ^ {}", huge, huge, huge, huge, huge),
+                54 => format!("LOCATE('a', 'banana', {}), INSTR('banana', 'a'), FIELD({}, 1, 2), FIND_IN_SET('a', 'a,b')", huge, huge),
+                55 => format!("MOD({}, -1), MOD({}, 0), DIV({}, -1), DIV({}, 0), SIGN({}), ABS({}), CEIL({}), FLOOR({})", huge, huge, huge, huge, huge, huge, huge, huge),
+                56 => format!("CONCAT_WS(',', REPEAT('a', 300), REPEAT('b', 300)), LENGTH(REPEAT('😀', 300)), REPEAT(REPEAT('a', 10), {})", huge),
+                57 => format!("LOG({}), LOG(0), LOG(-1), LN(0), LOG2(0), LOG10(-{}), SQRT(-1), ASIN(2), ACOS(-2), COT(0), ATAN2(0, 0), TAN({}), DEGREES({}), RADIANS({})", huge, huge, huge, huge, huge),
+                58 => format!("GREATEST({}, 'a', NULL, 1.5), LEAST(), GREATEST(), COALESCE(), IF(), IFNULL(1), NULLIF(1), CONCAT(), CONCAT_WS(), TYPEOF(), IF(1, 2, 3, 4)", huge),
+                _ => format!("RAND({}), RAND(-1), RAND('a'), PI(1), NOW(1), NOW({}), CURDATE(1), VERSION(1), DATABASE(1)", huge, huge),
+            };
+            t.push(if f.starts_with("INSERT(") || r.chance(2, 3) { format!("SELECT {}", f) } else { format!("SELECT {} FROM t5 WHERE k = 'a'", f) });
+            name = "unsatisfiable_size_arguments";
+        }
+        _ => unreachable!(),
+    }
+    case.tag = format!("huge:{}", name);
+    case.steps.push(entry_step(r, t));
+}
+
+fn gen_bytes(r: &mut Rng, case: &mut Case) {
+    let flavour = r.below(8);
+    let len = match r.below(10) {
+        0 => 0,
+        1..=5 => 1 + r.below(40) as usize,
+        6..=8 => 40 + r.below(300) as usize,
+        _ => 1000 + r.below(8000) as usize,
+    };
+    let s: String = match flavour {
+        0 | 1 => String::from_utf8_lossy(&r.bytes(len)).to_string(),
+        2 => r.bytes(len).iter().map(|b| (0x20 + b % 0x5f) as char).collect(),
+        3 => {
+            // SQL-ish alphabet
+            let alpha: Vec<char> = "'\"`()[]{},;.*=<>!+-/%|&^~#@$:?\\ \n\t0123456789eExXselctfromwhainuSELCTFROMWHAINU_é😀\u{0}".chars().collect();
+            (0..len).map(|_| alpha[r.below(alpha.len() as u64) as usize]).collect()
+        }
+        4 => {
+            // random dictionary words
+            let n = 1 + len / 6;
+            let v: Vec<&str> = (0..n).map(|_| DICT[r.below(DICT.len() as u64) as usize]).collect();
+            v.join(if r.chance(1, 8) { "" } else { " " })
+        }
+        _ => {
+            // a valid statement with random bytes spliced in / overwritten at a random position
+            let base = {
+                let mut g = G::new(r);
+                g.depth = 2;
+                g.statement()
+            };
+            let mut b = base.into_bytes();
+            for _ in 0..1 + r.below(3) {
+                let pos = r.below(b.len() as u64 + 1) as usize;
+                let junk = match r.below(5) {
+                    0 => "é".as_bytes().to_vec(),
+                    1 => "😀".as_bytes().to_vec(),
+                    2 => vec![0u8],
+                    _ => {
+                        let n = 1 + r.below(4) as usize;
+                        r.bytes(n)
+                    }
+                };
+                if r.chance(1, 2) || pos >= b.len() {
+                    for (k, x) in junk.iter().enumerate() {
+                        b.insert((pos + k).min(b.len()), *x);
+                    }
+                } else {
+                    for (k, x) in junk.iter().enumerate() {
+                        if pos + k < b.len() {
+                            b[pos + k] = *x;
+                        }
+                    }
+                }
+            }
+            String::from_utf8_lossy(&b).to_string()
+        }
+    };
+    case.tag = format!("bytes:f{}", flavour.min(5));
+    case.steps.push(entry_step(r, Txt::lit(s)));
+    if r.chance(1, 10) {
+        // the same junk through prepare
+        let t = case.steps[0].sql().cloned().unwrap_or_default();
+        case.steps.push(Step { h: 0, op: Op::Prepare(t, vec![Round::Bind(vec![], false)]) });
+    }
+}
+
+/// fill the `{}` / `{name}` / `{:>5}` placeholders of format strings harvested from the tests
+fn fill_placeholders(r: &mut Rng, s: &str) -> String {
+    let b = s.as_bytes();
+    let mut out = String::with_capacity(s.len());
+    let mut i = 0;
+    let mut n = 0;
+    while i < b.len() {
+        if b[i] == b'{' {
+            if b.get(i + 1) == Some(&b'{') {
+                out.push('{');
+                i += 2;
+                continue;
+            }
+            if let Some(end) = s[i..].find('}') {
+                let inner = &s[i + 1..i + end];
+                if inner.len() <= 24 && !inner.contains('"') && !inner.contains(' ') {
+                    n += 1;
+                    // inside quotes -> a word, else a small number
+                    let quoted = out.ends_with('\'') || out.ends_with('%') || out.ends_with('_');
+                    if quoted {
+                        out.push_str(["a", "x1", "Alice", "", "é"][r.below(5) as usize]);
+                    } else if out.trim_end().to_ascii_uppercase().ends_with("FROM") || out.trim_end().to_ascii_uppercase().ends_with("INTO") || out.trim_end().to_ascii_uppercase().ends_with("TABLE") || out.trim_end().to_ascii_uppercase().ends_with("JOIN") {
+                        out.push_str(["t1", "t5", "tbl"][r.below(3) as usize]);
+                    } else {
+                        out.push_str(&(r.below(20) + n).to_string());
+                    }
+                    i += end + 1;
+                    continue;
+                }
+            }
+        }
+        if b[i] == b'}' && b.get(i + 1) == Some(&b'}') {
+            out.push('}');
+            i += 2;
+            continue;
+        }
+        let ch_len = s[i..].chars().next().map(|c| c.len_utf8()).unwrap_or(1);
+        out.push_str(&s[i..i + ch_len]);
+        i += ch_len;
+    }
+    out
+}
+
+fn gen_mut(r: &mut Rng, case: &mut Case, corpus: &Corpus, thorough: bool) {
+    if corpus.files.is_empty() {
+        case.tag = "mut:empty_corpus".into();
+        case.steps.push(Step::exec("SELECT 1"));
+        return;
+    }
+    let f = &corpus.files[r.below(corpus.files.len() as u64) as usize];
+    let stmts = &f.1;
+    let win = (1 + r.below(5) as usize).min(stmts.len());
+    let start = r.below((stmts.len() - win + 1) as u64) as usize;
+    let target = start + r.below(win as u64) as usize;
+    // the CREATE TABLE statements of the file that precede the window give the mutated statement its schema
+    let mut pre: Vec<&String> = vec![];
+    let mut seen_names = HashSet::new();
+    let window_text: String = stmts[start..start + win].join(" ").to_ascii_lowercase();
+    for s in stmts[..start].iter().rev() {
+        if pre.len() >= 3 {
+            break;
+        }
+        let up = s.trim_start().to_ascii_uppercase();
+        if up.starts_with("CREATE TABLE") {
+            let toks = tokenize(s);
+            let name = toks.iter().skip(2).find(|t| !["IF", "NOT", "EXISTS"].contains(&t.to_ascii_uppercase().as_str())).cloned().unwrap_or_default().to_ascii_lowercase();
+            if !name.is_empty() && window_text.contains(&name) && seen_names.insert(name) {
+                pre.push(s);
+            }
+        }
+    }
+    pre.reverse();
+    for s in pre {
+        case.steps.push(Step::exec(fill_placeholders(r, s)));
+    }
+    let donor_stmt = &stmts[r.below(stmts.len() as u64) as usize];
+    let donor = tokenize(donor_stmt);
+    let mut kinds_all: Vec<&'static str> = vec![];
+    for (k, s) in stmts[start..start + win].iter().enumerate() {
+        let filled = fill_placeholders(r, s);
+        if start + k == target || r.chance(1, 6) {
+            let mut toks = tokenize(&filled);
+            let n = if thorough {
+                match r.below(10) {
+                    0..=4 => 1,
+                    5..=7 => 2 + r.below(2) as usize,
+                    _ => 4 + r.below(5) as usize,
+                }
+            } else {
+                1 + r.below(3) as usize
+            };
+            let kinds = mutate_tokens(r, &mut toks, n, Some(&donor));
+            kinds_all.extend(kinds);
+            case.steps.push(entry_step(r, Txt::lit(join_tokens(&toks))));
+        } else {
+            case.steps.push(Step::exec(filled));
+        }
+    }
+    kinds_all.sort();
+    kinds_all.dedup();
+    case.tag = format!("mut:{}:{}", stmt_kind(&Txt::lit(stmts[target].clone())), kinds_all.join("+"));
+}
+
+fn gen_param(r: &mut Rng, huge_ok: bool) -> P {
+    let f = |x: f64| x.to_bits();
+    match r.below(34) {
+        0 | 1 => P::Null,
+        2 => P::Bool(r.chance(1, 2)),
+        3..=6 => P::Int(r.range(-5, 70)),
+        7 | 8 => P::Int([i64::MAX, i64::MIN, i64::MIN + 1, 2147483647, 2147483648, -2147483649, 32768, 4294967296, 0][r.below(9) as usize]),
+        9 | 10 => P::Float([f(0.0), f(-0.0), f(1.5), f(f64::NAN), f(f64::INFINITY), f(f64::NEG_INFINITY), f(f64::MAX), f(f64::MIN_POSITIVE), f(5e-324), f(1e19), f(-9.3e18)][r.below(11) as usize]),
+        11..=14 => P::Text(Txt::lit(["", "a", "abc", "héllo ✓", "O'Brien", "'; DROP TABLE t1; --", "?", "$1", "12", "2024-02-29", "[1,2,3,4]", "{\"a\": 1}", "\u{0}", "a\u{0}b", "%", "\\", "550e8400-e29b-41d4-a716-446655440000", "12:34:56", "name3"][r.below(19) as usize])),
+        15 => {
+            let mut t = Txt::default();
+            t.rep(["x", "é", "'", "\u{0}", "ab"][r.below(5) as usize], if huge_ok { [1000, 65536, 1 << 20][r.below(3) as usize] } else { 1000 });
+            P::Text(t)
+        }
+        16 => P::Blob(Txt::lit(["", "\u{0}\u{1}", "blob", "\u{7f}"][r.below(4) as usize])),
+        17 => {
+            let mut t = Txt::default();
+            t.rep("\u{0}", if huge_ok { [4096, 1 << 20][r.below(2) as usize] } else { 4096 });
+            P::Blob(t)
+        }
+        18 => P::Vector([1.0f32, 0.0, f32::NAN, f32::INFINITY, -1e38][r.below(5) as usize].to_bits(), [0, 1, 3, 4, 4, 4, 5, 1000, if huge_ok { 100000 } else { 1000 }][r.below(9) as usize]),
+        19 => P::Date([0, 1, -1, 19782, i32::MAX, i32::MIN, 2932896, -719162, 2932897][r.below(9) as usize]),
+        20 => P::Time([0, 1, -1, 86_399_999_999, 86_400_000_000, i64::MAX, i64::MIN][r.below(7) as usize]),
+        21 => P::Timestamp([0, 1, -1, 1_709_210_096_000_000, i64::MAX, i64::MIN, 253_402_300_799_999_999, -62_135_596_800_000_000][r.below(8) as usize]),
+        22 => P::TimestampTz([0, i64::MAX, i64::MIN, 1_709_210_096_000_000][r.below(4) as usize], [0, 3600, -3600, i32::MAX, i32::MIN, 86400][r.below(6) as usize]),
+        23 => P::Uuid(r.below(256) as u8),
+        24 => P::MacAddr(r.below(256) as u8),
+        25 => {
+            if r.chance(1, 2) {
+                P::Inet4(r.below(256) as u8)
+            } else {
+                P::Inet6(r.below(256) as u8)
+            }
+        }
+        26 => P::Interval([0, i64::MAX, i64::MIN, 1][r.below(4) as usize], [0, i32::MAX, i32::MIN][r.below(3) as usize], [0, i32::MAX, i32::MIN, 12][r.below(4) as usize]),
+        27 => P::Point(f(f64::NAN), f(1.0)),
+        28 => {
+            if r.chance(1, 2) {
+                P::GeoBox(f([0.0, f64::NAN, f64::INFINITY][r.below(3) as usize]))
+            } else {
+                P::Circle(f([1.0, -1.0, f64::NAN][r.below(3) as usize]))
+            }
+        }
+        // Jsonb/ToastPointer carry *internal* encodings: arbitrary bytes there are the decoders' concern (C23);
+        // here only empty / tiny payloads, i.e. what a caller can build without internal knowledge
+        29 => P::Jsonb(Txt::lit(["", "{}", "\u{0}"][r.below(3) as usize])),
+        30 => P::Decimal([0, 1, -1, i128::MAX, i128::MIN, 12345, 10i128.pow(38)][r.below(7) as usize], [0, 2, -2, i16::MAX, i16::MIN, 38, 39][r.below(7) as usize]),
+        31 => P::Enum([0, 1, u16::MAX][r.below(3) as usize], [0, 1, u16::MAX][r.below(3) as usize]),
+        32 => P::Toast(Txt::lit(["", "\u{0}\u{0}\u{0}\u{0}", "x"][r.below(3) as usize])),
+        _ => P::Int(r.range(1, 60)),
+    }
+}
+
+/// a parameter fitting the column class most of the time
+fn gen_param_for(r: &mut Rng, class: char, huge_ok: bool) -> P {
+    if r.chance(1, 4) {
+        return gen_param(r, huge_ok);
+    }
+    match class {
+        'i' => P::Int(if r.chance(1, 5) { [i64::MAX, i64::MIN, 2147483648, -1, 0][r.below(5) as usize] } else { r.range(1, 100000) }),
+        'f' | 'n' => P::Float((r.range(-1000, 1000) as f64 / 8.0).to_bits()),
+        't' => P::Text(Txt::lit(format!("p{}", r.below(100000)))),
+        'b' => P::Bool(r.chance(1, 2)),
+        'd' => {
+            if r.chance(1, 2) {
+                P::Text(Txt::lit("2024-02-29"))
+            } else {
+                P::Date(r.range(-1000, 30000) as i32)
+            }
+        }
+        's' => {
+            if r.chance(1, 2) {
+                P::Text(Txt::lit("2024-02-29 12:34:56"))
+            } else {
+                P::Timestamp(r.range(0, 2_000_000_000) * 1_000_000)
+            }
+        }
+        'm' => {
+            if r.chance(1, 2) {
+                P::Text(Txt::lit("12:34:56"))
+            } else {
+                P::Time(r.range(0, 86_399) * 1_000_000)
+            }
+        }
+        'j' => P::Text(Txt::lit("{\"p\": [1, 2]}")),
+        'v' => {
+            if r.chance(1, 2) {
+                P::Text(Txt::lit("[1, 2, 3, 4]"))
+            } else {
+                P::Vector(1.5f32.to_bits(), 4)
+            }
+        }
+        'u' => {
+            if r.chance(1, 2) {
+                P::Text(Txt::lit("550e8400-e29b-41d4-a716-446655440099"))
+            } else {
+                P::Uuid(r.below(256) as u8)
+            }
+        }
+        'x' => P::Blob(Txt::lit("bl")),
+        _ => gen_param(r, huge_ok),
+    }
+}
+
+/// statement with placeholders + the classes of the placeholders (for well-typed vectors)
+fn param_statement(r: &mut Rng) -> (String, Vec<char>) {
+    let t = r.below(5) as usize;
+    let tab = &TABS[t];
+    let ph = |r: &mut Rng, k: usize| -> String {
+        match r.below(14) {
+            0 => format!("${}", k + 1),
+            1 => format!("?{}", k + 1),
+            2 => [":p", "@p", "$0", "$99", "$4294967296"][r.below(5) as usize].to_string(),
+            _ => "?".to_string(),
+        }
+    };
+    match r.below(12) {
+        0..=3 => {
+            let cols = tab.cols;
+            let v: Vec<String> = (0..cols.len()).map(|k| ph(r, k)).collect();
+            let ret = if r.chance(1, 4) { " RETURNING *" } else { "" };
+            let conflict = if r.chance(1, 6) { format!(" ON CONFLICT ({}) DO UPDATE SET {} = ?", cols[0].0, cols[1].0) } else { String::new() };
+            let mut classes: Vec<char> = cols.iter().map(|c| c.1).collect();
+            if !conflict.is_empty() {
+                classes.push(cols[1].1);
+            }
+            (format!("INSERT INTO {} ({}) VALUES ({}){}{}", tab.name, cols.iter().map(|c| c.0).collect::<Vec<_>>().join(", "), v.join(", "), conflict, ret), classes)
+        }
+        4 | 5 => {
+            let c = tab.cols[r.below(tab.cols.len() as u64) as usize];
+            let c2 = tab.cols[r.below(tab.cols.len() as u64) as usize];
+            (format!("SELECT * FROM {} WHERE {} {} {} {} {} = {}", tab.name, c.0, ["=", "<", ">=", "<>", "LIKE"][r.below(5) as usize], ph(r, 0), ["AND", "OR"][r.below(2) as usize], c2.0, ph(r, 1)), vec![c.1, c2.1])
+        }
+        6 => {
+            let c = tab.cols[1 + r.below(tab.cols.len() as u64 - 1) as usize];
+            (format!("UPDATE {} SET {} = {} WHERE {} = {}{}", tab.name, c.0, ph(r, 0), tab.cols[0].0, ph(r, 1), if r.chance(1, 4) { " RETURNING *" } else { "" }), vec![c.1, tab.cols[0].1])
+        }
+        7 => (format!("DELETE FROM {} WHERE {} = {} OR {} IN ({}, {})", tab.name, tab.cols[0].0, ph(r, 0), tab.cols[0].0, ph(r, 1), ph(r, 2)), vec![tab.cols[0].1; 3]),
+        8 => (format!("SELECT {} FROM {} ORDER BY {} LIMIT {} OFFSET {}", tab.cols[0].0, tab.name, tab.cols[0].0, ph(r, 0), ph(r, 1)), vec!['i', 'i']),
+        9 => (format!("SELECT {}, {} + {}, UPPER({}), COALESCE({}, {}), CAST({} AS {})", ph(r, 0), ph(r, 1), ph(r, 2), ph(r, 3), ph(r, 4), ph(r, 5), ph(r, 6), TYPES[r.below(TYPES.len() as u64) as usize]), vec!['x', 'i', 'i', 't', 'x', 'x', 'x']),
+        10 => {
+            let sql = {
+                let mut g = G::new(r);
+                g.params = true;
+                g.depth = 2;
+                let s = g.statement();
+                s
+            };
+            let n = tokenize(&sql).iter().filter(|t| t.as_str() == "?" || t.starts_with('$') || t.starts_with(':') || t.starts_with('@')).count();
+            (sql, vec!['x'; n])
+        }
+        _ => {
+            let s = ["SELECT '?', \"?\", ? -- ?", "SELECT ? /* ? */ + ?", "SELECT $1, $1, $2", "SELECT $2", "SELECT ?, $1, :a, @b", "PRAGMA join_memory_budget = ?", "CREATE TABLE pt (a INT DEFAULT ?)", "SELECT * FROM t1 LIMIT ?", "SELECT ? FROM t1 GROUP BY ? ORDER BY ?", "SELECT id FROM t3 ORDER BY emb <-> ? LIMIT 2", "INSERT INTO t4 (id, j) VALUES (?, ?)", "EXPLAIN SELECT * FROM t1 WHERE id = ?", "BEGIN", "SAVEPOINT ?", "SELECT ??", "SELECT ?::INT", "SELECT * FROM t1 WHERE id IN (?)", "SELECT * FROM t1 WHERE b LIKE ? ESCAPE ?"][r.below(20) as usize];
+            let n = s.matches('?').count() + s.matches('$').count();
+            (s.to_string(), vec!['x'; n])
+        }
+    }
+}
+
+fn param_vector(r: &mut Rng, classes: &[char], huge_ok: bool) -> Vec<P> {
+    let n = classes.len();
+    let len = match r.below(12) {
+        0 => 0,
+        1 => n.saturating_sub(1),
+        2 => n + 1,
+        3 => [16, 17, 100, 1000][r.below(4) as usize],
+        _ => n,
+    };
+    (0..len).map(|k| if k < n { gen_param_for(r, classes[k], huge_ok) } else { gen_param(r, huge_ok) }).collect()
+}
+
+fn gen_params(r: &mut Rng, case: &mut Case) {
+    let (sql, classes) = param_statement(r);
+    let mode = r.below(10);
+    case.tag = format!("params:{}:{}", stmt_kind(&Txt::lit(sql.clone())), if mode < 5 { "execute_with_params" } else { "prepared" });
+    if mode < 5 {
+        let n = 1 + r.below(3);
+        for _ in 0..n {
+            let ps = param_vector(r, &classes, true);
+            case.steps.push(Step { h: 0, op: Op::ExecParams(Txt::lit(sql.clone()), ps) });
+        }
+    } else {
+        let mut rounds = vec![];
+        let n = 1 + r.below(5);
+        for k in 0..n {
+            if r.chance(1, 7) {
+                rounds.push(Round::Exec(Txt::lit(["DROP TABLE t1", "ALTER TABLE t1 DROP COLUMN b", "ALTER TABLE t2 ADD COLUMN z INT", "TRUNCATE TABLE t5", "BEGIN", "ROLLBACK", "CREATE INDEX pix ON t2 (qty)", "DROP INDEX t1_a", "ALTER TABLE t1 RENAME TO t1r", "PRAGMA wal = ON", "PRAGMA wal = OFF", "DELETE FROM t1"][r.below(12) as usize])));
+            }
+            rounds.push(Round::Bind(param_vector(r, &classes, k == 0), r.chance(1, 3)));
+        }
+        case.steps.push(Step { h: 0, op: Op::Prepare(Txt::lit(sql), rounds) });
+        if r.chance(1, 3) {
+            case.steps.push(Step::query("SELECT COUNT(*) FROM t2"));
+        }
+    }
+}
+
+fn api_sql(r: &mut Rng) -> String {
+    match r.below(16) {
+        0 => "BEGIN".into(),
+        1 => "COMMIT".into(),
+        2 => "ROLLBACK".into(),
+        3 => format!("SAVEPOINT sp{}", r.below(3)),
+        4 => format!("ROLLBACK TO SAVEPOINT sp{}", r.below(3)),
+        5 => format!("RELEASE sp{}", r.below(3)),
+        6 | 7 => format!("INSERT INTO t5 (k, v) VALUES ('api{}', {})", r.below(50), r.below(100)),
+        8 => format!("UPDATE t5 SET v = v + 1 WHERE k = 'api{}'", r.below(50)),
+        9 => format!("DELETE FROM t5 WHERE k = 'api{}'", r.below(50)),
+        10 => "SELECT COUNT(*), SUM(v) FROM t5".into(),
+        11 => format!("INSERT INTO t2 (id, name, qty) VALUES ({}, 'api', 1)", 100 + r.below(200)),
+        12 => ["PRAGMA wal = ON", "PRAGMA wal = OFF", "PRAGMA wal_checkpoint", "PRAGMA synchronous = NORMAL", "PRAGMA wal_autoflush = OFF", "PRAGMA wal_checkpoint_threshold = 1", "PRAGMA recover_wal"][r.below(7) as usize].into(),
+        13 => ["CREATE TABLE apit (a INT PRIMARY KEY, b TEXT)", "DROP TABLE IF EXISTS apit", "INSERT INTO apit VALUES (1, 'x')", "CREATE INDEX apix ON apit (b)", "ALTER TABLE apit ADD COLUMN c INT", "TRUNCATE TABLE apit", "DROP TABLE t5"][r.below(7) as usize].into(),
+        14 => "SELECT t1.id, t2.name FROM t1 JOIN t2 ON t1.id = t2.t1_id ORDER BY 1 LIMIT 5".into(),
+        _ => {
+            let mut g = G::new(r);
+            g.depth = 2;
+            g.budget = 3000;
+            g.statement()
+        }
+    }
+}
+
+fn api_rows(r: &mut Rng, table: &str) -> Vec<Vec<P>> {
+    let t = TABS.iter().find(|t| t.name == table);
+    let n = [0, 1, 1, 2, 5, 20][r.below(6) as usize];
+    (0..n)
+        .map(|k| match t {
+            Some(tab) => {
+                let mut row: Vec<P> = tab.cols.iter().map(|c| if c.0 == "id" { P::Int(5000 + r.below(100000) as i64) } else if c.0 == "k" { P::Text(Txt::lit(format!("b{}", r.below(100000)))) } else { gen_param_for(r, c.1, false) }).collect();
+                match r.below(14) {
+                    0 => {
+                        row.pop();
+                    }
+                    1 => row.push(P::Int(1)),
+                    2 => row.clear(),
+                    _ => {}
+                }
+                row
+            }
+            None => vec![P::Int(k as i64)],
+        })
+        .collect()
+}
+
+fn api_step(r: &mut Rng, nh: u8, in_thread: bool) -> Step {
+    let h = if nh <= 1 || r.chance(1, 2) { 0 } else { r.below(nh as u64 + 1) as u8 }; // may be one past the end: ignored by the runner
+    let table = ["t5", "t2", "t1", "t3", "t4", "nosuch", "root.t5", "nosuch.t5", "", ".", "t5."][r.below(11) as usize].to_string();
+    let op = match r.below(40) {
+        0..=15 => Op::Exec(Txt::lit(api_sql(r))),
+        16..=19 => Op::Query(Txt::lit(api_sql(r))),
+        20 => Op::QueryCols(Txt::lit(api_sql(r))),
+        21 | 22 => {
+            let (sql, cl) = param_statement(r);
+            let ps = param_vector(r, &cl, false);
+            Op::ExecParams(Txt::lit(sql), ps)
+        }
+        23 | 24 => {
+            let (sql, cl) = param_statement(r);
+            let rounds = (0..1 + r.below(3)).map(|_| Round::Bind(param_vector(r, &cl, false), r.chance(1, 3))).collect();
+            Op::Prepare(Txt::lit(sql), rounds)
+        }
+        25..=27 => {
+            let rows = api_rows(r, &table);
+            Op::InsertBatch(table, rows)
+        }
+        28 | 29 => {
+            let rows = api_rows(r, &table);
+            Op::BulkInsert(table, rows)
+        }
+        30 | 31 => Op::Checkpoint,
+        32 => Op::CheckpointWal,
+        33 | 34 => Op::Close,
+        35 | 36 => Op::CloneHandle,
+        37 => Op::DropHandle,
+        38 if !in_thread => Op::ReopenAll,
+        _ => Op::Exec(Txt::lit("SELECT COUNT(*) FROM t5")),
+    };
+    Step { h, op }
+}
+
+fn gen_api(r: &mut Rng, case: &mut Case) {
+    let n = 4 + r.below(18) as usize;
+    let mut nh: u8 = 1;
+    let threads_at = if r.chance(2, 5) { Some(r.below(n as u64) as usize) } else { None };
+    for k in 0..n {
+        if Some(k) == threads_at {
+            let nt = 2 + r.below(3) as usize;
+            let ts: Vec<Vec<Step>> = (0..nt)
+                .map(|_| {
+                    let m = 2 + r.below(8) as usize;
+                    let mut lh = 1u8;
+                    (0..m)
+                        .map(|_| {
+                            let s = api_step(r, lh, true);
+                            if s.op == Op::CloneHandle {
+                                lh += 1;
+                            }
+                            s
+                        })
+                        .collect()
+                })
+                .collect();
+            case.steps.push(Step { h: 0, op: Op::Threads(ts) });
+            continue;
+        }
+        let s = api_step(r, nh, false);
+        match s.op {
+            Op::CloneHandle => nh = nh.saturating_add(1).min(6),
+            Op::ReopenAll => nh = 1,
+            _ => {}
+        }
+        case.steps.push(s);
+    }
+    let mut ops: Vec<&str> = case.steps.iter().map(|s| s.op_name()).collect();
+    ops.sort();
+    ops.dedup();
+    case.tag = format!("api:{}", ops.join("+"));
+}
+
+pub const UNIT_NAMES: &[&str] = &["gram", "func", "deep", "huge", "mut", "bytes", "params", "api"];
+
+pub fn gen_case(env: &Env, unit: &str, idx: u64) -> Case {
+    let mut r = case_rng(env.seed, unit, idx);
+    let thorough = env.tier == "thorough";
+    let mut case = Case { unit: unit.to_string(), idx, wal: r.chance(1, 2), tag: String::new(), kind: None, steps: vec![] };
+    match unit {
+        "gram" => gen_gram(&mut r, &mut case),
+        "func" => gen_func(&mut r, &mut case),
+        "deep" => gen_deep(&mut r, &mut case, thorough),
+        "huge" => gen_huge(&mut r, &mut case),
+        "mut" => gen_mut(&mut r, &mut case, &env.corpus, thorough),
+        "bytes" => gen_bytes(&mut r, &mut case),
+        "params" => gen_params(&mut r, &mut case),
+        _ => gen_api(&mut r, &mut case),
+    }
+    case
+}
+
+// ------------------------------------------------------------------------------------------
+// case execution
+// ------------------------------------------------------------------------------------------
+#[derive(Clone, Debug)]
+pub struct Failure {
+    pub step: usize,
+    /// position inside the step ("", "prepare", "round2", "thread1.step3")
+    pub sub: String,
+    pub entry: String,
+    pub kind: String,
+    pub site: String,
+    pub msg: String,
+    pub in_thread: bool,
+}
+
+#[derive(Default, Clone, Debug)]
+pub struct Outcome {
+    /// per call: "<op>:<ok variant | err class | panic>"
+    pub classes: Vec<String>,
+    pub failure: Option<Failure>,
+    pub calls: u64,
+    pub ok: u64,
+    pub err: u64,
+    pub parse_err: u64,
+    pub setup_problem: Option<String>,
+}
+
+pub const CHILD_STACK: usize = 8 << 20;
+
+fn err_class(e: &eyre::Report) -> String {
+    let s = format!("{:#}", e);
+    let parse = s.starts_with("failed to parse");
+    let tail = s.rsplit(": ").next().unwrap_or(&s);
+    let short: String = tail.chars().filter(|c| c.is_ascii_alphabetic() || *c == ' ').take(22).collect();
+    format!("{}{}", if parse { "P:" } else { "E:" }, short)
+}
+
+fn result_class(r: &ExecuteResult) -> &'static str {
+    match r {
+        ExecuteResult::Select { .. } => "select",
+        ExecuteResult::Insert { .. } => "insert",
+        ExecuteResult::Update { .. } => "update",
+        ExecuteResult::Delete { .. } => "delete",
+        ExecuteResult::Truncate { .. } => "truncate",
+        ExecuteResult::Explain { .. } => "explain",
+        ExecuteResult::Pragma { .. } => "pragma",
+        _ => "other",
+    }
+}
+
+struct Exec<'a> {
+    case: &'a Case,
+    path: PathBuf,
+    out: Outcome,
+    /// label prefix published in the black box (None inside threads: only heartbeats)
+    bb: Option<&'a BlackBox>,
+    in_thread: bool,
+}
+
+impl<'a> Exec<'a> {
+    fn note<T>(&mut self, op: &str, r: Result<eyre::Result<T>, (String, String)>, cls: impl Fn(&T) -> &'static str) -> Result<Option<T>, (String, String)> {
+        self.out.calls += 1;
+        match r {
+            Ok(Ok(v)) => {
+                self.out.ok += 1;
+                self.out.classes.push(format!("{}:{}", op, cls(&v)));
+                Ok(Some(v))
+            }
+            Ok(Err(e)) => {
+                self.out.err += 1;
+                let c = err_class(&e);
+                if c.starts_with("P:") {
+                    self.out.parse_err += 1;
+                }
+                self.out.classes.push(format!("{}:{}", op, c));
+                Ok(None)
+            }
+            Err(p) => {
+                self.out.classes.push(format!("{}:panic", op));
+                Err(p)
+            }
+        }
+    }
+    fn kind_of(&self, sql: &Txt) -> String {
+        match &self.case.kind {
+            Some(k) => k.clone(),
+            None => stmt_kind(sql),
+        }
+    }
+    fn fail(&self, step: usize, sub: &str, entry: &str, kind: String, p: (String, String)) -> Failure {
+        Failure { step, sub: sub.to_string(), entry: entry.to_string(), kind, site: p.0, msg: p.1, in_thread: self.in_thread }
+    }
+    /// run one step on the handle vector; Err = a panic escaped from the library
+    fn step(&mut self, i: usize, st: &Step, handles: &mut Vec<Option<Database>>) -> Result<(), Failure> {
+        bb_beat();
+        let h = st.h as usize;
+        match &st.op {
+            Op::CloneHandle => {
+                let r = match handles.get(h).and_then(|x| x.as_ref()) {
+                    Some(db) => guard(|| db.clone()),
+                    None => {
+                        self.out.classes.push("clone:nohandle".into());
+                        return Ok(());
+                    }
+                };
+                self.out.calls += 1;
+                match r {
+                    Ok(c) => {
+                        handles.push(Some(c));
+                        self.out.classes.push("clone:ok".into());
+                        Ok(())
+                    }
+                    Err(p) => Err(self.fail(i, "", "api_sequence", "clone".into(), p)),
+                }
+            }
+            Op::DropHandle => {
+                if let Some(slot) = handles.get_mut(h) {
+                    if let Some(db) = slot.take() {
+                        self.out.calls += 1;
+                        if let Err(p) = guard(move || drop(db)) {
+                            return Err(self.fail(i, "", "api_sequence", "drop".into(), p));
+                        }
+                        self.out.classes.push("drop:ok".into());
+                    }
+                }
+                Ok(())
+            }
+            Op::ReopenAll => {
+                let hs: Vec<Database> = handles.drain(..).flatten().collect();
+                self.out.calls += 1;
+                if let Err(p) = guard(move || drop(hs)) {
+                    return Err(self.fail(i, "drop_all", "api_sequence", "drop".into(), p));
+                }
+                let path = self.path.clone();
+                let r = guard(|| Database::open(&path));
+                match self.note("reopen", r, |_| "ok") {
+                    Ok(Some(db)) => {
+                        handles.push(Some(db));
+                        Ok(())
+                    }
+                    Ok(None) => Ok(()),
+                    Err(p) => Err(self.fail(i, "open", "api_sequence", "open".into(), p)),
+                }
+            }
+            Op::Threads(ts) => {
+                let base = match handles.first().and_then(|x| x.as_ref()) {
+                    Some(db) => db,
+                    None => {
+                        self.out.classes.push("threads:nohandle".into());
+                        return Ok(());
+                    }
+                };
+                let mut joins = vec![];
+                for (t, steps) in ts.iter().enumerate() {
+                    let db = match guard(|| base.clone()) {
+                        Ok(d) => d,
+                        Err(p) => return Err(self.fail(i, &format!("thread{}.clone", t), "api_sequence", "clone".into(), p)),
+                    };
+                    let case = self.case.clone();
+                    let steps = steps.clone();
+                    let path = self.path.clone();
+                    let j = std::thread::Builder::new().stack_size(CHILD_STACK).name(format!("c22-t{}", t)).spawn(move || {
+                        let mut ex = Exec { case: &case, path, out: Outcome::default(), bb: None, in_thread: true };
+                        let mut hs: Vec<Option<Database>> = vec![Some(db)];
+                        let mut failure = None;
+                        for (k, s) in steps.iter().enumerate() {
+                            if matches!(s.op, Op::Threads(_) | Op::ReopenAll) {
+                                continue;
+                            }
+                            if let Err(mut f) = ex.step(k, s, &mut hs) {
+                                f.sub = format!("thread{}.step{}{}{}", t, k, if f.sub.is_empty() { "" } else { "." }, f.sub);
+                                failure = Some(f);
+                                break;
+                            }
+                        }
+                        let all: Vec<Database> = hs.drain(..).flatten().collect();
+                        if let Err(p) = guard(move || drop(all)) {
+                            if failure.is_none() {
+                                failure = Some(Failure { step: 0, sub: format!("thread{}.drop", t), entry: "api_sequence".into(), kind: "drop".into(), site: p.0, msg: p.1, in_thread: true });
+                            }
+                        }
+                        (ex.out, failure)
+                    });
+                    match j {
+                        Ok(j) => joins.push(j),
+                        Err(_) => self.out.classes.push("threads:spawn_failed".into()),
+                    }
+                }
+                let mut first: Option<Failure> = None;
+                for j in joins {
+                    match j.join() {
+                        Ok((o, f)) => {
+                            self.out.calls += o.calls;
+                            self.out.ok += o.ok;
+                            self.out.err += o.err;
+                            self.out.parse_err += o.parse_err;
+                            // thread interleaving is not deterministic: only the multiset of classes enters the hash
+                            let mut c = o.classes;
+                            c.sort();
+                            c.dedup();
+                            self.out.classes.extend(c);
+                            if first.is_none() {
+                                if let Some(mut f) = f {
+                                    f.step = i;
+                                    first = Some(f);
+                                }
+                            }
+                        }
+                        Err(_) => {
+                            if first.is_none() {
+                                first = Some(Failure { step: i, sub: "thread.join".into(), entry: "api_sequence".into(), kind: "threads".into(), site: "harness:thread_panicked_outside_guard".into(), msg: String::new(), in_thread: true });
+                            }
+                        }
+                    }
+                }
+                match first {
+                    Some(f) => Err(f),
+                    None => Ok(()),
+                }
+            }
+            _ => {
+                let db = match handles.get(h).and_then(|x| x.as_ref()) {
+                    Some(db) => db,
+                    None => {
+                        self.out.classes.push(format!("{}:nohandle", st.op_name()));
+                        return Ok(());
+                    }
+                };
+                match &st.op {
+                    Op::Exec(t) => {
+                        let sql = t.render();
+                        let r = guard(|| db.execute(&sql));
+                        self.note("execute", r, |v| result_class(v)).map(|_| ()).map_err(|p| self.fail(i, "", "execute", self.kind_of(t), p))
+                    }
+                    Op::Query(t) => {
+                        let sql = t.render();
+                        let r = guard(|| db.query(&sql));
+                        self.note("query", r, |v| if v.is_empty() { "empty" } else { "rows" }).map(|_| ()).map_err(|p| self.fail(i, "", "query", self.kind_of(t), p))
+                    }
+                    Op::QueryCols(t) => {
+                        let sql = t.render();
+                        let r = guard(|| db.query_with_columns(&sql));
+                        self.note("query_with_columns", r, |v| if v.1.is_empty() { "empty" } else { "rows" }).map(|_| ()).map_err(|p| self.fail(i, "", "query", self.kind_of(t), p))
+                    }
+                    Op::ExecParams(t, ps) => {
+                        let sql = t.render();
+                        let vals: Vec<OwnedValue> = ps.iter().map(|p| p.to_owned_value()).collect();
+                        let r = guard(|| db.execute_with_params(&sql, &vals));
+                        self.note("execute_with_params", r, |v| result_class(v)).map(|_| ()).map_err(|p| self.fail(i, "", "execute_with_params", self.kind_of(t), p))
+                    }
+                    Op::Prepare(t, rounds) => {
+                        let sql = t.render();
+                        let r = guard(|| db.prepare(&sql));
+                        let stmt = match self.note("prepare", r, |_| "ok") {
+                            Ok(Some(s)) => s,
+                            Ok(None) => return Ok(()),
+                            Err(p) => return Err(self.fail(i, "prepare", "prepare", self.kind_of(t), p)),
+                        };
+                        for (k, rd) in rounds.iter().enumerate() {
+                            bb_beat();
+                            match rd {
+                                Round::Exec(x) => {
+                                    let s2 = x.render();
+                                    let r = guard(|| db.execute(&s2));
+                                    if let Err(p) = self.note("execute", r, |v| result_class(v)) {
+                                        return Err(self.fail(i, &format!("round{}", k), "execute", stmt_kind(x), p));
+                                    }
+                                }
+                                Round::Bind(ps, q) => {
+                                    let vals: Vec<OwnedValue> = ps.iter().map(|p| p.to_owned_value()).collect();
+                                    let q = *q;
+                                    let stmt_ref = &stmt;
+                                    let r = guard(move || -> eyre::Result<&'static str> {
+                                        let mut it = vals.into_iter();
+                                        match it.next() {
+                                            // a BoundStatement needs at least one bind(); zero parameters go through the public cached-plan entry
+                                            None => db.execute_with_cached_plan(stmt_ref, &[]).map(|v| result_class(&v)),
+                                            Some(v0) => {
+                                                let mut b = stmt_ref.bind(v0);
+                                                for v in it {
+                                                    b = b.bind(v);
+                                                }
+                                                if q {
+                                                    b.query(db).map(|rows| if rows.is_empty() { "empty" } else { "rows" })
+                                                } else {
+                                                    b.execute(db).map(|v| result_class(&v))
+                                                }
+                                            }
+                                        }
+                                    });
+                                    if let Err(p) = self.note(if q { "bound.query" } else { "bound.execute" }, r, |v| *v) {
+                                        return Err(self.fail(i, &format!("round{}", k), "prepare", self.kind_of(t), p));
+                                    }
+                                }
+                            }
+                        }
+                        self.out.calls += 1;
+                        match guard(move || drop(stmt)) {
+                            Ok(_) => Ok(()),
+                            Err(p) => Err(self.fail(i, "drop_statement", "prepare", self.kind_of(t), p)),
+                        }
+                    }
+                    Op::InsertBatch(table, rows) => {
+                        let vals: Vec<Vec<OwnedValue>> = rows.iter().map(|r| r.iter().map(|p| p.to_owned_value()).collect()).collect();
+                        let r = guard(|| db.insert_batch(table, &vals));
+                        self.note("insert_batch", r, |_| "ok").map(|_| ()).map_err(|p| self.fail(i, "", "api_sequence", "insert_batch".into(), p))
+                    }
+                    Op::BulkInsert(table, rows) => {
+                        let vals: Vec<Vec<OwnedValue>> = rows.iter().map(|r| r.iter().map(|p| p.to_owned_value()).collect()).collect();
+                        let r = guard(move || db.bulk_insert(table, vals));
+                        self.note("bulk_insert", r, |_| "ok").map(|_| ()).map_err(|p| self.fail(i, "", "api_sequence", "bulk_insert".into(), p))
+                    }
+                    Op::Checkpoint => {
+                        let r = guard(|| db.checkpoint());
+                        self.note("checkpoint", r, |_| "ok").map(|_| ()).map_err(|p| self.fail(i, "", "api_sequence", "checkpoint".into(), p))
+                    }
+                    Op::CheckpointWal => {
+                        let r = guard(|| db.checkpoint_wal());
+                        self.note("checkpoint_wal", r, |_| "ok").map(|_| ()).map_err(|p| self.fail(i, "", "api_sequence", "checkpoint_wal".into(), p))
+                    }
+                    Op::Close => {
+                        let r = guard(|| db.close());
+                        self.note("close", r, |_| "ok").map(|_| ()).map_err(|p| self.fail(i, "", "api_sequence", "close".into(), p))
+                    }
+                    _ => Ok(()),
+                }
+            }
+        }
+    }
+}
+
+/// run a case on a fresh copy of the base image
+pub fn run_case(case: &Case, env: &Env, bb: Option<&BlackBox>) -> Outcome {
+    let dbdir = env.work.join("db");
+    if let Some(b) = bb {
+        b.op("copy");
+    }
+    let _ = std::fs::remove_dir_all(&dbdir);
+    if let Err(e) = copy_dir(&base_dir(&env.root, case.wal), &dbdir) {
+        return Outcome { setup_problem: Some(format!("copy of the base image failed: {}", e)), ..Default::default() };
+    }
+    let mut ex = Exec { case, path: dbdir.clone(), out: Outcome::default(), bb, in_thread: false };
+    if let Some(b) = bb {
+        b.op("open");
+    }
+    let db = match guard(|| Database::open(&dbdir)) {
+        Ok(Ok(db)) => db,
+        Ok(Err(e)) => {
+            ex.out.setup_problem = Some(format!("open of a pristine copy failed: {:#}", e));
+            return ex.out;
+        }
+        Err(p) => {
+            ex.out.failure = Some(ex.fail(0, "open", "api_sequence", "open".into(), p));
+            return ex.out;
+        }
+    };
+    let mut handles: Vec<Option<Database>> = vec![Some(db)];
+    if case.wal {
+        if let Some(b) = bb {
+            b.op("pragma_wal");
+        }
+        let r = guard(|| handles[0].as_ref().unwrap().execute("PRAGMA wal = ON"));
+        if let Err(p) = r {
+            ex.out.failure = Some(ex.fail(0, "pragma_wal_on", "execute", "PRAGMA".into(), p));
+        }
+    }
+    if ex.out.failure.is_none() {
+        for (i, st) in case.steps.iter().enumerate() {
+            if let Some(b) = bb {
+                b.op(&format!("{}:{}", i, st.op_name()));
+            }
+            if let Err(f) = ex.step(i, st, &mut handles) {
+                ex.out.failure = Some(f);
+                break;
+            }
+        }
+    }
+    if let Some(b) = bb {
+        b.op(&format!("{}:drop", case.steps.len()));
+    }
+    let all: Vec<Database> = handles.drain(..).flatten().collect();
+    ex.out.calls += 1;
+    if let Err(p) = guard(move || drop(all)) {
+        if ex.out.failure.is_none() {
+            ex.out.failure = Some(Failure { step: case.steps.len(), sub: "drop".into(), entry: "api_sequence".into(), kind: "drop".into(), site: p.0, msg: p.1, in_thread: false });
+        }
+    }
+    ex.out
+}
+
+// ------------------------------------------------------------------------------------------
+// shrinking: candidate generation is shared by the in-process shrinker (panics) and the
+// parent-driven one (aborts: one child process per candidate)
+// ------------------------------------------------------------------------------------------
+/// flatten a failing Threads step into the sequential steps of the failing thread
+fn flatten_thread(case: &Case, f: &Failure) -> Option<Case> {
+    let st = case.steps.get(f.step)?;
+    if let Op::Threads(ts) = &st.op {
+        let t: usize = f.sub.strip_prefix("thread")?.split('.').next()?.parse().ok()?;
+        let mut c = case.clone();
+        let mut steps: Vec<Step> = case.steps[..f.step].to_vec();
+        steps.extend(ts.get(t)?.iter().cloned());
+        c.steps = steps;
+        return Some(c);
+    }
+    None
+}
+
+/// structural candidates, most aggressive first
+fn step_candidates(case: &Case, fail_step: usize) -> Vec<Case> {
+    let mut out = vec![];
+    let n = case.steps.len();
+    if n == 0 {
+        return out;
+    }
+    let fs = fail_step.min(n - 1);
+    if n > fs + 1 {
+        let mut c = case.clone();
+        c.steps.truncate(fs + 1);
+        out.push(c);
+    }
+    if fs > 0 {
+        // the failing step alone, on handle 0
+        let mut c = case.clone();
+        let mut s = case.steps[fs].clone();
+        s.h = 0;
+        c.steps = vec![s];
+        out.push(c);
+        // drop the first half / single predecessors
+        if fs >= 2 {
+            let mut c = case.clone();
+            c.steps = case.steps[fs / 2..=fs].to_vec();
+            out.push(c);
+        }
+        for k in 0..fs.min(12) {
+            let mut c = case.clone();
+            c.steps.truncate(fs + 1);
+            c.steps.remove(k);
+            out.push(c);
+        }
+    }
+    out
+}
+
+/// candidates that simplify the text / parameters of step `i`
+fn text_candidates(case: &Case, i: usize, token_chunk: Option<(usize, usize)>) -> Vec<Case> {
+    let mut out = vec![];
+    let st = match case.steps.get(i) {
+        Some(s) => s,
+        None => return out,
+    };
+    let with_sql = |t: Txt| -> Case {
+        let mut c = case.clone();
+        if let Some(x) = c.steps[i].sql_mut() {
+            *x = t.normalized();
+        }
+        c
+    };
+    if let Some(t) = st.sql() {
+        if let Some((start, len)) = token_chunk {
+            let s = t.render();
+            let toks = tokenize(&s);
+            if start < toks.len() {
+                let mut v = toks.clone();
+                v.drain(start..(start + len).min(toks.len()));
+                out.push(with_sql(Txt::lit(join_tokens(&v))));
+            }
+            return out;
+        }
+        if t.has_rep() {
+            // all repeat counts halved together (keeps nesting balanced), then to 1, then one by one
+            for div in [2usize, 0] {
+                let mut x = t.clone();
+                for s in x.0.iter_mut() {
+                    if let Seg::Rep(_, n) = s {
+                        *n = if div == 0 { 1 } else { (*n / div).max(1) };
+                    }
+                }
+                if x != *t {
+                    out.push(with_sql(x));
+                }
+            }
+            for k in 0..t.0.len() {
+                if let Seg::Rep(_, n) = &t.0[k] {
+                    if *n > 1 {
+                        let mut x = t.clone();
+                        x.0[k] = Seg::Rep(match &t.0[k] { Seg::Rep(r, _) => r.clone(), _ => String::new() }, n / 2);
+                        out.push(with_sql(x));
+                    }
+                }
+            }
+        }
+    }
+    match &st.op {
+        Op::ExecParams(t, ps) if !ps.is_empty() => {
+            let mut c = case.clone();
+            c.steps[i].op = Op::ExecParams(t.clone(), ps[..ps.len() / 2].to_vec());
+            out.push(c);
+            for k in 0..ps.len().min(8) {
+                if ps[k] != P::Null {
+                    let mut q = ps.clone();
+                    q[k] = P::Null;
+                    let mut c = case.clone();
+                    c.steps[i].op = Op::ExecParams(t.clone(), q);
+                    out.push(c);
+                }
+            }
+        }
+        Op::Prepare(t, rounds) if !rounds.is_empty() => {
+            let mut c = case.clone();
+            c.steps[i].op = Op::Prepare(t.clone(), vec![]);
+            out.push(c);
+            if rounds.len() > 1 {
+                for k in 0..rounds.len() {
+                    let mut r2 = rounds.clone();
+                    r2.remove(k);
+                    let mut c = case.clone();
+                    c.steps[i].op = Op::Prepare(t.clone(), r2);
+                    out.push(c);
+                }
+            }
+        }
+        Op::InsertBatch(t, rows) | Op::BulkInsert(t, rows) if rows.len() > 1 => {
+            for half in [&rows[..rows.len() / 2], &rows[rows.len() / 2..]] {
+                let mut c = case.clone();
+                c.steps[i].op = if matches!(st.op, Op::InsertBatch(..)) { Op::InsertBatch(t.clone(), half.to_vec()) } else { Op::BulkInsert(t.clone(), half.to_vec()) };
+                out.push(c);
+            }
+        }
+        _ => {}
+    }
+    out
+}
+
+/// entry-point canonicalisation candidates for the failing step: (candidate, entry name if it reproduces)
+fn entry_candidates(case: &Case, f: &Failure) -> Vec<(Case, &'static str)> {
+    let mut out = vec![];
+    let st = match case.steps.get(f.step) {
+        Some(s) => s,
+        None => return out,
+    };
+    let (sql, params): (Txt, Option<Vec<P>>) = match &st.op {
+        Op::Exec(_) => return out,
+        Op::Query(t) | Op::QueryCols(t) => (t.clone(), None),
+        Op::ExecParams(t, ps) => (t.clone(), Some(ps.clone())),
+        Op::Prepare(t, rounds) => {
+            let k: Option<usize> = f.sub.strip_prefix("round").and_then(|x| x.parse().ok());
+            match k.and_then(|k| rounds.get(k)) {
+                Some(Round::Bind(ps, _)) => (t.clone(), Some(ps.clone())),
+                Some(Round::Exec(x)) => (x.clone(), None),
+                None => (t.clone(), None),
+            }
+        }
+        _ => return out,
+    };
+    let mut c = case.clone();
+    c.steps.truncate(f.step + 1);
+    c.steps[f.step] = Step { h: st.h, op: Op::Exec(sql.clone()) };
+    out.push((c, "execute"));
+    if let (Some(ps), Op::Prepare(..)) = (params, &st.op) {
+        let mut c = case.clone();
+        c.steps.truncate(f.step + 1);
+        c.steps[f.step] = Step { h: st.h, op: Op::ExecParams(sql, ps) };
+        out.push((c, "execute_with_params"));
+    }
+    out
+}
+
+fn signature(entry: &str, kind: &str, what: &str) -> String {
+    format!("{}/{}/{}/{}", PROP, entry, kind, what)
+}
+
+/// does the context of the failing step involve more than plain statement calls on handle 0?
+fn sequence_context(case: &Case, f: &Failure) -> bool {
+    f.in_thread || case.steps.iter().take(f.step + 1).any(|s| s.h != 0 || s.sql().is_none())
+}
+
+/// in-process: decide the canonical entry point of a panic (see module doc) and return (entry, case to shrink)
+fn canonical_entry(case: &Case, f: &Failure, env: &Env, runs: &mut u32) -> (String, Case, Failure) {
+    let mut cur = case.clone();
+    let mut fail = f.clone();
+    // threads -> sequential
+    if fail.in_thread {
+        if let Some(c) = flatten_thread(&cur, &fail) {
+            *runs += 1;
+            let o = run_case(&c, env, None);
+            if let Some(f2) = o.failure {
+                if f2.site == fail.site && !f2.in_thread {
+                    cur = c;
+                    fail = f2;
+                }
+            }
+        }
+    }
+    let mut entry = fail.entry.clone();
+    if sequence_context(&cur, &fail) && cur.steps.get(fail.step).map(|s| s.sql().is_some()).unwrap_or(false) && !fail.in_thread {
+        // does the call alone reproduce it?
+        let mut c = cur.clone();
+        let mut s = cur.steps[fail.step].clone();
+        s.h = 0;
+        c.steps = vec![s];
+        *runs += 1;
+        let o = run_case(&c, env, None);
+        match o.failure {
+            Some(f2) if f2.site == fail.site => {
+                cur = c;
+                fail = f2;
+            }
+            _ => entry = "api_sequence".to_string(),
+        }
+    } else if fail.in_thread {
+        entry = "api_sequence".to_string();
+    }
+    if entry != "api_sequence" && entry != "execute" {
+        for (c, name) in entry_candidates(&cur, &fail) {
+            *runs += 1;
+            let o = run_case(&c, env, None);
+            if let Some(f2) = o.failure {
+                if f2.site == fail.site {
+                    entry = name.to_string();
+                    cur = c;
+                    fail = f2;
+                    break;
+                }
+            }
+        }
+    }
+    (entry, cur, fail)
+}
+
+/// generic greedy shrinker; `test(candidate)` returns the failing step index if the candidate still fails the same way
+fn shrink_with(case: &Case, fail_step: usize, budget: u32, test: &mut dyn FnMut(&Case) -> Option<usize>) -> (Case, u32) {
+    let mut cur = case.clone();
+    let mut fs = fail_step;
+    let mut used = 0u32;
+    // 1. structure
+    let mut progress = true;
+    while progress && used < budget {
+        progress = false;
+        for c in step_candidates(&cur, fs) {
+            if used >= budget {
+                break;
+            }
+            if c == cur {
+                continue;
+            }
+            used += 1;
+            if let Some(s) = test(&c) {
+                cur = c;
+                fs = s;
+                progress = true;
+                break;
+            }
+        }
+    }
+    // 2. repeat counts / parameters of the failing step
+    progress = true;
+    while progress && used < budget {
+        progress = false;
+        for c in text_candidates(&cur, fs, None) {
+            if used >= budget {
+                break;
+            }
+            if c == cur {
+                continue;
+            }
+            used += 1;
+            if let Some(s) = test(&c) {
+                cur = c;
+                fs = s;
+                progress = true;
+                break;
+            }
+        }
+    }
+    // 3. token deletion (ddmin over complements) on texts of moderate size
+    if let Some(len) = cur.steps.get(fs).and_then(|s| s.sql()).map(|t| t.len()) {
+        if len <= 6000 {
+            let mut chunk = {
+                let n = tokenize(&cur.steps[fs].sql().unwrap().render()).len();
+                (n / 2).max(1)
+            };
+            loop {
+                let n = tokenize(&cur.steps[fs].sql().unwrap().render()).len();
+                if n <= 1 || used >= budget {
+                    break;
+                }
+                let mut start = 0;
+                let mut removed_any = false;
+                while start < tokenize(&cur.steps[fs].sql().unwrap().render()).len() && used < budget {
+                    let cands = text_candidates(&cur, fs, Some((start, chunk)));
+                    let mut removed = false;
+                    for c in cands {
+                        if c == cur {
+                            continue;
+                        }
+                        used += 1;
+                        if let Some(s) = test(&c) {
+                            cur = c;
+                            fs = s;
+                            removed = true;
+                            removed_any = true;
+                        }
+                    }
+                    if !removed {
+                        start += chunk;
+                    }
+                }
+                if chunk == 1 && !removed_any {
+                    break;
+                }
+                if !removed_any || chunk > 1 {
+                    chunk = (chunk / 2).max(1);
+                }
+            }
+        } else {
+            // halve a long literal text
+            loop {
+                if used >= budget {
+                    break;
+                }
+                let t = cur.steps[fs].sql().unwrap().render();
+                if t.len() < 64 {
+                    break;
+                }
+                let mut cut = t.len() / 2;
+                while !t.is_char_boundary(cut) {
+                    cut += 1;
+                }
+                let mut c = cur.clone();
+                *c.steps[fs].sql_mut().unwrap() = Txt::lit(t[..cut].to_string());
+                used += 1;
+                match test(&c) {
+                    Some(s) => {
+                        cur = c;
+                        fs = s;
+                    }
+                    None => break,
+                }
+            }
+        }
+    }
+    (cur, used)
+}
+
+// ------------------------------------------------------------------------------------------
+// recorder of one child process
+// ------------------------------------------------------------------------------------------
+pub struct Rec {
+    out: Option<std::fs::File>,
+    pub lines: Vec<String>,
+    evals: u64,
+    calls: u64,
+    ok: u64,
+    err: u64,
+    parse_err: u64,
+    panics: u64,
+    new_nt: Vec<u64>,
+    seen_nt: HashSet<u64>,
+    sig_delta: BTreeMap<String, u64>,
+    sig_seen: HashSet<String>,
+    ctr: BTreeMap<String, u64>,
+}
+
+impl Rec {
+    fn new(out: Option<std::fs::File>) -> Rec {
+        Rec { out, lines: vec![], evals: 0, calls: 0, ok: 0, err: 0, parse_err: 0, panics: 0, new_nt: vec![], seen_nt: HashSet::new(), sig_delta: BTreeMap::new(), sig_seen: HashSet::new(), ctr: BTreeMap::new() }
+    }
+    fn emit(&mut self, v: Value) {
+        let s = v.to_string();
+        match &mut self.out {
+            Some(f) => {
+                let _ = f.write_all(s.as_bytes());
+                let _ = f.write_all(b"\n");
+            }
+            None => self.lines.push(s),
+        }
+    }
+    fn count(&mut self, k: &str, n: u64) {
+        *self.ctr.entry(k.to_string()).or_insert(0) += n;
+    }
+    fn flush_progress(&mut self) {
+        let nt = std::mem::take(&mut self.new_nt);
+        let sd = std::mem::take(&mut self.sig_delta);
+        let ctr = std::mem::take(&mut self.ctr);
+        let v = json!({"t": "p", "evals": self.evals, "calls": self.calls, "ok": self.ok, "err": self.err, "parse_err": self.parse_err, "panics": self.panics, "nt": nt, "sigc": sd, "ctr": ctr});
+        self.evals = 0;
+        self.calls = 0;
+        self.ok = 0;
+        self.err = 0;
+        self.parse_err = 0;
+        self.panics = 0;
+        self.emit(v);
+    }
+}
+
+fn case_hash(case: &Case, o: &Outcome) -> u64 {
+    let mut h = fnv(case.unit.as_bytes()) ^ fnv(case.tag.as_bytes()).rotate_left(9);
+    for c in &o.classes {
+        h = (h ^ fnv(c.as_bytes())).wrapping_mul(0x100000001b3).rotate_left(7);
+    }
+    h
+}
+
+fn now_ms() -> u64 {
+    std::time::SystemTime::now().duration_since(std::time::UNIX_EPOCH).map(|d| d.as_millis() as u64).unwrap_or(0)
+}
+
+fn describe_failure(f: &Failure) -> Value {
+    let overflow = f.msg.contains("with overflow") && !f.msg.contains("divide with overflow") && !f.msg.contains("remainder with overflow");
+    json!({
+        "panic": f.msg, "site": f.site, "step": f.step, "at": f.sub,
+        "depends_on_overflow_checks": overflow,
+        "note": if overflow { "arithmetic-overflow panic: only a panic in a build with overflow-checks on (this harness profile); a release build wraps silently instead (then a C20 matter)" } else { "" },
+    })
+}
+
+fn replay_cmd(env: &Env, case: &Case) -> String {
+    format!("tv C22 --tier {} --seed {} child {} {} 1 /verif/scratch/c22-replay", env.tier, env.seed, case.unit, case.idx)
+}
+
+/// claim the right to shrink a signature (once per run, across child processes)
+fn claim_shrink(env: &Env, sig: &str) -> bool {
+    let dir = env.root.join("shrunk");
+    let _ = std::fs::create_dir_all(&dir);
+    std::fs::OpenOptions::new().write(true).create_new(true).open(dir.join(format!("{:016x}", fnv(sig.as_bytes())))).is_ok()
+}
+
+/// run cases [start, start+count) of one unit
+fn run_cases(unit: &str, env: &Env, start: u64, count: u64, deadline_ms: u64, bb: Option<&BlackBox>, rec: &mut Rec) -> u64 {
+    let mut done = 0u64;
+    let mut last_flush = std::time::Instant::now();
+    for idx in start..start + count {
+        if deadline_ms > 0 && now_ms() > deadline_ms {
+            break;
+        }
+        if let Some(b) = bb {
+            b.begin(idx);
+            b.op("gen");
+        }
+        let case = match guard(|| gen_case(env, unit, idx)) {
+            Ok(c) => c,
+            Err((site, msg)) => {
+                rec.emit(json!({"t": "v", "sig": format!("{}/harness_bug/gen/{}", PROP, site), "assertion": "harness", "detail": {"unit": unit, "idx": idx, "panic": msg}}));
+                *rec.sig_delta.entry(format!("{}/harness_bug/gen/{}", PROP, site)).or_insert(0) += 1;
+                done += 1;
+                continue;
+            }
+        };
+        let o = run_case(&case, env, bb);
+        rec.evals += 1;
+        done += 1;
+        if std::env::var("TV_C22_DUMP").is_ok() {
+            for (k, st) in case.steps.iter().enumerate() {
+                eprintln!("[{} {} #{}] {} {}", unit, idx, k, st.op_name(), st.sql().map(|t| t.render().chars().take(400).collect::<String>()).unwrap_or_default());
+            }
+            eprintln!("    => {:?} {}", o.classes, o.failure.as_ref().map(|f| format!("PANIC {} {}", f.site, f.msg)).unwrap_or_default());
+        }
+        rec.calls += o.calls;
+        rec.ok += o.ok;
+        rec.err += o.err;
+        rec.parse_err += o.parse_err;
+        if let Some(p) = &o.setup_problem {
+            rec.count("setup_problems", 1);
+            if rec.ctr["setup_problems"] <= 2 {
+                rec.emit(json!({"t": "setup", "msg": p}));
+            }
+        }
+        if o.calls > 0 {
+            let h = case_hash(&case, &o);
+            if rec.seen_nt.len() < 400_000 && rec.seen_nt.insert(h) {
+                rec.new_nt.push(h);
+            }
+        }
+        rec.count(&format!("cases_{}", unit), 1);
+        if let Some(f) = &o.failure {
+            rec.panics += 1;
+            if let Some(b) = bb {
+                b.op("shrink");
+            }
+            if f.site.starts_with("harness:") {
+                let sig = format!("{}/harness_bug/{}", PROP, f.site);
+                *rec.sig_delta.entry(sig.clone()).or_insert(0) += 1;
+                if rec.sig_seen.insert(sig.clone()) {
+                    rec.emit(json!({"t": "v", "sig": sig, "assertion": "harness", "detail": {"case": case.to_json(), "observed": describe_failure(f)}}));
+                }
+            } else {
+                let mut runs = 0u32;
+                let (entry, ccase, cfail) = canonical_entry(&case, f, env, &mut runs);
+                let sig = signature(&entry, &cfail.kind, &format!("panic:{}", cfail.site));
+                *rec.sig_delta.entry(sig.clone()).or_insert(0) += 1;
+                let first_here = rec.sig_seen.insert(sig.clone());
+                if first_here {
+                    let detail = json!({"case": case.to_json(), "observed": describe_failure(f), "entry_point_reported": entry, "replay": replay_cmd(env, &case)});
+                    rec.emit(json!({"t": "v", "sig": sig, "assertion": "no_panic", "detail": detail}));
+                    if claim_shrink(env, &sig) {
+                        let site = cfail.site.clone();
+                        let mut test = |c: &Case| -> Option<usize> {
+                            bb_beat();
+                            let o = run_case(c, env, None);
+                            o.failure.and_then(|f2| if f2.site == site { Some(f2.step) } else { None })
+                        };
+                        let (m, used) = shrink_with(&ccase, cfail.step, 160, &mut test);
+                        let mo = run_case(&m, env, None);
+                        let detail = json!({"case": m.to_json(), "observed": mo.failure.as_ref().map(describe_failure), "shrink_runs": used + runs, "from": {"unit": case.unit, "idx": case.idx, "replay": replay_cmd(env, &case)}});
+                        rec.emit(json!({"t": "min", "sig": sig, "detail": detail}));
+                    }
+                }
+                rec.count("shrink_and_canonicalisation_runs", runs as u64);
+            }
+        }
+        if let Some(b) = bb {
+            b.finished(done);
+        }
+        if done % 256 == 0 || (done % 4 == 0 && last_flush.elapsed().as_millis() > 1500) {
+            last_flush = std::time::Instant::now();
+            rec.flush_progress();
+            if let Some(b) = bb {
+                b.flushed(done);
+            }
+        }
+    }
+    rec.flush_progress();
+    rec.emit(json!({"t": "done", "executed": done}));
+    done
+}
+
+// ------------------------------------------------------------------------------------------
+// child processes
+// ------------------------------------------------------------------------------------------
+fn limit_address_space(bytes: u64) {
+    unsafe {
+        let lim = libc::rlimit { rlim_cur: bytes as libc::rlim_t, rlim_max: bytes as libc::rlim_t };
+        libc::setrlimit(libc::RLIMIT_AS, &lim);
+        let z = libc::rlimit { rlim_cur: 0, rlim_max: 0 };
+        libc::setrlimit(libc::RLIMIT_CORE, &z);
+    }
+}
+
+const CHILD_AS_LIMIT: u64 = 4 << 30;
+
+fn die_with_parent() {
+    let ppid = unsafe { libc::getppid() };
+    std::thread::spawn(move || loop {
+        std::thread::sleep(std::time::Duration::from_millis(500));
+        if unsafe { libc::getppid() } != ppid {
+            std::process::exit(3);
+        }
+    });
+}
+
+fn ensure_bases(root: &Path) -> Result<(), String> {
+    for wal in [false, true] {
+        if !base_dir(root, wal).exists() {
+            create_db_base(root, wal)?;
+        }
+    }
+    Ok(())
+}
+
+fn make_env(a: &Args, root: &Path, work: &Path) -> Env {
+    Env { seed: a.seed, tier: a.tier.clone(), root: root.to_path_buf(), work: work.to_path_buf(), corpus: harvest() }
+}
+
+/// args: child <unit> <start> <count> <jobdir> [<root>] [<deadline_ms>]
+fn child_main(a: &Args) -> i32 {
+    std::env::set_var("RUST_BACKTRACE", "0");
+    std::env::set_var("RUST_LIB_BACKTRACE", "0");
+    let r = &a.rest;
+    if r.len() < 5 || !UNIT_NAMES.contains(&r[1].as_str()) {
+        eprintln!("usage: tv C22 [--tier T --seed S] child <{}> <start> <count> <jobdir> [<root>] [<deadline_ms>]", UNIT_NAMES.join("|"));
+        return 2;
+    }
+    let unit = r[1].clone();
+    let start: u64 = r[2].parse().expect("start");
+    let count: u64 = r[3].parse().expect("count");
+    let jobdir = PathBuf::from(&r[4]);
+    let standalone = r.get(5).is_none();
+    let root = r.get(5).map(PathBuf::from).unwrap_or_else(|| jobdir.clone());
+    let deadline: u64 = r.get(6).and_then(|s| s.parse().ok()).unwrap_or(0);
+    let _ = std::fs::create_dir_all(jobdir.join("work"));
+    if standalone {
+        let _ = std::fs::remove_file(jobdir.join("res.jsonl"));
+        let _ = std::fs::remove_dir_all(jobdir.join("shrunk"));
+        if let Err(e) = ensure_bases(&root) {
+            eprintln!("cannot build the base database: {}", e);
+            return 2;
+        }
+    }
+    limit_address_space(CHILD_AS_LIMIT);
+    die_with_parent();
+    let bb = BlackBox::open(&jobdir.join("bb"));
+    let out = std::fs::OpenOptions::new().create(true).append(true).open(jobdir.join("res.jsonl")).expect("result file");
+    let env = make_env(a, &root, &jobdir.join("work"));
+    let h = std::thread::Builder::new()
+        .stack_size(CHILD_STACK)
+        .name("c22-cases".into())
+        .spawn(move || {
+            let mut rec = Rec::new(Some(out));
+            run_cases(&unit, &env, start, count, deadline, bb.as_ref(), &mut rec)
+        })
+        .expect("spawn worker");
+    let done = h.join().unwrap_or(0);
+    if standalone {
+        if let Ok(s) = std::fs::read_to_string(jobdir.join("res.jsonl")) {
+            for l in s.lines() {
+                if l.contains("\"t\":\"v\"") || l.contains("\"t\":\"min\"") {
+                    println!("{}", l);
+                }
+            }
+        }
+        println!("child: unit={} start={} executed={}", r[1], start, done);
+        let _ = std::fs::remove_dir_all(jobdir.join("work"));
+        let _ = std::fs::remove_dir_all(jobdir.join("shrunk"));
+    }
+    0
+}
+
+/// args: one <case.json> <jobdir> [<root>]  -- run one explicit case (replay, solitary hang confirmation, abort shrinking)
+fn one_main(a: &Args) -> i32 {
+    std::env::set_var("RUST_BACKTRACE", "0");
+    std::env::set_var("RUST_LIB_BACKTRACE", "0");
+    let r = &a.rest;
+    if r.len() < 3 {
+        eprintln!("usage: tv C22 one <case.json> <jobdir> [<root>]");
+        return 2;
+    }
+    let txt = match std::fs::read_to_string(&r[1]) {
+        Ok(t) => t,
+        Err(e) => {
+            eprintln!("cannot read {}: {}", r[1], e);
+            return 2;
+        }
+    };
+    let v: Value = match serde_json::from_str(&txt) {
+        Ok(v) => v,
+        Err(e) => {
+            eprintln!("bad JSON in {}: {}", r[1], e);
+            return 2;
+        }
+    };
+    // accepts a bare case, a replay file (detail.minimized.case / detail.examples[0].case)
+    let cv = if v.get("steps").is_some() {
+        v.clone()
+    } else if v["detail"]["minimized"]["case"].get("steps").is_some() {
+        v["detail"]["minimized"]["case"].clone()
+    } else if v["detail"]["examples"][0]["case"].get("steps").is_some() {
+        v["detail"]["examples"][0]["case"].clone()
+    } else {
+        v["case"].clone()
+    };
+    let case = match Case::from_json(&cv) {
+        Some(c) => c,
+        None => {
+            eprintln!("no case found in {}", r[1]);
+            return 2;
+        }
+    };
+    let jobdir = PathBuf::from(&r[2]);
+    let standalone = r.get(3).is_none();
+    let root = r.get(3).map(PathBuf::from).unwrap_or_else(|| jobdir.clone());
+    let _ = std::fs::create_dir_all(jobdir.join("work"));
+    if standalone {
+        if let Err(e) = ensure_bases(&root) {
+            eprintln!("cannot build the base database: {}", e);
+            return 2;
+        }
+    }
+    limit_address_space(CHILD_AS_LIMIT);
+    die_with_parent();
+    let bb = BlackBox::open(&jobdir.join("bb"));
+    let env = Env { seed: a.seed, tier: a.tier.clone(), root, work: jobdir.join("work"), corpus: Corpus { files: vec![], total: 0, distinct: 0 } };
+    let jd = jobdir.clone();
+    let h = std::thread::Builder::new()
+        .stack_size(CHILD_STACK)
+        .name("c22-one".into())
+        .spawn(move || {
+            if let Some(b) = &bb {
+                b.begin(case.idx);
+            }
+            let t0 = std::time::Instant::now();
+            let o = run_case(&case, &env, bb.as_ref());
+            let v = json!({"t": "one", "classes": o.classes, "calls": o.calls, "ok": o.ok, "err": o.err, "wall_s": t0.elapsed().as_secs_f64(), "setup_problem": o.setup_problem,
+                "failure": o.failure.as_ref().map(|f| json!({"step": f.step, "sub": f.sub, "entry": f.entry, "kind": f.kind, "site": f.site, "msg": f.msg, "in_thread": f.in_thread}))});
+            let _ = std::fs::write(jd.join("one.json"), v.to_string());
+            v
+        })
+        .expect("spawn worker");
+    match h.join() {
+        Ok(v) => {
+            if standalone {
+                println!("{}", serde_json::to_string_pretty(&v).unwrap_or_default());
+            }
+            0
+        }
+        Err(_) => 3,
+    }
+}
+
+// ------------------------------------------------------------------------------------------
+// parent side: running one explicit case in a monitored child
+// ------------------------------------------------------------------------------------------
+/// user+system CPU seconds of a process (all threads)
+fn proc_cpu_s(pid: u32) -> Option<f64> {
+    let st = std::fs::read_to_string(format!("/proc/{}/stat", pid)).ok()?;
+    let rest = &st[st.rfind(')')? + 1..];
+    let f: Vec<&str> = rest.split_whitespace().collect();
+    let ut: f64 = f.get(11)?.parse().ok()?;
+    let stime: f64 = f.get(12)?.parse().ok()?;
+    Some((ut + stime) / 100.0)
+}
+
+fn classify_death(status: &std::process::ExitStatus, stderr: &str) -> String {
+    use std::os::unix::process::ExitStatusExt;
+    if stderr.contains("memory allocation of") || (stderr.contains("capacity overflow") && stderr.contains("abort")) {
+        return "alloc_abort".into();
+    }
+    if stderr.contains("has overflowed its stack") || stderr.contains("stack overflow") {
+        return "stack_overflow".into();
+    }
+    if stderr.contains("panic in a function that cannot unwind") || stderr.contains("panicked while processing panic") || stderr.contains("panic in a destructor") {
+        return "double_panic".into();
+    }
+    match status.signal() {
+        Some(6) => "SIGABRT".into(),
+        Some(11) => "SIGSEGV".into(),
+        Some(7) => "SIGBUS".into(),
+        Some(4) => "SIGILL".into(),
+        Some(8) => "SIGFPE".into(),
+        Some(9) => "SIGKILL".into(),
+        Some(s) => format!("signal{}", s),
+        None => format!("exit{}", status.code().unwrap_or(-1)),
+    }
+}
+
+#[derive(Debug, Clone)]
+enum OneResult {
+    /// the call sequence returned; the JSON written by the child
+    Finished(Value, f64),
+    /// (class, label, stderr tail)
+    Died(String, String, Vec<String>),
+    /// (label, cpu seconds burned inside the call)
+    Expired(String, f64),
+    Spawn(String),
+}
+
+struct OneRunner {
+    exe: PathBuf,
+    root: PathBuf,
+    tier: String,
+    seed: u64,
+    counter: AtomicU64,
+}
+
+impl OneRunner {
+    fn run(&self, case: &Case, cpu_limit_s: f64, wall_limit_s: f64) -> OneResult {
+        use std::process::{Command, Stdio};
+        let n = self.counter.fetch_add(1, Ordering::Relaxed);
+        let dir = self.root.join(format!("one-{}", n));
+        fresh_dir(&dir);
+        let cf = dir.join("case.json");
+        if std::fs::write(&cf, case.to_json().to_string()).is_err() {
+            return OneResult::Spawn("cannot write case file".into());
+        }
+        let errf = match std::fs::File::create(dir.join("stderr.txt")) {
+            Ok(f) => f,
+            Err(e) => return OneResult::Spawn(e.to_string()),
+        };
+        let mut child = match Command::new(&self.exe)
+            .arg(PROP)
+            .arg("--tier")
+            .arg(&self.tier)
+            .arg("--seed")
+            .arg(self.seed.to_string())
+            .arg("one")
+            .arg(&cf)
+            .arg(&dir)
+            .arg(&self.root)
+            .env("RUST_BACKTRACE", "0")
+            .env("RUST_LIB_BACKTRACE", "0")
+            .stdin(Stdio::null())
+            .stdout(Stdio::null())
+            .stderr(Stdio::from(errf))
+            .spawn()
+        {
+            Ok(c) => c,
+            Err(e) => return OneResult::Spawn(e.to_string()),
+        };
+        let t0 = std::time::Instant::now();
+        let mut last = (u64::MAX, u64::MAX);
+        let mut last_change = std::time::Instant::now();
+        let mut cpu_mark = 0.0;
+        let res = loop {
+            match child.try_wait() {
+                Ok(Some(st)) => {
+                    let stderr = std::fs::read_to_string(dir.join("stderr.txt")).unwrap_or_default();
+                    match std::fs::read_to_string(dir.join("one.json")).ok().and_then(|s| serde_json::from_str::<Value>(&s).ok()) {
+                        Some(v) if st.success() => break OneResult::Finished(v, t0.elapsed().as_secs_f64()),
+                        _ => {
+                            let label = read_blackbox(&dir.join("bb")).map(|b| b.3).unwrap_or_default();
+                            break OneResult::Died(classify_death(&st, &stderr), label, stderr.lines().rev().take(4).map(|s| s.chars().take(300).collect()).collect());
+                        }
+                    }
+                }
+                Ok(None) => {
+                    let bb = read_blackbox(&dir.join("bb"));
+                    let cur = bb.as_ref().map(|b| (b.0, b.1)).unwrap_or((u64::MAX, 0));
+                    if cur != last {
+                        last = cur;
+                        last_change = std::time::Instant::now();
+                        cpu_mark = proc_cpu_s(child.id()).unwrap_or(0.0);
+                    }
+                    let burned = proc_cpu_s(child.id()).map(|c| c - cpu_mark).unwrap_or(0.0);
+                    if burned > cpu_limit_s || last_change.elapsed().as_secs_f64() > wall_limit_s {
+                        let _ = child.kill();
+                        let _ = child.wait();
+                        break OneResult::Expired(bb.map(|b| b.3).unwrap_or_default(), burned);
+                    }
+                }
+                Err(e) => break OneResult::Spawn(e.to_string()),
+            }
+            std::thread::sleep(std::time::Duration::from_millis(if t0.elapsed().as_millis() < 300 { 3 } else { 25 }));
+        };
+        let _ = std::fs::remove_dir_all(&dir);
+        res
+    }
+}
+
+/// "<i>:<op>" -> step index
+fn label_step(label: &str) -> Option<usize> {
+    label.split(':').next()?.parse().ok()
+}
+
+/// entry/kind of the step a label points at
+fn attribute(case: &Case, label: &str) -> (String, String, usize) {
+    match label_step(label) {
+        Some(i) if i < case.steps.len() => {
+            let st = &case.steps[i];
+            let kind = match (&case.kind, st.sql()) {
+                (Some(k), Some(_)) => k.clone(),
+                (None, Some(t)) => stmt_kind(t),
+                _ => st.op_name().to_string(),
+            };
+            let ctx = case.steps.iter().take(i + 1).any(|s| s.h != 0 || s.sql().is_none());
+            (if ctx { "api_sequence".to_string() } else { st.entry().to_string() }, kind, i)
+        }
+        Some(i) => ("api_sequence".into(), "drop".into(), i),
+        None => ("api_sequence".into(), label.to_string(), 0),
+    }
+}
+
+#[derive(Default)]
+struct SigAgg {
+    count: u64,
+    assertion: String,
+    examples: Vec<Value>,
+    minimized: Option<Value>,
+    units: Vec<String>,
+}
+
+#[derive(Default, Clone)]
+struct UnitAgg {
+    planned: u64,
+    cases: u64,
+    calls: u64,
+    ok: u64,
+    err: u64,
+    parse_err: u64,
+    panics: u64,
+    deaths: u64,
+    soft_expiries: u64,
+    skipped: u64,
+}
+
+struct Agg {
+    sigs: BTreeMap<String, SigAgg>,
+    units: BTreeMap<String, UnitAgg>,
+    setup_msgs: Vec<String>,
+}
+
+impl Agg {
+    fn new() -> Agg {
+        Agg { sigs: BTreeMap::new(), units: BTreeMap::new(), setup_msgs: vec![] }
+    }
+    fn add_sig(&mut self, unit: &str, sig: &str, assertion: &str, n: u64, example: Option<Value>) {
+        let s = self.sigs.entry(sig.to_string()).or_default();
+        s.count += n;
+        if s.assertion.is_empty() {
+            s.assertion = assertion.to_string();
+        }
+        if !unit.is_empty() && !s.units.iter().any(|x| x == unit) {
+            s.units.push(unit.to_string());
+        }
+        if let Some(e) = example {
+            if s.examples.len() < 2 {
+                s.examples.push(e);
+            }
+        }
+    }
+    fn merge_lines<'a>(&mut self, unit: &str, lines: impl Iterator<Item = &'a str>, ctx: &mut Ctx) -> bool {
+        let mut done = false;
+        for l in lines {
+            let v: Value = match serde_json::from_str(l) {
+                Ok(v) => v,
+                Err(_) => continue,
+            };
+            match v["t"].as_str().unwrap_or("") {
+                "p" => {
+                    let ua = self.units.entry(unit.to_string()).or_default();
+                    let e = v["evals"].as_u64().unwrap_or(0);
+                    ua.cases += e;
+                    ua.calls += v["calls"].as_u64().unwrap_or(0);
+                    ua.ok += v["ok"].as_u64().unwrap_or(0);
+                    ua.err += v["err"].as_u64().unwrap_or(0);
+                    ua.parse_err += v["parse_err"].as_u64().unwrap_or(0);
+                    ua.panics += v["panics"].as_u64().unwrap_or(0);
+                    ctx.evals(e);
+                    if let Some(a) = v["nt"].as_array() {
+                        for h in a {
+                            if let Some(h) = h.as_u64() {
+                                ctx.nontrivial(h);
+                            }
+                        }
+                    }
+                    if let Some(m) = v["sigc"].as_object() {
+                        for (sig, n) in m {
+                            self.add_sig(unit, sig, "", n.as_u64().unwrap_or(0), None);
+                        }
+                    }
+                    if let Some(m) = v["ctr"].as_object() {
+                        for (k, n) in m {
+                            ctx.count(k, n.as_u64().unwrap_or(0));
+                        }
+                    }
+                }
+                "v" => {
+                    let sig = v["sig"].as_str().unwrap_or("").to_string();
+                    let asr = v["assertion"].as_str().unwrap_or("").to_string();
+                    self.add_sig(unit, &sig, &asr, 0, Some(v["detail"].clone()));
+                    if let Some(s) = self.sigs.get_mut(&sig) {
+                        if s.assertion.is_empty() {
+                            s.assertion = asr;
+                        }
+                    }
+                }
+                "min" => {
+                    let sig = v["sig"].as_str().unwrap_or("").to_string();
+                    let s = self.sigs.entry(sig).or_default();
+                    if s.minimized.is_none() {
+                        s.minimized = Some(v["detail"].clone());
+                    }
+                }
+                "setup" => {
+                    if self.setup_msgs.len() < 4 {
+                        self.setup_msgs.push(v["msg"].as_str().unwrap_or("").to_string());
+                    }
+                }
+                "done" => done = true,
+                _ => {}
+            }
+        }
+        done
+    }
+    fn finish(self, ctx: &mut Ctx) {
+        let mut all = vec![];
+        let mut sigmap = serde_json::Map::new();
+        let mut by_site: BTreeMap<String, Vec<String>> = BTreeMap::new();
+        let mut overflow_dependent = vec![];
+        for (sig, s) in &self.sigs {
+            let count = s.count.max(s.examples.len() as u64).max(1);
+            if sig.contains("/harness_bug/") {
+                ctx.inconclusive(&format!("the harness itself panicked ({} x{}): {}", sig, count, s.examples.first().map(|e| e.to_string().chars().take(400).collect::<String>()).unwrap_or_default()));
+                continue;
+            }
+            sigmap.insert(sig.clone(), json!(count));
+            let cause = sig.splitn(4, '/').nth(3).unwrap_or("").to_string();
+            by_site.entry(cause.clone()).or_default().push(sig.clone());
+            let mut source_line = Value::Null;
+            let mut debug_assert = false;
+            if let Some(site) = cause.strip_prefix("panic:") {
+                if let Some((file, line)) = site.rsplit_once(':') {
+                    if let (Ok(txt), Ok(n)) = (std::fs::read_to_string(format!("/repo/src/{}", file)), line.parse::<usize>()) {
+                        if let Some(l) = txt.lines().nth(n.saturating_sub(1)) {
+                            debug_assert = l.contains("debug_assert");
+                            source_line = json!(l.trim());
+                        }
+                    }
+                }
+            }
+            let ovf = s.examples.first().map(|e| e["observed"]["depends_on_overflow_checks"].as_bool().unwrap_or(false)).unwrap_or(false) || s.minimized.as_ref().map(|m| m["observed"]["depends_on_overflow_checks"].as_bool().unwrap_or(false)).unwrap_or(false);
+            if ovf || debug_assert {
+                overflow_dependent.push(sig.clone());
+            }
+            let assertion = if s.assertion.is_empty() { "no_panic".to_string() } else { s.assertion.clone() };
+            let detail = json!({"occurrences": count, "units": s.units, "source_line": source_line, "depends_on_overflow_checks_or_debug_assertions": ovf || debug_assert, "minimized": s.minimized, "examples": s.examples});
+            all.push(json!({"sig": sig, "assertion": assertion, "detail": detail.clone()}));
+            let known = ctx.is_known(sig).map(|f| f.id.clone());
+            let unexplained = ctx.violation(&assertion, sig, detail);
+            if !unexplained {
+                if let Some(id) = known {
+                    *ctx.known_hits.entry(id).or_insert(0) += count - 1;
+                }
+            }
+        }
+        ctx.count("distinct_signatures", sigmap.len() as u64);
+        ctx.count("distinct_root_causes_by_site", by_site.len() as u64);
+        ctx.extra.insert("signatures".into(), Value::Object(sigmap));
+        ctx.extra.insert("signatures_by_cause".into(), json!(by_site));
+        ctx.extra.insert("signatures_depending_on_overflow_checks_or_debug_assertions".into(), json!(overflow_dependent));
+        let mut um = serde_json::Map::new();
+        for (u, a) in &self.units {
+            um.insert(u.clone(), json!({"planned": a.planned, "cases": a.cases, "api_calls": a.calls, "ok": a.ok, "err": a.err, "parse_errors": a.parse_err, "cases_with_panic": a.panics, "process_deaths": a.deaths, "soft_deadline_expiries": a.soft_expiries, "cases_not_run": a.skipped}));
+        }
+        ctx.extra.insert("per_unit".into(), Value::Object(um));
+        if !self.setup_msgs.is_empty() {
+            ctx.extra.insert("setup_problems".into(), json!(self.setup_msgs));
+        }
+        if !all.is_empty() {
+            let dir = format!("{}/replay/{}", report::VERIF_DIR, ctx.prop);
+            let _ = std::fs::create_dir_all(&dir);
+            let path = format!("{}/{}-seed{}-all-signatures.json", dir, ctx.tier, ctx.seed);
+            let _ = std::fs::write(&path, serde_json::to_string_pretty(&Value::Array(all)).unwrap());
+            ctx.extra.insert("all_signatures_file".into(), json!(path));
+        }
+    }
+}
+
+// ------------------------------------------------------------------------------------------
+// background investigations of the parent: confirm + shrink aborts, second stage of the hang rule
+// ------------------------------------------------------------------------------------------
+const SOFT_CPU_S: f64 = 20.0;
+const HARD_CPU_S: f64 = 120.0;
+
+enum Task {
+    /// a child died while running this case at this label
+    Death { case: Case, class: String, label: String, stderr: Vec<String>, prov_key: String },
+    /// a call burned SOFT_CPU_S: run the case alone with the hard limit
+    Hang { case: Case, label: String, prov_key: String },
+}
+
+#[derive(Default)]
+struct TaskResults {
+    /// (signature, assertion, detail, provisional key)
+    findings: Vec<(String, String, Value, String)>,
+    counters: BTreeMap<String, u64>,
+    notes: Vec<Value>,
+}
+
+fn bump(r: &std::sync::Mutex<TaskResults>, k: &str) {
+    *r.lock().unwrap().counters.entry(k.to_string()).or_insert(0) += 1;
+}
+
+fn investigate_death(run: &OneRunner, case: Case, class: String, label: String, stderr: Vec<String>, prov_key: String, res: &std::sync::Mutex<TaskResults>, env_tier: &str, seed: u64) {
+    let same = |r: &OneResult| -> Option<usize> {
+        match r {
+            OneResult::Died(c, l, _) if *c == class => Some(label_step(l).unwrap_or(0)),
+            _ => None,
+        }
+    };
+    // 1. re-run alone
+    let first = run.run(&case, SOFT_CPU_S, 90.0);
+    let confirmed = same(&first).is_some();
+    let (mut entry, kind, step) = attribute(&case, &label);
+    if !confirmed {
+        bump(res, "process_deaths_not_reproduced_alone");
+        if class == "SIGKILL" {
+            // killed from outside (e.g. the kernel's OOM killer on a loaded machine): not attributable
+            res.lock().unwrap().notes.push(json!({"unattributed_sigkill": {"unit": case.unit, "idx": case.idx, "label": label}}));
+            return;
+        }
+        let sig = signature(&entry, &kind, &format!("abort:{}", class));
+        let detail = json!({"case": case.to_json(), "observed": {"outcome": class, "at": label, "stderr_tail": stderr, "reproduced_when_run_alone": false, "rerun": format!("{:?}", first).chars().take(300).collect::<String>()}, "child_stack_bytes": CHILD_STACK, "child_rlimit_as": CHILD_AS_LIMIT});
+        res.lock().unwrap().findings.push((sig, "no_abort".into(), detail, prov_key));
+        return;
+    }
+    bump(res, "process_deaths_confirmed_alone");
+    // 2. canonical entry: the call alone, then through execute
+    let mut cur = case.clone();
+    let mut fs = step.min(cur.steps.len().saturating_sub(1));
+    if entry == "api_sequence" && cur.steps.get(fs).map(|s| s.sql().is_some()).unwrap_or(false) {
+        let mut c = cur.clone();
+        let mut s = cur.steps[fs].clone();
+        s.h = 0;
+        c.steps = vec![s];
+        if same(&run.run(&c, SOFT_CPU_S, 90.0)).is_some() {
+            entry = c.steps[0].entry().to_string();
+            cur = c;
+            fs = 0;
+        }
+    }
+    if entry != "api_sequence" && entry != "execute" {
+        let f = Failure { step: fs, sub: String::new(), entry: entry.clone(), kind: kind.clone(), site: String::new(), msg: String::new(), in_thread: false };
+        for (c, name) in entry_candidates(&cur, &f) {
+            if same(&run.run(&c, SOFT_CPU_S, 90.0)).is_some() {
+                entry = name.to_string();
+                cur = c;
+                break;
+            }
+        }
+    }
+    // 3. shrink (one child process per candidate)
+    let mut test = |c: &Case| -> Option<usize> { same(&run.run(c, SOFT_CPU_S, 90.0)) };
+    let (min, used) = shrink_with(&cur, fs, 36, &mut test);
+    let sig = signature(&entry, &kind, &format!("abort:{}", class));
+    let detail = json!({
+        "minimized": {"case": min.to_json(), "shrink_runs": used},
+        "case": case.to_json(),
+        "observed": {"outcome": class, "at": label, "stderr_tail": stderr, "reproduced_when_run_alone": true},
+        "child_stack_bytes": CHILD_STACK, "child_rlimit_as": CHILD_AS_LIMIT,
+        "replay": format!("tv C22 --tier {} --seed {} child {} {} 1 /verif/scratch/c22-replay", env_tier, seed, case.unit, case.idx),
+    });
+    res.lock().unwrap().findings.push((sig, "no_abort".into(), detail, prov_key));
+}
+
+fn investigate_hang(run: &OneRunner, case: Case, label: String, prov_key: String, res: &std::sync::Mutex<TaskResults>, env_tier: &str, seed: u64) {
+    let r = run.run(&case, HARD_CPU_S, 400.0);
+    match r {
+        OneResult::Finished(v, wall) => {
+            bump(res, "soft_deadline_cases_that_finished_alone");
+            res.lock().unwrap().notes.push(json!({"slow_case_finished_alone": {"unit": case.unit, "idx": case.idx, "label": label, "wall_s": wall, "first_sql": case.steps.first().and_then(|s| s.sql()).map(|t| t.render().chars().take(300).collect::<String>())}}));
+        }
+        OneResult::Expired(l2, burned) => {
+            let (mut entry, kind, step) = attribute(&case, &l2);
+            // minimal form: the call alone, with the soft limit only (each attempt is expensive)
+            let mut min = None;
+            if case.steps.len() > 1 && step < case.steps.len() && case.steps[step].sql().is_some() {
+                let mut c = case.clone();
+                let mut s = case.steps[step].clone();
+                s.h = 0;
+                c.steps = vec![s];
+                if let OneResult::Expired(..) = run.run(&c, SOFT_CPU_S, 120.0) {
+                    entry = c.steps[0].entry().to_string();
+                    min = Some(c);
+                }
+            }
+            let sig = signature(&entry, &kind, "hang");
+            let detail = json!({
+                "case": case.to_json(), "minimized": min.map(|m| json!({"case": m.to_json(), "note": "the call alone also exceeds the soft limit"})),
+                "observed": {"outcome": "hang", "at": l2, "cpu_seconds_burned_inside_the_call": burned, "first_stage_limit_cpu_s": SOFT_CPU_S, "second_stage_limit_cpu_s": HARD_CPU_S, "wall_fallback_s": 400},
+                "replay": format!("tv C22 --tier {} --seed {} child {} {} 1 /verif/scratch/c22-replay", env_tier, seed, case.unit, case.idx),
+            });
+            res.lock().unwrap().findings.push((sig, "terminates".into(), detail, prov_key));
+        }
+        OneResult::Died(class, l2, stderr) => {
+            // it did not hang alone but died: treat as a death (confirmed by this very run)
+            investigate_death(run, case, class, l2, stderr, prov_key, res, env_tier, seed);
+        }
+        OneResult::Spawn(e) => {
+            res.lock().unwrap().notes.push(json!({"hang_confirmation_failed_to_run": e}));
+        }
+    }
+}
+
+// ------------------------------------------------------------------------------------------
+// parent: schedules jobs over child processes, watches black boxes, attributes deaths and hangs
+// ------------------------------------------------------------------------------------------
+struct UnitPlan {
+    name: &'static str,
+    quick: u64,
+    thorough: u64,
+    chunk_quick: u64,
+    chunk_thorough: u64,
+}
+
+const PLAN: &[UnitPlan] = &[
+    UnitPlan { name: "gram", quick: 9000, thorough: 110_000, chunk_quick: 500, chunk_thorough: 2500 },
+    UnitPlan { name: "func", quick: 3500, thorough: 40_000, chunk_quick: 350, chunk_thorough: 2000 },
+    UnitPlan { name: "deep", quick: 460, thorough: 2760, chunk_quick: 46, chunk_thorough: 230 },
+    UnitPlan { name: "huge", quick: 360, thorough: 3000, chunk_quick: 60, chunk_thorough: 300 },
+    UnitPlan { name: "mut", quick: 6000, thorough: 80_000, chunk_quick: 500, chunk_thorough: 2500 },
+    UnitPlan { name: "bytes", quick: 4000, thorough: 50_000, chunk_quick: 500, chunk_thorough: 2500 },
+    UnitPlan { name: "params", quick: 3000, thorough: 40_000, chunk_quick: 300, chunk_thorough: 2000 },
+    UnitPlan { name: "api", quick: 1200, thorough: 16_000, chunk_quick: 150, chunk_thorough: 1000 },
+];
+
+struct Job {
+    unit: &'static str,
+    start: u64,
+    end: u64,
+    restarts: u32,
+}
+
+struct Running {
+    job: Job,
+    child: std::process::Child,
+    dir: PathBuf,
+    last: (u64, u64),
+    last_change: std::time::Instant,
+    cpu_mark: f64,
+}
+
+fn parent_main(a: &Args) -> i32 {
+    use std::process::{Command, Stdio};
+    use std::sync::{mpsc, Arc, Mutex};
+    use std::time::{Duration, Instant};
+    let mut ctx = Ctx::new(
+        PROP,
+        &a.tier,
+        a.seed,
+        "exploration",
+        "every case = fresh copy of a <= 200-row database (6 tables, all column families, indexes; WAL off / WAL on) + 1..25 public API calls: grammar-generated valid/near-valid statements of every statement kind, every SQL function with arity/type errors, nesting up to depth 200, huge literals, token mutations of the SQL harvested from /repo/tests, random bytes (lossy UTF-8), execute_with_params / prepare+bind with wrong length/type/huge values, multi-handle and multi-thread API sequences. Monitors: panic hook + catch_unwind, worker death (8 MiB stack, RLIMIT_AS 4 GiB), two-stage CPU-time hang rule (20 s, then 120 s alone). distinct_nontrivial = distinct (unit, generator class, per-call outcome vector incl. error class) hashes of cases that made at least one call",
+    );
+    std::env::set_var("RUST_BACKTRACE", "0");
+    std::env::set_var("RUST_LIB_BACKTRACE", "0");
+    let quick = ctx.quick();
+    let t0 = Instant::now();
+    let budget_s: u64 = std::env::var("TV_C22_BUDGET_S").ok().and_then(|s| s.parse().ok()).unwrap_or(if quick { 62 } else { 540 });
+    let root = PathBuf::from(format!("{}/scratch/c22-{}", report::VERIF_DIR, std::process::id()));
+    fresh_dir(&root);
+    let exe = std::env::current_exe().expect("current_exe");
+    let only: Option<Vec<String>> = std::env::var("TV_C22_UNITS").ok().map(|s| s.split(',').map(|x| x.to_string()).collect());
+    let scale: f64 = std::env::var("TV_C22_SCALE").ok().and_then(|s| s.parse().ok()).unwrap_or(1.0);
+    let mut agg = Agg::new();
+
+    // base images
+    let mut db_ok = true;
+    for wal in [false, true] {
+        match create_db_base(&root, wal) {
+            Ok((ok, failed, panics)) => {
+                for (stmt, site, msg) in &panics {
+                    let t = Txt::lit(stmt.clone());
+                    let sig = signature("execute", &stmt_kind(&t), &format!("panic:{}", site));
+                    agg.add_sig("setup", &sig, "no_panic", 1, Some(json!({"case": {"database": "empty database being populated by DB_SETUP", "steps": [{"op": "execute", "sql": stmt}]}, "observed": {"panic": msg, "site": site}})));
+                }
+                // baseline: the image opens and holds the rows
+                let work = root.join("baseline");
+                fresh_dir(&work);
+                let _ = copy_dir(&base_dir(&root, wal), &work.join("db"));
+                let r = guard(|| -> Result<Vec<usize>, String> {
+                    let db = Database::open(work.join("db")).map_err(|e| format!("open: {e}"))?;
+                    let mut v = vec![];
+                    for t in TABS {
+                        v.push(db.query(&format!("SELECT * FROM {}", t.name)).map_err(|e| format!("{}: {e}", t.name))?.len());
+                    }
+                    Ok(v)
+                });
+                let total: usize = match &r {
+                    Ok(Ok(v)) => v.iter().sum(),
+                    _ => 0,
+                };
+                ctx.extra.insert(format!("db_base_{}", if wal { "wal" } else { "nowal" }), json!({"setup_statements_ok": ok, "setup_statements_failed": failed, "rows_per_table": format!("{:?}", r), "total_rows": total}));
+                let t1_ok = matches!(&r, Ok(Ok(v)) if v[0] >= 10 && v[1] >= 10);
+                if !t1_ok || total > 200 {
+                    ctx.inconclusive(&format!("base database (wal={}) unusable: {:?} (total rows {})", wal, r, total));
+                    db_ok = false;
+                }
+                let _ = std::fs::remove_dir_all(&work);
+            }
+            Err(e) => {
+                ctx.inconclusive(&format!("could not build the base database (wal={}): {}", wal, e));
+                db_ok = false;
+            }
+        }
+    }
+    let penv = make_env(a, &root, &root.join("parent-work"));
+    ctx.extra.insert("harvested_test_sql".into(), json!({"files": penv.corpus.files.len(), "statements": penv.corpus.total, "distinct": penv.corpus.distinct}));
+    if penv.corpus.total < 100 {
+        ctx.inconclusive(&format!("only {} SQL literals harvested from /repo/tests", penv.corpus.total));
+    }
+    ctx.extra.insert("setup_s".into(), json!(t0.elapsed().as_secs_f64()));
+    let deadline = Instant::now() + Duration::from_secs(budget_s);
+    let deadline_ms = now_ms() + budget_s * 1000;
+
+    // job queue, units interleaved
+    let mut queue: std::collections::VecDeque<Job> = Default::default();
+    let mut per_unit: Vec<Vec<Job>> = vec![];
+    for u in PLAN {
+        if let Some(o) = &only {
+            if !o.iter().any(|x| x == u.name) {
+                continue;
+            }
+        }
+        if !db_ok {
+            continue;
+        }
+        let total = ((if quick { u.quick } else { u.thorough }) as f64 * scale) as u64;
+        let chunk = if quick { u.chunk_quick } else { u.chunk_thorough };
+        agg.units.entry(u.name.to_string()).or_default().planned = total;
+        let mut v = vec![];
+        let mut s = 0;
+        while s < total {
+            let e = (s + chunk).min(total);
+            v.push(Job { unit: u.name, start: s, end: e, restarts: 0 });
+            s = e;
+        }
+        per_unit.push(v);
+    }
+    loop {
+        let mut any = false;
+        for v in per_unit.iter_mut() {
+            if !v.is_empty() {
+                queue.push_back(v.remove(0));
+                any = true;
+            }
+        }
+        if !any {
+            break;
+        }
+    }
+    let ncpu = std::thread::available_parallelism().map(|n| n.get()).unwrap_or(4);
+    let lanes: usize = std::env::var("TV_C22_LANES").ok().and_then(|s| s.parse().ok()).unwrap_or_else(|| ncpu.saturating_sub(2).clamp(2, 12));
+    let max_restarts: u32 = if quick { 30 } else { 200 };
+
+    // investigation workers
+    let runner = Arc::new(OneRunner { exe: exe.clone(), root: root.clone(), tier: a.tier.clone(), seed: a.seed, counter: AtomicU64::new(0) });
+    let results = Arc::new(Mutex::new(TaskResults::default()));
+    let (tx, rx) = mpsc::channel::<Task>();
+    let rx = Arc::new(Mutex::new(rx));
+    let mut workers = vec![];
+    for _ in 0..4 {
+        let (rx, runner, results, tier, seed) = (rx.clone(), runner.clone(), results.clone(), a.tier.clone(), a.seed);
+        workers.push(std::thread::spawn(move || loop {
+            let t = match rx.lock().unwrap().recv() {
+                Ok(t) => t,
+                Err(_) => break,
+            };
+            match t {
+                Task::Death { case, class, label, stderr, prov_key } => investigate_death(&runner, case, class, label, stderr, prov_key, &results, &tier, seed),
+                Task::Hang { case, label, prov_key } => investigate_hang(&runner, case, label, prov_key, &results, &tier, seed),
+            }
+        }));
+    }
+    // provisional key -> occurrences (only the first two of a key are investigated)
+    let mut prov_counts: BTreeMap<String, u64> = BTreeMap::new();
+    let mut hang_tasks = 0u32;
+    let mut death_tasks = 0u32;
+
+    let mut running: Vec<Running> = vec![];
+    let mut jobno = 0u64;
+    loop {
+        let now = Instant::now();
+        let expired = now >= deadline;
+        while !expired && running.len() < lanes {
+            let job = match queue.pop_front() {
+                Some(j) => j,
+                None => break,
+            };
+            jobno += 1;
+            let dir = root.join(format!("job-{}", jobno));
+            fresh_dir(&dir);
+            let errf = std::fs::File::create(dir.join("stderr.txt")).expect("stderr file");
+            let child = Command::new(&exe)
+                .arg(PROP)
+                .arg("--tier")
+                .arg(&a.tier)
+                .arg("--seed")
+                .arg(a.seed.to_string())
+                .arg("child")
+                .arg(job.unit)
+                .arg(job.start.to_string())
+                .arg((job.end - job.start).to_string())
+                .arg(&dir)
+                .arg(&root)
+                .arg(deadline_ms.to_string())
+                .env("RUST_BACKTRACE", "0")
+                .env("RUST_LIB_BACKTRACE", "0")
+                .stdin(Stdio::null())
+                .stdout(Stdio::null())
+                .stderr(Stdio::from(errf))
+                .spawn()
+                .expect("spawn child");
+            running.push(Running { job, child, dir, last: (u64::MAX, u64::MAX), last_change: Instant::now(), cpu_mark: 0.0 });
+        }
+        if running.is_empty() && (queue.is_empty() || expired) {
+            break;
+        }
+        let mut i = 0;
+        while i < running.len() {
+            let mut finished: Option<(Option<std::process::ExitStatus>, bool)> = None;
+            match running[i].child.try_wait() {
+                Ok(Some(st)) => finished = Some((Some(st), false)),
+                Ok(None) => {
+                    let bb = read_blackbox(&running[i].dir.join("bb"));
+                    let cur = bb.as_ref().map(|b| (b.0, b.1)).unwrap_or((u64::MAX, 0));
+                    if cur != running[i].last {
+                        running[i].last = cur;
+                        running[i].last_change = Instant::now();
+                        running[i].cpu_mark = proc_cpu_s(running[i].child.id()).unwrap_or(0.0);
+                    }
+                    let symbolizing = bb.as_ref().map(|b| b.4).unwrap_or(false);
+                    let limit = if symbolizing { 90.0 } else { SOFT_CPU_S };
+                    let stalled = running[i].last_change.elapsed();
+                    let burned = if stalled > Duration::from_secs(2) { proc_cpu_s(running[i].child.id()).map(|c| c - running[i].cpu_mark).unwrap_or(0.0) } else { 0.0 };
+                    if burned > limit || stalled > Duration::from_secs(240) {
+                        let _ = running[i].child.kill();
+                        let st = running[i].child.wait().ok();
+                        finished = Some((st, true));
+                    } else if expired && now > deadline + Duration::from_secs(3) {
+                        let _ = running[i].child.kill();
+                        let _ = running[i].child.wait();
+                        let r = running.swap_remove(i);
+                        let txt = std::fs::read_to_string(r.dir.join("res.jsonl")).unwrap_or_default();
+                        agg.merge_lines(r.job.unit, txt.lines(), &mut ctx);
+                        let fin = read_blackbox(&r.dir.join("bb")).map(|b| b.2).unwrap_or(0);
+                        agg.units.entry(r.job.unit.to_string()).or_default().skipped += (r.job.end - r.job.start).saturating_sub(fin);
+                        let _ = std::fs::remove_dir_all(&r.dir);
+                        continue;
+                    }
+                }
+                Err(_) => finished = Some((None, false)),
+            }
+            if let Some((status, soft_expired)) = finished {
+                let r = running.swap_remove(i);
+                let uname = r.job.unit;
+                let txt = std::fs::read_to_string(r.dir.join("res.jsonl")).unwrap_or_default();
+                let done = agg.merge_lines(uname, txt.lines(), &mut ctx);
+                if !done {
+                    let bb = read_blackbox(&r.dir.join("bb"));
+                    let (idx, _, fin, label, _, flushed) = bb.unwrap_or((r.job.start, 0, 0, "start".into(), false, 0));
+                    let stderr = std::fs::read_to_string(r.dir.join("stderr.txt")).unwrap_or_default();
+                    let stderr_tail: Vec<String> = stderr.lines().rev().take(4).map(|s| s.chars().take(300).collect()).collect();
+                    let ua = agg.units.entry(uname.to_string()).or_default();
+                    let lost = fin.saturating_sub(flushed);
+                    if label.is_empty() || label == "start" {
+                        ua.skipped += r.job.end - r.job.start;
+                        ctx.inconclusive(&format!("unit {} child died before its first case: {}", uname, stderr_tail.first().cloned().unwrap_or_default()));
+                    } else {
+                        ua.cases += lost + 1;
+                        ctx.evals(lost + 1);
+                        let class = if soft_expired { "soft_expired".to_string() } else { status.as_ref().map(|s| classify_death(s, &stderr)).unwrap_or_else(|| "unknown".into()) };
+                        if label == "shrink" || label == "gen" || label == "copy" {
+                            // the harness-side phases (the shrinker re-runs mutated candidates): the original finding is already
+                            // recorded; a candidate that kills/hangs the worker is not followed up
+                            ctx.count(&format!("worker_lost_during_{}", label), 1);
+                        } else {
+                            let case = gen_case(&penv, uname, idx);
+                            let (entry, kind, _) = attribute(&case, &label);
+                            let prov_key = format!("{}/{}/{}", entry, kind, if soft_expired { "hang".to_string() } else { format!("abort:{}", class) });
+                            let n = prov_counts.entry(prov_key.clone()).or_insert(0);
+                            *n += 1;
+                            ctx.nontrivial(fnv(prov_key.as_bytes()) ^ idx);
+                            if soft_expired {
+                                ua.soft_expiries += 1;
+                                if *n <= 2 && hang_tasks < 8 {
+                                    hang_tasks += 1;
+                                    let _ = tx.send(Task::Hang { case, label: label.clone(), prov_key });
+                                } else {
+                                    ctx.count("soft_deadline_cases_not_rerun_cap", 1);
+                                }
+                            } else {
+                                ua.deaths += 1;
+                                if *n <= 2 && death_tasks < 40 {
+                                    death_tasks += 1;
+                                    let _ = tx.send(Task::Death { case, class, label: label.clone(), stderr: stderr_tail, prov_key });
+                                }
+                            }
+                        }
+                        let next = idx + 1;
+                        if next < r.job.end {
+                            if r.job.restarts < max_restarts {
+                                queue.push_front(Job { unit: r.job.unit, start: next, end: r.job.end, restarts: r.job.restarts + 1 });
+                            } else {
+                                agg.units.entry(uname.to_string()).or_default().skipped += r.job.end - next;
+                                ctx.count("jobs_abandoned_after_repeated_deaths", 1);
+                            }
+                        }
+                    }
+                } else {
+                    let fin = read_blackbox(&r.dir.join("bb")).map(|b| b.2).unwrap_or(0);
+                    let planned = r.job.end - r.job.start;
+                    if fin < planned {
+                        agg.units.entry(uname.to_string()).or_default().skipped += planned - fin;
+                    }
+                }
+                let _ = std::fs::remove_dir_all(&r.dir);
+                continue;
+            }
+            i += 1;
+        }
+        std::thread::sleep(Duration::from_millis(15));
+    }
+    for j in queue.iter() {
+        agg.units.entry(j.unit.to_string()).or_default().skipped += j.end - j.start;
+    }
+    let main_phase_s = t0.elapsed().as_secs_f64();
+    // wait for the investigations (second stage of the hang rule may take 120 CPU-s per case)
+    drop(tx);
+    for w in workers {
+        let _ = w.join();
+    }
+    let tr = std::mem::take(&mut *results.lock().unwrap());
+    let mut final_of: HashMap<String, String> = HashMap::new();
+    for (sig, assertion, detail, prov) in tr.findings {
+        final_of.entry(prov).or_insert_with(|| sig.clone());
+        let unit = detail["case"]["unit"].as_str().unwrap_or("").to_string();
+        let mut ex = detail.clone();
+        let min = ex.as_object_mut().and_then(|m| m.remove("minimized")).filter(|m| !m.is_null());
+        agg.add_sig(&unit, &sig, &assertion, 0, Some(ex));
+        if let Some(m) = min {
+            let s = agg.sigs.entry(sig.clone()).or_default();
+            if s.minimized.is_none() {
+                s.minimized = Some(m);
+            }
+        }
+    }
+    for (prov, n) in &prov_counts {
+        // occurrences are booked on the signature the investigated witness resolved to; a suspected hang that
+        // finished when run alone resolves to nothing and is only counted
+        if let Some(sig) = final_of.get(prov) {
+            agg.sigs.entry(sig.clone()).or_default().count += n;
+        } else if !prov.ends_with("/hang") && !prov.ends_with("abort:SIGKILL") {
+            let sig = format!("{}/{}", PROP, prov);
+            agg.add_sig("", &sig, "no_abort", *n, Some(json!({"note": "worker deaths of this kind were seen but none was investigated (cap reached)"})));
+        }
+    }
+    for (k, n) in tr.counters {
+        ctx.count(&k, n);
+    }
+    if !tr.notes.is_empty() {
+        ctx.extra.insert("notes".into(), Value::Array(tr.notes.into_iter().take(12).collect()));
+    }
+    let not_run: u64 = agg.units.values().map(|u| u.skipped).sum();
+    ctx.count("cases_planned_but_not_run", not_run);
+    ctx.count("child_processes", jobno);
+    ctx.count("single_case_child_processes", runner.counter.load(Ordering::Relaxed));
+    ctx.extra.insert("lanes".into(), json!(lanes));
+    ctx.extra.insert("budget_s".into(), json!(budget_s));
+    ctx.extra.insert("main_phase_s".into(), json!(main_phase_s));
+    for (u, ua) in agg.units.iter() {
+        if ua.planned > 0 && ua.cases == 0 {
+            ctx.inconclusive(&format!("unit {} executed no case", u));
+        }
+    }
+    ctx.assumptions.push("workers run cases on a thread with an 8 MiB stack under RLIMIT_AS = 4 GiB; a stack overflow or allocation failure under these limits is reported (abort:stack_overflow / abort:alloc_abort)".into());
+    ctx.assumptions.push("hang rule: a call that burns 20 CPU-s (all threads of the worker; wall fallback 240 s without heartbeat) is abandoned and its case re-run alone with a 120 CPU-s limit (wall fallback 400 s); only the second expiry is reported as <...>/hang. Row-combination budget of generated statements: product of the cardinalities of all table references <= 50000; size arguments of string functions are <= 300 or >= 2^40 (unsatisfiable)".into());
+    ctx.assumptions.push("the harness profile has overflow-checks and debug-assertions on: signatures listed under signatures_depending_on_overflow_checks_or_debug_assertions are panics only in such a build (a release build wraps / skips the assertion)".into());
+    ctx.assumptions.push("OwnedValue::Jsonb / ToastPointer parameters carry internal encodings; only empty or tiny payloads are passed (arbitrary bytes there are C23's domain)".into());
+    ctx.exhaustive = Some(false);
+    for (u, i) in [("gram", 3u64), ("mut", 5), ("params", 2), ("api", 1), ("deep", 7), ("func", 11)] {
+        if let Ok(c) = guard(|| gen_case(&penv, u, i)) {
+            let mut v = c.to_json();
+            // keep samples short
+            if v.to_string().len() > 3000 {
+                v = json!({"unit": u, "idx": i, "tag": c.tag, "steps": c.steps.len(), "note": "large case elided"});
+            }
+            ctx.sample(v);
+        }
+    }
+    agg.finish(&mut ctx);
+    let _ = std::fs::remove_dir_all(&root);
+    ctx.finish()
+}
+
+/// `tv C22 --replay <file>`: run the (minimal) case of a replay file in a monitored child and print what happened
+fn replay_main(a: &Args, path: &str) -> i32 {
+    let root = PathBuf::from(format!("{}/scratch/c22-{}", report::VERIF_DIR, std::process::id()));
+    fresh_dir(&root);
+    let txt = match std::fs::read_to_string(path) {
+        Ok(t) => t,
+        Err(e) => {
+            eprintln!("cannot read {}: {}", path, e);
+            return 2;
+        }
+    };
+    let v: Value = serde_json::from_str(&txt).unwrap_or(Value::Null);
+    let cv = if v.get("steps").is_some() {
+        v.clone()
+    } else if v["detail"]["minimized"]["case"].get("steps").is_some() {
+        v["detail"]["minimized"]["case"].clone()
+    } else {
+        v["detail"]["examples"][0]["case"].clone()
+    };
+    let case = match Case::from_json(&cv) {
+        Some(c) => c,
+        None => {
+            eprintln!("no case in {}", path);
+            let _ = std::fs::remove_dir_all(&root);
+            return 2;
+        }
+    };
+    if let Err(e) = ensure_bases(&root) {
+        eprintln!("cannot build the base database: {}", e);
+        let _ = std::fs::remove_dir_all(&root);
+        return 2;
+    }
+    let runner = OneRunner { exe: std::env::current_exe().expect("exe"), root: root.clone(), tier: a.tier.clone(), seed: a.seed, counter: AtomicU64::new(0) };
+    let r = runner.run(&case, HARD_CPU_S, 400.0);
+    let code = match &r {
+        OneResult::Finished(v, wall) => {
+            println!("returned in {:.2}s: {}", wall, serde_json::to_string_pretty(v).unwrap_or_default());
+            if v["failure"].is_null() {
+                0
+            } else {
+                println!("VIOLATION property={} replay={}", PROP, path);
+                1
+            }
+        }
+        OneResult::Died(c, l, e) => {
+            println!("worker died: abort:{} at step {} stderr={:?}", c, l, e);
+            println!("VIOLATION property={} replay={}", PROP, path);
+            1
+        }
+        OneResult::Expired(l, b) => {
+            println!("hang: {:.0} CPU-s burned at step {}", b, l);
+            println!("VIOLATION property={} replay={}", PROP, path);
+            1
+        }
+        OneResult::Spawn(e) => {
+            println!("INCONCLUSIVE property={} reason=cannot run child: {}", PROP, e);
+            2
+        }
+    };
+    let _ = std::fs::remove_dir_all(&root);
+    code
+}
+
+pub fn run(a: &Args) -> i32 {
+    match a.rest.first().map(|s| s.as_str()) {
+        Some("child") => return child_main(a),
+        Some("one") => return one_main(a),
+        _ => {}
+    }
+    if cfg!(miri) {
+        println!("INCONCLUSIVE property={} reason=C22 needs worker subprocesses and files (not runnable under Miri)", PROP);
+        return 2;
+    }
+    if let Some(p) = &a.replay {
+        return replay_main(a, p);
+    }
+    parent_main(a)
 }
